@@ -7,21 +7,29 @@ triple set yields
 
 `Model/Sparql.lean` has the standard algebra (`transStd`, `eval`, `specSelect`, `specCount`,
 `specUpdate`) and the model of what `sparql_translator.rs` + `planner_rdf.rs` + the operators of
-`grafeo-core` do (`transCode`, `exec`, `execSelect`, `execCount`, `execUpdate`). The statement "the
+`grafeo-core` do (`transCode`, `exec`, `execSelect`, `execCount`, `execUpdate`), plus — in
+`namespace Old` — the model of the code before the repairs of this round. The statement "the
 planner's answer is the algebra's answer for every triple set and every query of the core grammar"
-is **false** for the code as it is. Every way in which it fails is a witness theorem (`w_*`,
-decided by evaluation on the term pool of stream `sparql` and replayed on the real code by
-`corpus/C13/sparql.ops`); the strongest statements that do hold are the `*_partial` theorems — for
-every store reachable by any sequence of inserts / removes / clears, with or without object index,
-every iteration order of the primary hash set, and every query that satisfies an explicit decidable
-condition:
+is still **false** for the code as it is, because the engine's columns hold the lexical forms of
+terms (strings), not terms. Every way in which it fails is a witness theorem (`w_*`, decided by
+evaluation on the term pool of stream `sparql` and replayed on the real code by
+`corpus/C13/sparql.ops`); the defects that have been repaired are regression witnesses about the
+old model (`Old.w_*`) together with `r_*`: the same instance is answered correctly now. The
+strongest statements that hold are the `*_partial` theorems — for every store reachable by any
+sequence of inserts / removes / clears, with or without object index, every iteration order of
+the primary hash set, and every query that satisfies an explicit decidable condition:
 
-* `c13_sparql_pattern_partial` (core: `exec_perm_eval`): BGPs, joins on shared variables, FILTER,
-  OPTIONAL (left join), UNION — the rows of the physical plan, read as solutions, are a permutation
-  of the algebra's solutions (`wfPat`; lexical forms pairwise different; `=` is term identity);
-* `c13_sparql_select_partial` (projection), `c13_sparql_order_partial` (ORDER BY with total keys,
-  then OFFSET / LIMIT / projection: the same *sequence*), `c13_sparql_slice_partial` (OFFSET / LIMIT
-  without ORDER BY: right size, sub-multiset), `c13_sparql_count_partial` (COUNT without GROUP BY);
+* `c13_sparql_pattern_partial` (core: `exec_perm_eval`): the empty group, BGPs (a variable may
+  occur twice in a pattern), joins on shared variables, FILTER, OPTIONAL (left join), UNION with
+  any variable sets — the rows of the physical plan, read as solutions, are a permutation of the
+  algebra's solutions (`wfPat`; lexical forms pairwise different; `=` is term identity);
+* `transCode_eq` (full): for *every* group the translator's plan is the standard translation with
+  the condition of each OPTIONAL moved into its right operand (`normalize`); `eval_transCode`: the
+  two evaluate alike when no such condition reads a variable of the left operand (`scopeOk`);
+* `c13_sparql_select_partial` (projection, DISTINCT), `c13_sparql_order_partial` (ORDER BY with
+  total keys, then projection / DISTINCT / OFFSET / LIMIT: the same *sequence*),
+  `c13_sparql_slice_partial` (OFFSET / LIMIT without ORDER BY: right size, sub-multiset),
+  `c13_sparql_count_partial` (COUNT(\*), COUNT(?x) without GROUP BY);
 * `c13_sparql_insert_data_partial`, `c13_sparql_delete_data_partial`,
   `c13_sparql_delete_where_partial`, `c13_sparql_modify_partial`: the resulting set of triples is
   the specification's;
@@ -119,25 +127,20 @@ theorem selRows_allSel (rows : List Row) : selRows (allSel rows) = rows := by
     simp only [allSel, selRows, List.map_cons, List.filter_cons, if_true] at *
     rw [ih]
 
-theorem nullPolicy_vfix (env : Env) (h : env.vfix = true) (w : Nat) (rows : List Row) :
-    nullPolicy env w rows = rows := by
-  simp [nullPolicy, h]
+theorem selRows_rebuild (rows : List Row) : selRows (rebuild rows) = rows := selRows_allSel rows
 
-theorem selRows_rebuild (env : Env) (h : env.vfix = true) (w : Nat) (rows : List Row) :
-    selRows (rebuild env w rows) = rows.map (·.map (strOfCell env)) := by
-  simp [rebuild, nullPolicy_vfix env h, selRows_allSel]
-
-theorem rows_rebuild_chunks (env : Env) (h : env.vfix = true) (w k : Nat) (hk : 0 < k) (X : List Row) :
-    ((chunksOf k X).map (rebuild env w)).flatMap selRows = X.map (·.map (strOfCell env)) := by
+theorem rows_rebuild_chunks (k : Nat) (hk : 0 < k) (X : List Row) :
+    ((chunksOf k X).map rebuild).flatMap selRows = X := by
   rw [List.flatMap_map]
-  have : (fun a => selRows (rebuild env w a)) = fun (c : List Row) => c.map (·.map (strOfCell env)) := by
+  have : (fun a => selRows (rebuild a)) = fun (c : List Row) => c.map id := by
     funext a
-    exact selRows_rebuild env h w a
-  rw [this]
-  exact chunksOf_flatMap k hk X _
+    simp [selRows_rebuild]
+  rw [this, chunksOf_flatMap k hk]
+  simp
 
 theorem rows_scanT (env : Env) (st : Store) (full : List Triple) (tp : TP) :
-    (scanT env st full tp).rows = (findIn st full (tpPattern env tp)).map (tripleRow env tp) := by
+    (scanT env st full tp).rows =
+      ((findIn st full (tpPattern env tp)).filter fun t => sameTerm [] (tpBinds tp t)).map (scanRow env tp) := by
   simp only [scanT, Table.rows, List.flatMap_map]
   have : (fun a => selRows (allSel a)) = fun (c : List Row) => c.map id := by
     funext a
@@ -145,15 +148,13 @@ theorem rows_scanT (env : Env) (st : Store) (full : List Triple) (tp : TP) :
   rw [this, chunksOf_flatMap scanChunk (by decide)]
   simp
 
-theorem rows_nlJoin (env : Env) (h : env.vfix = true) (left : Bool) (ta tb : Table) :
-    (nlJoin env left ta tb).rows =
-      (ta.rows.flatMap (joinOne left (sharedPairs ta.cols tb.cols) (keepRight ta.cols tb.cols) tb.rows)).map
-        (·.map (strOfCell env)) := by
+theorem rows_nlJoin (left : Bool) (ta tb : Table) :
+    (nlJoin left ta tb).rows =
+      ta.rows.flatMap (joinOne left (sharedPairs ta.cols tb.cols) (keepRight ta.cols tb.cols) tb.rows) := by
   simp only [nlJoin, Table.rows, List.flatMap_assoc]
-  rw [List.map_flatMap]
   apply flatMap_congr'
   intro c _
-  rw [rows_rebuild_chunks env h _ joinChunk (by decide), List.map_flatMap]
+  rw [rows_rebuild_chunks joinChunk (by decide)]
 
 theorem selRows_filterChunk (env : Env) (cols : List Nat) (e : Expr) (c : Chunk) :
     selRows (filterChunk env cols e c) = (selRows c).filter (passes env cols e) := by
@@ -253,158 +254,180 @@ theorem set_get (μ : Sol) (v w x : Nat) :
     · simp [h2]
   · simp [h]
 
-theorem bindPT_const (μ : Sol) (c x : Nat) : bindPT μ (.const c) x = if c = x then some μ else none := rfl
+/-! ### a triple pattern against a triple: the scan and `matchTP` -/
 
-theorem bindPT_var_fresh (μ : Sol) (v x : Nat) (h : μ.get v = none) :
-    bindPT μ (.var v) x = some (μ.set v (some x)) := by
-  simp [bindPT, bindVar, h]
+/-- sequential binding, as `matchTP` does it -/
+def bindAll (μ : Sol) : List (Nat × Nat) → Option Sol
+  | [] => some μ
+  | b :: rest => (bindVar μ b.1 b.2).bind fun μ' => bindAll μ' rest
 
-theorem scan_point (env : Env) (n : Nat) (tp : TP) (t : Triple)
-    (hlin : (tpCols tp).Nodup) (hlt : ∀ v ∈ tpCols tp, v < n)
-    (hst : ∀ c ∈ tpConsts tp, env.litNorm c = c) :
-    (if (tpPattern env tp).matches t then some (toSol n (tpCols tp) (tripleRow env tp t)) else none)
-      = (matchTP n tp t).map (lexSol env) := by
-  obtain ⟨s, p, o⟩ := tp
-  obtain ⟨ts, tp', to⟩ := t
-  cases s <;> cases p <;> cases o <;>
-    simp only [tpCols, ptCols, tpConsts, ptConsts, List.append_nil, List.nil_append, List.cons_append,
-      List.mem_cons, List.not_mem_nil, or_false, forall_eq_or_imp, forall_eq, List.nodup_cons, List.nodup_nil,
-      and_true, not_or] at hlin hlt hst
+def constOk (pt : PT) (x : Nat) : Bool :=
+  match pt with
+  | .const c => c == x
+  | .var _ => true
+
+def constsOk (tp : TP) (t : Triple) : Bool := constOk tp.s t.s && constOk tp.p t.p && constOk tp.o t.o
+
+theorem bindAll_append (μ : Sol) (a b : List (Nat × Nat)) :
+    bindAll μ (a ++ b) = (bindAll μ a).bind fun μ' => bindAll μ' b := by
+  induction a generalizing μ with
+  | nil => rfl
+  | cons x xs ih =>
+    simp only [List.cons_append, bindAll]
+    cases bindVar μ x.1 x.2 with
+    | none => rfl
+    | some μ' => simp [ih]
+
+theorem bindPT_eq (μ : Sol) (pt : PT) (x : Nat) :
+    bindPT μ pt x = if constOk pt x then bindAll μ (ptBind pt x) else none := by
+  cases pt with
+  | const c =>
+    simp only [bindPT, constOk, ptBind, bindAll, beq_iff_eq]
+  | var v =>
+    simp only [bindPT, constOk, ptBind, bindAll, if_true]
+    cases bindVar μ v x <;> rfl
+
+theorem matchTP_eq (n : Nat) (tp : TP) (t : Triple) :
+    matchTP n tp t = if constsOk tp t then bindAll (emptySol n) (tpBinds tp t) else none := by
+  simp only [matchTP, bindPT_eq, constsOk, tpBinds, bindAll_append]
+  cases constOk tp.s t.s <;> cases constOk tp.p t.p <;> cases constOk tp.o t.o <;> simp
   all_goals
-    simp only [tpPattern, patPos, Pattern.matches, matchTP, bindPT_const, tripleRow, ptCell, tpCols, ptCols,
-      List.append_nil, List.nil_append, List.cons_append, Bool.and_true, Bool.true_and, beq_iff_eq, Bool.and_eq_true]
-  case var.var.var a b c =>
-    have h1 : bindPT (emptySol n) (.var a) ts = some ((emptySol n).set a (some ts)) :=
-      bindPT_var_fresh _ _ _ (emptySol_get n a)
-    have h2 : bindPT ((emptySol n).set a (some ts)) (.var b) tp' = some (((emptySol n).set a (some ts)).set b (some tp')) := by
-      apply bindPT_var_fresh
-      rw [set_get]
-      simp [hlin.1.1, emptySol_get]
-    have h3 : bindPT (((emptySol n).set a (some ts)).set b (some tp')) (.var c) to =
-        some ((((emptySol n).set a (some ts)).set b (some tp')).set c (some to)) := by
-      apply bindPT_var_fresh
-      rw [set_get, set_get]
-      simp [hlin.1.2, hlin.2.1, emptySol_get]
-    simp only [h1, h2, h3, Option.bind_some, if_true, Option.map_some]
-    congr 1
-    apply sol_ext (n := n) _ _ (toSol_length _ _ _) (by simp [lexSol_length, emptySol_length])
-    intro w hw
-    rw [toSol_get _ _ _ _ hw, lexSol_get, set_get, set_get, set_get, emptySol_get]
-    simp only [lookupCol, cellVal, List.length_set, emptySol_length]
-    grind
-  case var.var.const a b c =>
-    have h1 : bindPT (emptySol n) (.var a) ts = some ((emptySol n).set a (some ts)) :=
-      bindPT_var_fresh _ _ _ (emptySol_get n a)
-    have h2 : bindPT ((emptySol n).set a (some ts)) (.var b) tp' = some (((emptySol n).set a (some ts)).set b (some tp')) := by
-      apply bindPT_var_fresh
-      rw [set_get]
-      simp [hlin.1, emptySol_get]
-    rw [hst]
-    simp only [h1, h2, Option.bind_some]
-    by_cases hc : c = to
-    · simp only [hc, if_true, Option.map_some]
-      congr 1
-      apply sol_ext (n := n) _ _ (toSol_length _ _ _) (by simp [lexSol_length, emptySol_length])
-      intro w hw
-      rw [toSol_get _ _ _ _ hw, lexSol_get, set_get, set_get, emptySol_get]
-      simp only [lookupCol, cellVal, List.length_set, emptySol_length]
-      grind
-    · simp [hc]
-  case var.const.var a c b =>
-    have h1 : bindPT (emptySol n) (.var a) ts = some ((emptySol n).set a (some ts)) :=
-      bindPT_var_fresh _ _ _ (emptySol_get n a)
-    have h2 : bindPT ((emptySol n).set a (some ts)) (.var b) to = some (((emptySol n).set a (some ts)).set b (some to)) := by
-      apply bindPT_var_fresh
-      rw [set_get]
-      simp [hlin.1, emptySol_get]
-    rw [hst]
-    simp only [h1, Option.bind_some]
-    by_cases hc : c = tp'
-    · simp only [hc, if_true, Option.map_some, Option.bind_some, h2]
-      congr 1
-      apply sol_ext (n := n) _ _ (toSol_length _ _ _) (by simp [lexSol_length, emptySol_length])
-      intro w hw
-      rw [toSol_get _ _ _ _ hw, lexSol_get, set_get, set_get, emptySol_get]
-      simp only [lookupCol, cellVal, List.length_set, emptySol_length]
-      grind
-    · simp [hc]
-  case var.const.const a c d =>
-    have h1 : bindPT (emptySol n) (.var a) ts = some ((emptySol n).set a (some ts)) :=
-      bindPT_var_fresh _ _ _ (emptySol_get n a)
-    rw [hst.1, hst.2]
-    simp only [h1, Option.bind_some]
-    by_cases hc : c = tp'
-    · by_cases hd : d = to
-      · simp only [hc, hd, and_self, if_true, Option.map_some, Option.bind_some]
+    cases bindAll (emptySol n) (ptBind tp.s t.s) <;> simp
+  all_goals
+    rename_i μ
+    cases bindAll μ (ptBind tp.p t.p) <;> simp
+
+def lookupB (bs : List (Nat × Nat)) (w : Nat) : Option Nat := (bs.find? fun s => s.1 == w).map (·.2)
+
+/-- the solution binds exactly what the list says -/
+def Rep (μ : Sol) (seen : List (Nat × Nat)) : Prop := ∀ w, μ.get w = lookupB seen w
+
+theorem lookupB_append_single (seen : List (Nat × Nat)) (v x w : Nat) (h : lookupB seen v = none) :
+    lookupB (seen ++ [(v, x)]) w = if v = w then some x else lookupB seen w := by
+  simp only [lookupB, List.find?_append]
+  by_cases hvw : v = w
+  · subst hvw
+    simp only [lookupB, Option.map_eq_none_iff] at h
+    simp [h]
+  · simp only [if_neg hvw]
+    cases hf : seen.find? (fun s => s.1 == w) with
+    | some s => simp
+    | none => simp [hvw]
+
+theorem bindAll_spec (n : Nat) (bs : List (Nat × Nat)) (μ : Sol) (seen : List (Nat × Nat))
+    (hlen : μ.length = n) (hlt : ∀ b ∈ bs, b.1 < n) (hrep : Rep μ seen) :
+    if sameTerm seen bs = true then
+      ∃ μ', bindAll μ bs = some μ' ∧ μ'.length = n ∧ Rep μ' (seen ++ firstBinds seen bs)
+    else bindAll μ bs = none := by
+  induction bs generalizing μ seen with
+  | nil =>
+    simp only [sameTerm, if_true, bindAll, firstBinds, List.append_nil]
+    exact ⟨μ, rfl, hlen, hrep⟩
+  | cons b rest ih =>
+    obtain ⟨v, x⟩ := b
+    have hv : v < n := hlt (v, x) List.mem_cons_self
+    have hrest : ∀ b ∈ rest, b.1 < n := fun b hb => hlt b (List.mem_cons_of_mem _ hb)
+    have hget := hrep v
+    cases hf : seen.find? (fun s => s.1 == v) with
+    | some s =>
+      simp only [sameTerm, firstBinds, bindAll, hf]
+      have hany : (seen.any fun s => s.1 == v) = true := by
+        rw [List.any_eq_true]
+        exact ⟨s, List.mem_of_find?_eq_some hf, (List.find?_eq_some_iff_append.mp hf).1⟩
+      simp only [lookupB, hf, Option.map_some] at hget
+      simp only [hany, if_true, bindVar, hget]
+      by_cases hsx : s.2 = x
+      · simp only [hsx, beq_self_eq_true, Bool.true_and, if_true, Option.bind_some]
+        exact ih μ seen hlen hrest hrep
+      · have : (s.2 == x) = false := beq_eq_false_iff_ne.mpr hsx
+        simp [this, hsx]
+    | none =>
+      simp only [sameTerm, firstBinds, bindAll, hf]
+      have hany : (seen.any fun s => s.1 == v) = false := by
+        rw [List.any_eq_false]
+        intro s hs
+        have := List.find?_eq_none.mp hf s hs
+        simpa using this
+      simp only [lookupB, hf, Option.map_none] at hget
+      simp only [hany, Bool.false_eq_true, if_false, bindVar, hget, Option.bind_some]
+      have hrep' : Rep (μ.set v (some x)) (seen ++ [(v, x)]) := by
+        intro w
+        rw [set_get, lookupB_append_single seen v x w (by simp [lookupB, hf]), hrep w]
+        by_cases hvw : v = w
+        · subst hvw
+          rw [if_pos ⟨rfl, by omega⟩, if_pos rfl]
+        · rw [if_neg (fun h => hvw h.1), if_neg hvw]
+      have := ih (μ.set v (some x)) (seen ++ [(v, x)]) (by simp [hlen]) hrest hrep'
+      simpa [List.append_assoc] using this
+
+theorem firstBinds_keys (seen bs : List (Nat × Nat)) :
+    (firstBinds seen bs).map (·.1) = firstKeys (seen.map (·.1)) (bs.map (·.1)) := by
+  induction bs generalizing seen with
+  | nil => rfl
+  | cons b rest ih =>
+    have hc : (seen.any fun s => s.1 == b.1) = (seen.map (·.1)).contains b.1 := by
+      induction seen with
+      | nil => rfl
+      | cons s ss ihs =>
+        simp only [List.any_cons, List.map_cons, List.contains_cons, ihs]
         congr 1
-        apply sol_ext (n := n) _ _ (toSol_length _ _ _) (by simp [lexSol_length, emptySol_length])
-        intro w hw
-        rw [toSol_get _ _ _ _ hw, lexSol_get, set_get, emptySol_get]
-        simp only [lookupCol, cellVal, emptySol_length]
-        grind
-      · simp [hc, hd]
-    · simp [hc]
-  case const.var.var c a b =>
-    rw [hst]
-    by_cases hc : c = ts
-    · have h1 : bindPT (emptySol n) (.var a) tp' = some ((emptySol n).set a (some tp')) :=
-        bindPT_var_fresh _ _ _ (emptySol_get n a)
-      have h2 : bindPT ((emptySol n).set a (some tp')) (.var b) to = some (((emptySol n).set a (some tp')).set b (some to)) := by
-        apply bindPT_var_fresh
-        rw [set_get]
-        simp [hlin.1, emptySol_get]
-      simp only [hc, if_true, Option.bind_some, h1, h2, Option.map_some]
-      congr 1
-      apply sol_ext (n := n) _ _ (toSol_length _ _ _) (by simp [lexSol_length, emptySol_length])
+        exact Bool.beq_comm
+    simp only [firstBinds, List.map_cons, firstKeys, hc]
+    split
+    · exact ih seen
+    · simp only [List.map_cons, ih, List.map_append, List.map_nil]
+
+theorem tpBinds_keys (tp : TP) (t : Triple) : (tpBinds tp t).map (·.1) = tpCols tp := by
+  obtain ⟨s, p, o⟩ := tp
+  cases s <;> cases p <;> cases o <;> rfl
+
+theorem lookupCol_binds (env : Env) (fb : List (Nat × Nat)) (w : Nat) :
+    lookupCol (fb.map (·.1)) (fb.map fun b => Cell.str (env.lex b.2)) w = (lookupB fb w).map env.lex := by
+  induction fb with
+  | nil => rfl
+  | cons b rest ih =>
+    simp only [List.map_cons, lookupCol, lookupB, List.find?_cons]
+    by_cases h : b.1 = w
+    · simp [h, cellVal]
+    · have : (b.1 == w) = false := beq_eq_false_iff_ne.mpr h
+      simp only [if_neg h, this]
+      exact ih
+
+/-- one triple: what the scan hands on for it is what the pattern matches -/
+theorem scan_point (env : Env) (n : Nat) (tp : TP) (t : Triple)
+    (hlt : ∀ v ∈ tpCols tp, v < n) (hst : ∀ c ∈ tpConsts tp, env.litNorm c = c) :
+    (if (tpPattern env tp).matches t && sameTerm [] (tpBinds tp t) then
+        some (toSol n (scanCols tp) (scanRow env tp t)) else none)
+      = (matchTP n tp t).map (lexSol env) := by
+  have hm : (tpPattern env tp).matches t = constsOk tp t := by
+    obtain ⟨s, p, o⟩ := tp
+    cases s <;> cases p <;> cases o <;>
+      simp_all [tpPattern, patPos, Pattern.matches, constsOk, constOk, tpConsts, ptConsts]
+  rw [hm, matchTP_eq]
+  cases hc : constsOk tp t
+  · rfl
+  · simp only [Bool.true_and, if_true]
+    have hb : ∀ b ∈ tpBinds tp t, b.1 < n := by
+      intro b hb
+      apply hlt
+      rw [← tpBinds_keys tp t]
+      exact List.mem_map_of_mem hb
+    have hspec := bindAll_spec n (tpBinds tp t) (emptySol n) [] (emptySol_length n) hb
+      (fun w => by simp [emptySol_get, lookupB])
+    cases hs : sameTerm [] (tpBinds tp t)
+    · simp only [hs, Bool.false_eq_true, if_false] at hspec ⊢
+      rw [hspec]; rfl
+    · simp only [hs, if_true, List.nil_append] at hspec ⊢
+      obtain ⟨μ', h1, h2, h3⟩ := hspec
+      rw [h1]
+      simp only [Option.map_some, Option.some.injEq]
+      apply sol_ext (n := n) _ _ (toSol_length _ _ _) (by rw [lexSol_length, h2])
       intro w hw
-      rw [toSol_get _ _ _ _ hw, lexSol_get, set_get, set_get, emptySol_get]
-      simp only [lookupCol, cellVal, List.length_set, emptySol_length]
-      grind
-    · simp [hc]
-  case const.var.const c a d =>
-    rw [hst.1, hst.2]
-    by_cases hc : c = ts
-    · have h1 : bindPT (emptySol n) (.var a) tp' = some ((emptySol n).set a (some tp')) :=
-        bindPT_var_fresh _ _ _ (emptySol_get n a)
-      by_cases hd : d = to
-      · simp only [hc, hd, and_self, if_true, Option.bind_some, h1, Option.map_some]
-        congr 1
-        apply sol_ext (n := n) _ _ (toSol_length _ _ _) (by simp [lexSol_length, emptySol_length])
-        intro w hw
-        rw [toSol_get _ _ _ _ hw, lexSol_get, set_get, emptySol_get]
-        simp only [lookupCol, cellVal, emptySol_length]
-        grind
-      · simp [hc, hd, h1]
-    · simp [hc]
-  case const.const.var c d a =>
-    rw [hst.1, hst.2]
-    by_cases hc : c = ts
-    · by_cases hd : d = tp'
-      · have h1 : bindPT (emptySol n) (.var a) to = some ((emptySol n).set a (some to)) :=
-          bindPT_var_fresh _ _ _ (emptySol_get n a)
-        simp only [hc, hd, and_self, if_true, Option.bind_some, h1, Option.map_some]
-        congr 1
-        apply sol_ext (n := n) _ _ (toSol_length _ _ _) (by simp [lexSol_length, emptySol_length])
-        intro w hw
-        rw [toSol_get _ _ _ _ hw, lexSol_get, set_get, emptySol_get]
-        simp only [lookupCol, cellVal, emptySol_length]
-        grind
-      · simp [hc, hd]
-    · simp [hc]
-  case const.const.const c d e =>
-    rw [hst.1, hst.2.1, hst.2.2]
-    by_cases hc : c = ts
-    · by_cases hd : d = tp'
-      · by_cases he : e = to
-        · simp only [hc, hd, he, and_self, if_true, Option.bind_some, Option.map_some]
-          congr 1
-          apply sol_ext (n := n) _ _ (toSol_length _ _ _) (by simp [lexSol_length, emptySol_length])
-          intro w hw
-          rw [toSol_get _ _ _ _ hw, lexSol_get, emptySol_get]
-          simp [lookupCol]
-        · simp [hc, hd, he]
-      · simp [hc, hd]
-    · simp [hc]
+      rw [toSol_get _ _ _ _ hw, lexSol_get, h3 w]
+      have hk : scanCols tp = (firstBinds [] (tpBinds tp t)).map (·.1) := by
+        rw [firstBinds_keys, tpBinds_keys]; rfl
+      rw [hk]
+      exact lookupCol_binds env _ w
 
 /-- what the induction over the plan maintains about a physical table -/
 structure Good (n : Nat) (cert : List Nat) (t : Table) : Prop where
@@ -436,47 +459,80 @@ theorem lookupCol_isSome_of_str (cols : List Nat) (row : Row) (v : Nat) (hv : v 
         · intro c' hc'
           exact hs c' (List.mem_cons_of_mem _ hc')
 
-theorem tripleRow_length (env : Env) (tp : TP) (t : Triple) : (tripleRow env tp t).length = (tpCols tp).length := by
-  obtain ⟨s, p, o⟩ := tp
-  cases s <;> cases p <;> cases o <;> simp [tripleRow, ptCell, tpCols, ptCols]
+theorem firstKeys_spec (seen l : List Nat) :
+    (firstKeys seen l).Nodup ∧ (∀ v ∈ firstKeys seen l, v ∈ l ∧ v ∉ seen) := by
+  induction l generalizing seen with
+  | nil => exact ⟨List.nodup_nil, fun v h => by cases h⟩
+  | cons x xs ih =>
+    simp only [firstKeys]
+    split
+    · obtain ⟨h1, h2⟩ := ih seen
+      exact ⟨h1, fun v hv => ⟨List.mem_cons_of_mem _ (h2 v hv).1, (h2 v hv).2⟩⟩
+    · rename_i hx
+      obtain ⟨h1, h2⟩ := ih (seen ++ [x])
+      have hxs : x ∉ seen := fun h => hx (List.contains_iff_mem.mpr h)
+      refine ⟨?_, ?_⟩
+      · rw [List.nodup_cons]
+        refine ⟨fun h => ?_, h1⟩
+        exact (h2 x h).2 (by simp)
+      · intro v hv
+        rcases List.mem_cons.mp hv with rfl | hv
+        · exact ⟨List.mem_cons_self, hxs⟩
+        · have := h2 v hv
+          exact ⟨List.mem_cons_of_mem _ this.1, fun h => this.2 (List.mem_append_left _ h)⟩
 
-theorem tripleRow_str (env : Env) (tp : TP) (t : Triple) : ∀ c ∈ tripleRow env tp t, ∃ l, c = Cell.str l := by
-  obtain ⟨s, p, o⟩ := tp
-  cases s <;> cases p <;> cases o <;> simp [tripleRow, ptCell]
+theorem scanCols_nodup (tp : TP) : (scanCols tp).Nodup := (firstKeys_spec [] (tpCols tp)).1
+
+theorem scanCols_sub (tp : TP) : ∀ v ∈ scanCols tp, v ∈ tpCols tp := fun v h => ((firstKeys_spec [] (tpCols tp)).2 v h).1
+
+theorem scanRow_length (env : Env) (tp : TP) (t : Triple) : (scanRow env tp t).length = (scanCols tp).length := by
+  have : scanCols tp = (firstBinds [] (tpBinds tp t)).map (·.1) := by
+    rw [firstBinds_keys, tpBinds_keys]; rfl
+  rw [this]
+  simp [scanRow]
+
+theorem scanRow_str (env : Env) (tp : TP) (t : Triple) : ∀ c ∈ scanRow env tp t, ∃ l, c = Cell.str l := by
+  intro c hc
+  simp only [scanRow, List.mem_map] at hc
+  obtain ⟨b, _, rfl⟩ := hc
+  exact ⟨_, rfl⟩
 
 theorem scan_good (env : Env) (st : Store) (full : List Triple) (n : Nat) (tp : TP)
-    (hlin : (tpCols tp).Nodup) (hlt : ∀ v ∈ tpCols tp, v < n) :
-    Good n (tpCols tp) (scanT env st full tp) := by
+    (hlt : ∀ v ∈ tpCols tp, v < n) :
+    Good n (scanCols tp) (scanT env st full tp) := by
   have hrows := rows_scanT env st full tp
-  refine ⟨hlin, hlt, ?_, ?_, ?_⟩
+  refine ⟨scanCols_nodup tp, fun v hv => hlt v (scanCols_sub tp v hv), ?_, ?_, ?_⟩
   · intro r hr
     rw [hrows] at hr
     obtain ⟨t, _, rfl⟩ := List.mem_map.mp hr
-    exact tripleRow_length env tp t
+    exact scanRow_length env tp t
   · intro r hr c hc k
     rw [hrows] at hr
     obtain ⟨t, _, rfl⟩ := List.mem_map.mp hr
-    obtain ⟨l, hl⟩ := tripleRow_str env tp t c hc
+    obtain ⟨l, hl⟩ := scanRow_str env tp t c hc
     simp [hl]
   · intro r hr v hv
     rw [hrows] at hr
     obtain ⟨t, _, rfl⟩ := List.mem_map.mp hr
-    exact lookupCol_isSome_of_str _ _ v hv (tripleRow_length env tp t) (tripleRow_str env tp t)
+    exact lookupCol_isSome_of_str _ _ v hv (scanRow_length env tp t) (scanRow_str env tp t)
 
 theorem scan_perm (env : Env) (b : Bool) (ops : List Op) (full : List Triple) (n : Nat) (tp : TP)
     (hfull : full.Perm (run b ops).triples)
-    (hlin : (tpCols tp).Nodup) (hlt : ∀ v ∈ tpCols tp, v < n)
+    (hlt : ∀ v ∈ tpCols tp, v < n)
     (hst : ∀ c ∈ tpConsts tp, env.litNorm c = c) :
-    (((scanT env (run b ops) full tp).rows).map (toSol n (tpCols tp))).Perm
+    (((scanT env (run b ops) full tp).rows).map (toSol n (scanCols tp))).Perm
       (((run b ops).triples.filterMap (matchTP n tp)).map (lexSol env)) := by
   rw [rows_scanT, List.map_map]
-  have h1 := (findIn_perm b ops full (tpPattern env tp) hfull).map (toSol n (tpCols tp) ∘ tripleRow env tp)
+  have h1 := ((findIn_perm b ops full (tpPattern env tp) hfull).filter
+    (fun t => sameTerm [] (tpBinds tp t))).map (toSol n (scanCols tp) ∘ scanRow env tp)
   refine h1.trans ?_
-  rw [filter_map_eq_filterMap, List.map_filterMap]
+  rw [List.filter_filter, filter_map_eq_filterMap, List.map_filterMap]
   apply List.Perm.of_eq
   apply filterMap_congr'
   intro t _
-  exact scan_point env n tp t hlin hlt hst
+  have := scan_point env n tp t hlt hst
+  rw [Bool.and_comm] at this
+  exact this
 
 theorem merge_length (a b : Sol) (n : Nat) (ha : a.length = n) (hb : b.length = n) : (merge a b).length = n := by
   simp [merge, ha, hb]
@@ -1211,13 +1267,6 @@ theorem colIdx_none (cols : List Nat) (v : Nat) (h : v ∉ cols) : colIdx cols v
   intro hxv
   exact h (hxv ▸ this)
 
-/-- the `Value` of a variable that is a column -/
-theorem ptV_var (env : Env) (cols : List Nat) (row : Row) (v : Nat) (hnd : cols.Nodup) (hv : v ∈ cols) :
-    ptV env cols row (.var v) = (lookupCell cols row v).map cellV := by
-  obtain ⟨i, hi⟩ := List.getElem?_of_mem hv
-  simp only [ptV, colIdx_of_index cols v i hnd hi, Option.bind_some,
-    lookupCell_of_index cols row v i hnd hi]
-
 def lexVal (env : Env) (σ : Sol) : PT → Option Nat
   | .var v => σ.get v
   | .const c => some (env.lex c)
@@ -1234,27 +1283,29 @@ def lexEval (env : Env) (σ : Sol) : Expr → Option Bool
   | .and a b => and3 (lexEval env σ a) (lexEval env σ b)
   | .or a b => or3 (lexEval env σ a) (lexEval env σ b)
 
-/-- operands the engine reads as the specification does: a variable that is always bound, or a
-constant that `literal_to_value` keeps as the string of its lexical form -/
-def ptSafe (env : Env) (cert : List Nat) : PT → Bool
-  | .var v => cert.contains v
+/-- constants `literal_to_value` keeps as the string of their lexical form -/
+def ptSafe (env : Env) : PT → Bool
+  | .var _ => true
   | .const c => env.constVal c == .str (env.lex c)
 
-def exprSafe (env : Env) (cols cert : List Nat) : Expr → Bool
-  | .eq a b => ptSafe env cert a && ptSafe env cert b
-  | .ne a b => ptSafe env cert a && ptSafe env cert b
+/-- the FILTER expressions the engine evaluates as the specification does (given that terms are
+told apart by their lexical forms): no `<`, string-valued constants -/
+def exprSafe (env : Env) : Expr → Bool
+  | .eq a b => ptSafe env a && ptSafe env b
+  | .ne a b => ptSafe env a && ptSafe env b
   | .lt _ _ => false
-  | .bound v => cert.contains v || !cols.contains v
-  | .not e => exprSafe env cols cert e
-  | .and a b => exprSafe env cols cert a && exprSafe env cols cert b
-  | .or a b => exprSafe env cols cert a && exprSafe env cols cert b
+  | .bound _ => true
+  | .not e => exprSafe env e
+  | .and a b => exprSafe env a && exprSafe env b
+  | .or a b => exprSafe env a && exprSafe env b
 
-/-- a row of a good table: width, and the always-bound columns hold strings -/
-structure RowOk (n : Nat) (cols cert : List Nat) (row : Row) : Prop where
+def NoInt (r : Row) : Prop := ∀ c ∈ r, ∀ k, c ≠ Cell.int k
+
+/-- a row of a good table -/
+structure RowOk (n : Nat) (cols : List Nat) (row : Row) : Prop where
   nodup : cols.Nodup
   lt : ∀ v ∈ cols, v < n
-  width : row.length = cols.length
-  cert : ∀ v ∈ cert, (lookupCol cols row v).isSome = true
+  noInt : NoInt row
 
 theorem V_str_beq (a b : Nat) : (V.str a == V.str b) = (a == b) := by
   by_cases h : a = b
@@ -1268,103 +1319,76 @@ theorem V_str_beq (a b : Nat) : (V.str a == V.str b) = (a == b) := by
 theorem V_str_bne (a b : Nat) : (V.str a != V.str b) = !(a == b) := by
   simp [bne, V_str_beq]
 
-theorem ptV_safe (env : Env) (n : Nat) (cols cert : List Nat) (row : Row) (ok : RowOk n cols cert row)
-    (a : PT) (ha : ptSafe env cert a = true) :
-    ∃ l, ptV env cols row a = some (V.str l) ∧ lexVal env (toSol n cols row) a = some l := by
+theorem boundCell_eq (c : Cell) (h : ∀ k, c ≠ Cell.int k) : boundCell c = (cellVal c).map V.str := by
+  cases c with
+  | null => rfl
+  | str l => rfl
+  | int k => exact absurd rfl (h k)
+
+/-- the `Value` of an operand is the lexical form the row gives it -/
+theorem ptV_eq (env : Env) (n : Nat) (cols : List Nat) (row : Row) (ok : RowOk n cols row)
+    (a : PT) (ha : ptSafe env a = true) :
+    ptV env cols row a = (lexVal env (toSol n cols row) a).map V.str := by
   cases a with
   | const c =>
     simp only [ptSafe, beq_iff_eq] at ha
-    exact ⟨env.lex c, by simp [ptV, ha], rfl⟩
+    simp [ptV, ha, lexVal]
   | var v =>
-    simp only [ptSafe, List.contains_iff_mem] at ha
-    have hs := ok.cert v ha
-    have hvc := mem_of_lookupCol_isSome cols row v hs
-    rw [lookupCol_eq] at hs
-    cases hc : lookupCell cols row v with
-    | none => rw [hc] at hs; cases hs
-    | some x =>
-      rw [hc] at hs
-      cases x with
-      | null => cases hs
-      | int k => cases hs
-      | str l =>
-        refine ⟨l, ?_, ?_⟩
-        · rw [ptV_var env cols row v ok.nodup hvc, hc]; rfl
-        · simp only [lexVal]
-          rw [toSol_get _ _ _ _ (ok.lt v hvc), lookupCol_eq, hc]; rfl
+    simp only [ptV, lexVal]
+    by_cases hv : v ∈ cols
+    · obtain ⟨i, hi⟩ := List.getElem?_of_mem hv
+      rw [colIdx_of_index cols v i ok.nodup hi, toSol_get _ _ _ _ (ok.lt v hv), lookupCol_eq,
+        lookupCell_of_index cols row v i ok.nodup hi]
+      simp only [Option.bind_some]
+      cases hc : row[i]? with
+      | none => rfl
+      | some x =>
+        simp only [Option.bind_some]
+        exact boundCell_eq x (ok.noInt x (List.mem_of_getElem? hc))
+    · rw [colIdx_none cols v hv]
+      by_cases hvn : v < n
+      · rw [toSol_get _ _ _ _ hvn, lookupCol_none_of_not_mem cols row v hv]; rfl
+      · have : (toSol n cols row).get v = none := by simp [Sol.get, toSol, hvn]
+        rw [this]; rfl
 
-theorem evalF_safe (env : Env) (n : Nat) (cols cert : List Nat) (row : Row) (ok : RowOk n cols cert row)
-    (e : Expr) (he : exprSafe env cols cert e = true) :
-    ∃ b, evalF env cols row e = some (V.bool b) ∧ lexEval env (toSol n cols row) e = some b := by
+theorem evalF_eq (env : Env) (n : Nat) (cols : List Nat) (row : Row) (ok : RowOk n cols row)
+    (e : Expr) (he : exprSafe env e = true) :
+    evalF env cols row e = (lexEval env (toSol n cols row) e).map V.bool := by
   induction e with
   | eq a b =>
     simp only [exprSafe, Bool.and_eq_true] at he
-    obtain ⟨la, h1, h2⟩ := ptV_safe env n cols cert row ok a he.1
-    obtain ⟨lb, h3, h4⟩ := ptV_safe env n cols cert row ok b he.2
-    refine ⟨la == lb, ?_, ?_⟩
-    · simp only [evalF, h1, h3, Option.bind_some, Option.map_some]
-      rw [V_str_beq]
-    · simp [lexEval, h2, h4, cmp2, eqLex]
+    simp only [evalF, lexEval, ptV_eq env n cols row ok a he.1, ptV_eq env n cols row ok b he.2]
+    cases lexVal env (toSol n cols row) a <;> cases lexVal env (toSol n cols row) b <;>
+      simp [cmp2, eqLex, V_str_beq]
   | ne a b =>
     simp only [exprSafe, Bool.and_eq_true] at he
-    obtain ⟨la, h1, h2⟩ := ptV_safe env n cols cert row ok a he.1
-    obtain ⟨lb, h3, h4⟩ := ptV_safe env n cols cert row ok b he.2
-    refine ⟨!(la == lb), ?_, ?_⟩
-    · simp only [evalF, h1, h3, Option.bind_some, Option.map_some]
-      rw [V_str_bne]
-    · simp [lexEval, h2, h4, cmp2, eqLex]
+    simp only [evalF, lexEval, ptV_eq env n cols row ok a he.1, ptV_eq env n cols row ok b he.2]
+    cases lexVal env (toSol n cols row) a <;> cases lexVal env (toSol n cols row) b <;>
+      simp [cmp2, eqLex, V_str_bne]
   | lt a b => simp [exprSafe] at he
   | bound v =>
-    simp only [exprSafe, Bool.or_eq_true, List.contains_iff_mem, Bool.not_eq_true'] at he
-    rcases he with h | h'
-    · have hs := ok.cert v h
-      have hvc := mem_of_lookupCol_isSome cols row v hs
-      refine ⟨true, ?_, ?_⟩
-      · simp only [evalF]
-        rw [ptV_var env cols row v ok.nodup hvc]
-        rw [lookupCol_eq] at hs
-        cases hc : lookupCell cols row v with
-        | none => rw [hc] at hs; cases hs
-        | some x => simp
-      · simp only [lexEval]
-        rw [toSol_get _ _ _ _ (ok.lt v hvc)]
-        simp [hs]
-    · have h : v ∉ cols := by
-        intro hm
-        have := List.contains_iff_mem.mpr hm
-        rw [h'] at this
-        cases this
-      refine ⟨false, ?_, ?_⟩
-      · simp [evalF, ptV, colIdx_none cols v h]
-      · simp only [lexEval]
-        by_cases hvn : v < n
-        · rw [toSol_get _ _ _ _ hvn, lookupCol_none_of_not_mem cols row v h]; rfl
-        · simp [Sol.get, toSol, hvn]
+    simp only [evalF, lexEval, ptV_eq env n cols row ok (.var v) rfl, lexVal]
+    cases (toSol n cols row).get v <;> rfl
   | not e ih =>
     simp only [exprSafe] at he
-    obtain ⟨b, h1, h2⟩ := ih he
-    exact ⟨!b, by simp [evalF, h1, asBool], by simp [lexEval, h2]⟩
+    simp only [evalF, lexEval, ih he]
+    cases lexEval env (toSol n cols row) e <;> rfl
   | and a b iha ihb =>
     simp only [exprSafe, Bool.and_eq_true] at he
-    obtain ⟨x, h1, h2⟩ := iha he.1
-    obtain ⟨y, h3, h4⟩ := ihb he.2
-    refine ⟨x && y, by simp [evalF, h1, h3, asBool], ?_⟩
-    simp only [lexEval, h2, h4]
-    cases x <;> cases y <;> rfl
+    simp only [evalF, lexEval, iha he.1, ihb he.2]
+    cases lexEval env (toSol n cols row) a <;> cases lexEval env (toSol n cols row) b <;> rfl
   | or a b iha ihb =>
     simp only [exprSafe, Bool.and_eq_true] at he
-    obtain ⟨x, h1, h2⟩ := iha he.1
-    obtain ⟨y, h3, h4⟩ := ihb he.2
-    refine ⟨x || y, by simp [evalF, h1, h3, asBool], ?_⟩
-    simp only [lexEval, h2, h4]
-    cases x <;> cases y <;> rfl
+    simp only [evalF, lexEval, iha he.1, ihb he.2]
+    cases lexEval env (toSol n cols row) a <;> cases lexEval env (toSol n cols row) b <;> rfl
 
-theorem passes_eq (env : Env) (n : Nat) (cols cert : List Nat) (row : Row) (ok : RowOk n cols cert row)
-    (e : Expr) (he : exprSafe env cols cert e = true) :
+theorem passes_eq (env : Env) (n : Nat) (cols : List Nat) (row : Row) (ok : RowOk n cols row)
+    (e : Expr) (he : exprSafe env e = true) :
     passes env cols e row = (lexEval env (toSol n cols row) e == some true) := by
-  obtain ⟨b, h1, h2⟩ := evalF_safe env n cols cert row ok e he
-  simp only [passes, h1, h2]
-  cases b <;> rfl
+  simp only [passes, evalF_eq env n cols row ok e he]
+  cases lexEval env (toSol n cols row) e with
+  | none => rfl
+  | some b => cases b <;> rfl
 
 /-- on the terms of `U`, `=` is decided by term identity (no two of them are literals that the
 operator mapping of §17.3 cannot compare, no two numerals have the same value) -/
@@ -1385,8 +1409,7 @@ def noLt : Expr → Bool
   | .or a b => noLt a && noLt b
   | _ => true
 
-theorem noLt_of_safe (env : Env) (cols cert : List Nat) (e : Expr) (h : exprSafe env cols cert e = true) :
-    noLt e = true := by
+theorem noLt_of_safe (env : Env) (e : Expr) (h : exprSafe env e = true) : noLt e = true := by
   induction e with
   | lt a b => simp [exprSafe] at h
   | not e ih => exact ih h
@@ -1458,27 +1481,6 @@ theorem evalE_eq (env : Env) (U : List Nat) (hU : LexInj env U) (hE : EqExact en
     simp only [evalE, lexEval]
     rw [iha (fun c h => hc c (by simp [exprConsts, h])) hn.1, ihb (fun c h => hc c (by simp [exprConsts, h])) hn.2]
 
-def NoInt (r : Row) : Prop := ∀ c ∈ r, ∀ k, c ≠ Cell.int k
-
-theorem strOfCell_id (env : Env) (r : Row) (h : NoInt r) : r.map (strOfCell env) = r := by
-  induction r with
-  | nil => rfl
-  | cons c cs ih =>
-    simp only [List.map_cons]
-    rw [ih (fun c' hc' => h c' (List.mem_cons_of_mem _ hc'))]
-    cases c with
-    | int k => exact absurd rfl (h (Cell.int k) List.mem_cons_self k)
-    | null => rfl
-    | str l => rfl
-
-theorem strOfCell_rows_id (env : Env) (rows : List Row) (h : ∀ r ∈ rows, NoInt r) :
-    rows.map (·.map (strOfCell env)) = rows := by
-  induction rows with
-  | nil => rfl
-  | cons r rs ih =>
-    simp only [List.map_cons]
-    rw [ih (fun r' hr' => h r' (List.mem_cons_of_mem _ hr')), strOfCell_id env r (h r List.mem_cons_self)]
-
 theorem noInt_joinRow (keep : List Nat) (l r : Row) (hl : NoInt l) (hr : NoInt r) : NoInt (joinRow keep l r) := by
   intro c hc k
   simp only [joinRow, List.mem_append, List.mem_map] at hc
@@ -1517,16 +1519,8 @@ theorem noInt_joinOne (left : Bool) (pairs : List (Nat × Nat)) (keep : List Nat
     · exact hA l hl c h k
     · subst h; simp
 
-/-- the rows of a join of two good tables (repaired vector) -/
-theorem rows_nlJoin_good (env : Env) (hv : env.vfix = true) (left : Bool) (ta tb : Table)
-    (hA : ∀ l ∈ ta.rows, NoInt l) (hB : ∀ r ∈ tb.rows, NoInt r) :
-    (nlJoin env left ta tb).rows =
-      ta.rows.flatMap (joinOne left (sharedPairs ta.cols tb.cols) (keepRight ta.cols tb.cols) tb.rows) := by
-  rw [rows_nlJoin env hv]
-  exact strOfCell_rows_id env _ (noInt_joinOne left _ _ ta.rows tb.rows hA hB)
-
-theorem cols_nlJoin (env : Env) (left : Bool) (ta tb : Table) :
-    (nlJoin env left ta tb).cols = ta.cols ++ keepCols ta.cols tb.cols := by
+theorem cols_nlJoin (left : Bool) (ta tb : Table) :
+    (nlJoin left ta tb).cols = ta.cols ++ keepCols ta.cols tb.cols := by
   simp only [nlJoin]
   rw [keep_cols]
 
@@ -1553,12 +1547,12 @@ theorem keepCols_length (lc rc : List Nat) : (keepRight lc rc).length = (keepCol
 theorem mergeCell_isSome (x y : Option Nat) (h : x.isSome = true ∨ y.isSome = true) : (mergeCell x y).isSome = true := by
   cases x <;> cases y <;> simp_all [mergeCell]
 
-theorem join_good (env : Env) (hv : env.vfix = true) (left : Bool) (n : Nat) (ca cb : List Nat) (ta tb : Table)
+theorem join_good (left : Bool) (n : Nat) (ca cb : List Nat) (ta tb : Table)
     (ga : Good n ca ta) (gb : Good n cb tb)
     (hsh : ∀ v, v ∈ ta.cols → v ∈ tb.cols → v ∈ ca ∧ v ∈ cb) :
-    Good n (if left then ca else ca ++ cb) (nlJoin env left ta tb) := by
-  have hrows := rows_nlJoin_good env hv left ta tb ga.noInt gb.noInt
-  have hcols := cols_nlJoin env left ta tb
+    Good n (if left then ca else ca ++ cb) (nlJoin left ta tb) := by
+  have hrows := rows_nlJoin left ta tb
+  have hcols := cols_nlJoin left ta tb
   have ok := joinOk_of_good n ca cb ta tb ga gb hsh
   refine ⟨?_, ?_, ?_, ?_, ?_⟩
   · rw [hcols]; exact keepCols_nodup _ _ ga.nodup gb.nodup
@@ -1597,23 +1591,237 @@ theorem join_good (env : Env) (hv : env.vfix = true) (left : Bool) (n : Nat) (ca
       rw [lookupCol_unmatched _ _ _ _ _ (ga.width l hl)]
       exact ga.cert l hl v hvc
 
+/-! ### UNION -/
+
+theorem firstIdx_aux (cols : List Nat) (v i k : Nat) (hnd : cols.Nodup) (hi : cols[i]? = some v) :
+    (cols.zipIdx k).find? (fun ci => ci.1 == v) = some (v, k + i) := by
+  induction cols generalizing i k with
+  | nil => simp at hi
+  | cons c cs ih =>
+    simp only [List.nodup_cons] at hnd
+    simp only [List.zipIdx_cons, List.find?_cons]
+    cases i with
+    | zero =>
+      simp only [List.getElem?_cons_zero, Option.some.injEq] at hi
+      subst hi
+      simp
+    | succ j =>
+      simp only [List.getElem?_cons_succ] at hi
+      have hv : v ∈ cs := List.mem_of_getElem? hi
+      have hne : (c == v) = false := by
+        simp only [beq_eq_false_iff_ne, ne_eq]
+        intro h
+        exact hnd.1 (h ▸ hv)
+      simp only [hne]
+      rw [ih j (k + 1) hnd.2 hi]
+      congr 2
+      omega
+
+theorem firstIdx_of_index (cols : List Nat) (v i : Nat) (hnd : cols.Nodup) (hi : cols[i]? = some v) :
+    firstIdx cols v = some i := by
+  simp [firstIdx, firstIdx_aux cols v i 0 hnd hi]
+
+theorem firstIdx_none (cols : List Nat) (v : Nat) (h : v ∉ cols) : firstIdx cols v = none := by
+  simp only [firstIdx, Option.map_eq_none_iff, List.find?_eq_none]
+  intro x hx
+  have : x.1 ∈ cols := List.mem_of_getElem? (List.mem_zipIdx_iff_getElem?.mp hx)
+  simp only [beq_iff_eq]
+  intro hxv
+  exact h (hxv ▸ this)
+
+theorem lookupCol_map (uc : List Nat) (f : Nat → Cell) (v : Nat) :
+    lookupCol uc (uc.map f) v = if v ∈ uc then cellVal (f v) else none := by
+  induction uc with
+  | nil => simp [lookupCol]
+  | cons c cs ih =>
+    simp only [List.map_cons, lookupCol, List.mem_cons]
+    by_cases h : c = v
+    · simp [h]
+    · simp only [if_neg h, ih]
+      have : (v = c ∨ v ∈ cs) ↔ v ∈ cs := by
+        constructor
+        · rintro (h' | h')
+          · exact absurd h'.symm h
+          · exact h'
+        · exact Or.inr
+      simp only [this]
+
+/-- a relaid row binds what the branch's row binds -/
+theorem lookupCol_relay (bc uc : List Nat) (r : Row) (v : Nat) (hnb : bc.Nodup)
+    (hsub : ∀ w ∈ bc, w ∈ uc) : lookupCol uc (relayRow bc uc r) v = lookupCol bc r v := by
+  simp only [relayRow]
+  rw [lookupCol_map]
+  by_cases hvb : v ∈ bc
+  · obtain ⟨i, hi⟩ := List.getElem?_of_mem hvb
+    rw [if_pos (hsub v hvb), firstIdx_of_index bc v i hnb hi, lookupCol_eq, lookupCell_of_index bc r v i hnb hi]
+    simp only [List.getD_eq_getElem?_getD]
+    cases r[i]? <;> rfl
+  · rw [firstIdx_none bc v hvb, lookupCol_none_of_not_mem bc r v hvb]
+    split <;> rfl
+
+theorem rows_relayChunks (bc uc : List Nat) (cs : List Chunk) :
+    (relayChunks bc uc cs).flatMap selRows =
+      if bc == uc then cs.flatMap selRows else (cs.flatMap selRows).map (relayRow bc uc) := by
+  simp only [relayChunks]
+  split
+  · rfl
+  · rw [List.flatMap_map, List.map_flatMap]
+    apply flatMap_congr'
+    intro c _
+    exact selRows_rebuild _
+
+theorem toSol_relayChunks (n : Nat) (bc uc : List Nat) (cs : List Chunk) (hnb : bc.Nodup)
+    (hsub : ∀ w ∈ bc, w ∈ uc) :
+    ((relayChunks bc uc cs).flatMap selRows).map (toSol n uc) = (cs.flatMap selRows).map (toSol n bc) := by
+  rw [rows_relayChunks]
+  split
+  · rename_i h
+    simp only [beq_iff_eq] at h
+    rw [h]
+  · rw [List.map_map]
+    apply List.map_congr_left
+    intro r _
+    simp only [Function.comp, toSol]
+    apply List.map_congr_left
+    intro v _
+    exact lookupCol_relay bc uc r v hnb hsub
+
+theorem unionCols_eq (ca cb : List Nat) : unionCols ca cb = ca ++ keepCols ca cb := rfl
+
+theorem good_union (n : Nat) (ca cb : List Nat) (ta tb : Table) (ga : Good n ca ta) (gb : Good n cb tb) :
+    Good n (ca.filter fun v => cb.contains v) (unionT ta tb) := by
+  have hsubA : ∀ w ∈ ta.cols, w ∈ unionCols ta.cols tb.cols := fun w h => List.mem_append_left _ h
+  have hsubB : ∀ w ∈ tb.cols, w ∈ unionCols ta.cols tb.cols := by
+    intro w h
+    simp only [unionCols, List.mem_append, List.mem_filter, Bool.not_eq_true']
+    by_cases hwa : w ∈ ta.cols
+    · exact Or.inl hwa
+    · refine Or.inr ⟨h, ?_⟩
+      cases hc : ta.cols.contains w
+      · rfl
+      · exact absurd (List.contains_iff_mem.mp hc) hwa
+  have hrows : (unionT ta tb).rows =
+      (relayChunks ta.cols (unionCols ta.cols tb.cols) ta.chunks).flatMap selRows ++
+      (relayChunks tb.cols (unionCols ta.cols tb.cols) tb.chunks).flatMap selRows := by
+    simp [unionT, Table.rows]
+  -- every row of the union is a row of a branch, relaid or not
+  have hmem : ∀ r ∈ (unionT ta tb).rows,
+      (∃ r0 ∈ ta.rows, (r = r0 ∧ ta.cols = unionCols ta.cols tb.cols) ∨ r = relayRow ta.cols (unionCols ta.cols tb.cols) r0) ∨
+      (∃ r0 ∈ tb.rows, (r = r0 ∧ tb.cols = unionCols ta.cols tb.cols) ∨ r = relayRow tb.cols (unionCols ta.cols tb.cols) r0) := by
+    intro r hr
+    rw [hrows, List.mem_append, rows_relayChunks, rows_relayChunks] at hr
+    rcases hr with h | h
+    · left
+      split at h
+      · rename_i heq
+        exact ⟨r, h, Or.inl ⟨rfl, by simpa using heq⟩⟩
+      · obtain ⟨r0, hr0, rfl⟩ := List.mem_map.mp h
+        exact ⟨r0, hr0, Or.inr rfl⟩
+    · right
+      split at h
+      · rename_i heq
+        exact ⟨r, h, Or.inl ⟨rfl, by simpa using heq⟩⟩
+      · obtain ⟨r0, hr0, rfl⟩ := List.mem_map.mp h
+        exact ⟨r0, hr0, Or.inr rfl⟩
+  have hnoIntRelay : ∀ (bc : List Nat) (r0 : Row), NoInt r0 → NoInt (relayRow bc (unionCols ta.cols tb.cols) r0) := by
+    intro bc r0 h0 c hc k
+    simp only [relayRow, List.mem_map] at hc
+    obtain ⟨v, _, rfl⟩ := hc
+    cases firstIdx bc v with
+    | none => simp
+    | some i =>
+      simp only
+      rw [List.getD_eq_getElem?_getD]
+      cases hi : r0[i]? with
+      | none => simp
+      | some y => simpa using h0 y (List.mem_of_getElem? hi) k
+  refine ⟨?_, ?_, ?_, ?_, ?_⟩
+  · exact keepCols_nodup _ _ ga.nodup gb.nodup
+  · intro v hv
+    simp only [unionT, unionCols, List.mem_append, List.mem_filter] at hv
+    rcases hv with h | h
+    · exact ga.lt v h
+    · exact gb.lt v h.1
+  · intro r hr
+    rcases hmem r hr with ⟨r0, hr0, h | h⟩ | ⟨r0, hr0, h | h⟩
+    · rw [h.1, ga.width r0 hr0]; exact congrArg List.length h.2
+    · rw [h]; simp [relayRow, unionT]
+    · rw [h.1, gb.width r0 hr0]; exact congrArg List.length h.2
+    · rw [h]; simp [relayRow, unionT]
+  · intro r hr
+    rcases hmem r hr with ⟨r0, hr0, h | h⟩ | ⟨r0, hr0, h | h⟩
+    · rw [h.1]; exact ga.noInt r0 hr0
+    · rw [h]; exact hnoIntRelay _ r0 (ga.noInt r0 hr0)
+    · rw [h.1]; exact gb.noInt r0 hr0
+    · rw [h]; exact hnoIntRelay _ r0 (gb.noInt r0 hr0)
+  · intro r hr v hv
+    simp only [List.mem_filter, List.contains_iff_mem] at hv
+    show (lookupCol (unionCols ta.cols tb.cols) r v).isSome = true
+    rcases hmem r hr with ⟨r0, hr0, h | h⟩ | ⟨r0, hr0, h | h⟩
+    · rw [h.1, ← h.2]; exact ga.cert r0 hr0 v hv.1
+    · rw [h, lookupCol_relay _ _ _ _ ga.nodup hsubA]; exact ga.cert r0 hr0 v hv.1
+    · rw [h.1, ← h.2]; exact gb.cert r0 hr0 v hv.2
+    · rw [h, lookupCol_relay _ _ _ _ gb.nodup hsubB]; exact gb.cert r0 hr0 v hv.2
+
+theorem union_perm_parts (n : Nat) (ta tb : Table) (hna : ta.cols.Nodup) (hnb : tb.cols.Nodup) :
+    (unionT ta tb).rows.map (toSol n (unionT ta tb).cols) =
+      ta.rows.map (toSol n ta.cols) ++ tb.rows.map (toSol n tb.cols) := by
+  have hsubA : ∀ w ∈ ta.cols, w ∈ unionCols ta.cols tb.cols := fun w h => List.mem_append_left _ h
+  have hsubB : ∀ w ∈ tb.cols, w ∈ unionCols ta.cols tb.cols := by
+    intro w h
+    simp only [unionCols, List.mem_append, List.mem_filter, Bool.not_eq_true']
+    by_cases hwa : w ∈ ta.cols
+    · exact Or.inl hwa
+    · refine Or.inr ⟨h, ?_⟩
+      cases hc : ta.cols.contains w
+      · rfl
+      · exact absurd (List.contains_iff_mem.mp hc) hwa
+  simp only [unionT, Table.rows, List.flatMap_append, List.map_append]
+  rw [toSol_relayChunks n _ _ _ hna hsubA, toSol_relayChunks n _ _ _ hnb hsubB]
+
+theorem good_filter (env : Env) (n : Nat) (c : List Nat) (e : Expr) (t : Table) (g : Good n c t) :
+    Good n c (filterT env e t) := by
+  have hrows := rows_filterT env e t
+  have hsub : ∀ r ∈ (filterT env e t).rows, r ∈ t.rows := by
+    intro r hr
+    rw [hrows] at hr
+    exact (List.mem_filter.mp hr).1
+  exact ⟨g.nodup, g.lt, fun r hr => g.width r (hsub r hr), fun r hr => g.noInt r (hsub r hr),
+    fun r hr => g.cert r (hsub r hr)⟩
+
+theorem rows_unitT : unitT.rows = [[]] := rfl
+
+theorem good_unit (n : Nat) : Good n [] unitT := by
+  refine ⟨List.nodup_nil, ?_, ?_, ?_, ?_⟩
+  · intro v h
+    cases h
+  · intro r hr
+    rw [rows_unitT, List.mem_singleton] at hr
+    subst hr
+    rfl
+  · intro r hr c hc
+    rw [rows_unitT, List.mem_singleton] at hr
+    subst hr
+    cases hc
+  · intro r _ v hv
+    cases hv
+
 /-- every column the two inputs share is bound in every row of both -/
 def sharedCertain (a b : Pat) : Bool :=
   (patCols a).all fun v => !(patCols b).contains v || ((certain a).contains v && (certain b).contains v)
 
-/-- the plans on which the planner's strategy is the algebra: no empty group, no variable twice in
-one triple pattern, variables below `n`, constants that survive `literal_to_value`, joins only on
-columns that are bound on both sides, UNION branches with the same columns in the same order,
-FILTERs from the safe fragment, OPTIONAL without a condition of its own (the translator puts it
-into the right operand) -/
+/-- the plans on which the planner's strategy is the algebra: variables below `n`, constants that
+survive `literal_to_value`, joins only on columns that are bound on both sides, FILTERs without
+`<` and with string-valued constants, OPTIONAL without a condition of its own (the translator puts
+it into the right operand) -/
 def wfPat (env : Env) (n : Nat) : Pat → Bool
-  | .unit => false
-  | .scan tp => linearTP tp && (tpCols tp).all (fun v => decide (v < n)) && (tpConsts tp).all (fun c => env.litNorm c == c)
+  | .unit => true
+  | .scan tp => (tpCols tp).all (fun v => decide (v < n)) && (tpConsts tp).all (fun c => env.litNorm c == c)
   | .join a b => wfPat env n a && wfPat env n b && sharedCertain a b
   | .leftJoin a b none => wfPat env n a && wfPat env n b && sharedCertain a b
   | .leftJoin _ _ (some _) => false
-  | .union a b => wfPat env n a && wfPat env n b && patCols a == patCols b
-  | .filter e a => wfPat env n a && exprSafe env (patCols a) (certain a) e
+  | .union a b => wfPat env n a && wfPat env n b
+  | .filter e a => wfPat env n a && exprSafe env e
 
 theorem sharedCertain_spec (a b : Pat) (h : sharedCertain a b = true) :
     ∀ v, v ∈ patCols a → v ∈ patCols b → v ∈ certain a ∧ v ∈ certain b := by
@@ -1626,70 +1834,47 @@ theorem sharedCertain_spec (a b : Pat) (h : sharedCertain a b = true) :
     cases this
   · exact h
 
-theorem good_union (n : Nat) (ca cb : List Nat) (ta tb : Table) (ga : Good n ca ta) (gb : Good n cb tb)
-    (hc : ta.cols = tb.cols) :
-    Good n (ca.filter fun v => cb.contains v) { cols := ta.cols, chunks := ta.chunks ++ tb.chunks } := by
-  have hrows : ({ cols := ta.cols, chunks := ta.chunks ++ tb.chunks } : Table).rows = ta.rows ++ tb.rows := by
-    simp [Table.rows]
-  refine ⟨ga.nodup, ga.lt, ?_, ?_, ?_⟩
-  · intro r hr
-    rw [hrows, List.mem_append] at hr
-    rcases hr with h | h
-    · exact ga.width r h
-    · simpa [hc] using gb.width r h
-  · intro r hr
-    rw [hrows, List.mem_append] at hr
-    rcases hr with h | h
-    · exact ga.noInt r h
-    · exact gb.noInt r h
-  · intro r hr v hv
-    simp only [List.mem_filter, List.contains_iff_mem] at hv
-    rw [hrows, List.mem_append] at hr
-    rcases hr with h | h
-    · exact ga.cert r h v hv.1
-    · simpa [hc] using gb.cert r h v hv.2
-
-theorem good_filter (env : Env) (n : Nat) (c : List Nat) (e : Expr) (t : Table) (g : Good n c t) :
-    Good n c (filterT env e t) := by
-  have hrows := rows_filterT env e t
-  have hsub : ∀ r ∈ (filterT env e t).rows, r ∈ t.rows := by
-    intro r hr
-    rw [hrows] at hr
-    exact (List.mem_filter.mp hr).1
-  exact ⟨g.nodup, g.lt, fun r hr => g.width r (hsub r hr), fun r hr => g.noInt r (hsub r hr),
-    fun r hr => g.cert r (hsub r hr)⟩
-
-/-- **the planner's strategy is the algebra on well-formed plans** (vector with repaired validity):
-for every reachable store, with or without object index, every iteration order `full` of the hash
-set, the rows the physical plan produces are — read as solutions — a permutation of the solutions
-of the algebra, term by term in lexical form. -/
-theorem exec_perm_eval (env : Env) (hv : env.vfix = true) (b : Bool) (ops : List Op) (full : List Triple)
+/-- **the planner's strategy is the algebra on well-formed plans**: for every reachable store,
+with or without object index, every iteration order `full` of the hash set, the rows the physical
+plan produces are — read as solutions — a permutation of the solutions of the algebra, term by
+term in lexical form. -/
+theorem exec_perm_eval (env : Env) (b : Bool) (ops : List Op) (full : List Triple)
     (n : Nat) (U : List Nat)
     (hfull : full.Perm (run b ops).triples)
     (hU : LexInj env U) (hE : EqExact env U) (hG : ∀ x ∈ triplesTerms (run b ops).triples, x ∈ U)
     (p : Pat) (hwf : wfPat env n p = true) (hc : ∀ c ∈ patConsts p, c ∈ U) :
-    ∃ t, exec env (run b ops) full p = some t ∧ t.cols = patCols p ∧ Good n (certain p) t ∧
-      (t.rows.map (toSol n t.cols)).Perm ((eval env n (run b ops).triples p).map (lexSol env)) := by
+    (exec env (run b ops) full p).cols = patCols p ∧ Good n (certain p) (exec env (run b ops) full p) ∧
+      ((exec env (run b ops) full p).rows.map (toSol n (exec env (run b ops) full p).cols)).Perm
+        ((eval env n (run b ops).triples p).map (lexSol env)) := by
   induction p with
-  | unit => simp [wfPat] at hwf
+  | unit =>
+    refine ⟨rfl, good_unit n, ?_⟩
+    simp only [exec, eval, rows_unitT, List.map_cons, List.map_nil]
+    apply List.Perm.of_eq
+    congr 1
+    apply sol_ext (n := n) _ _ (toSol_length _ _ _) (by simp [lexSol_length, emptySol_length])
+    intro w hw
+    rw [toSol_get _ _ _ _ hw, lexSol_get, emptySol_get]
+    rfl
   | scan tp =>
-    simp only [wfPat, Bool.and_eq_true, linearTP, decide_eq_true_eq, List.all_eq_true, beq_iff_eq] at hwf
-    obtain ⟨⟨hlin, hlt⟩, hst⟩ := hwf
-    refine ⟨scanT env (run b ops) full tp, rfl, rfl, scan_good env _ full n tp hlin hlt, ?_⟩
-    exact scan_perm env b ops full n tp hfull hlin hlt hst
+    simp only [wfPat, Bool.and_eq_true, decide_eq_true_eq, List.all_eq_true, beq_iff_eq] at hwf
+    obtain ⟨hlt, hst⟩ := hwf
+    exact ⟨rfl, scan_good env _ full n tp hlt, scan_perm env b ops full n tp hfull hlt hst⟩
   | join a b' iha ihb =>
     simp only [wfPat, Bool.and_eq_true] at hwf
     obtain ⟨⟨hwa, hwb⟩, hsc⟩ := hwf
-    obtain ⟨ta, hea, hca, ga, pa⟩ := iha hwa (fun c h => hc c (by simp [patConsts, h]))
-    obtain ⟨tb, heb, hcb, gb, pb⟩ := ihb hwb (fun c h => hc c (by simp [patConsts, h]))
-    have hsh : ∀ v, v ∈ ta.cols → v ∈ tb.cols → v ∈ certain a ∧ v ∈ certain b' := by
+    obtain ⟨hca, ga, pa⟩ := iha hwa (fun c h => hc c (by simp [patConsts, h]))
+    obtain ⟨hcb, gb, pb⟩ := ihb hwb (fun c h => hc c (by simp [patConsts, h]))
+    have hsh : ∀ v, v ∈ (exec env (run b ops) full a).cols → v ∈ (exec env (run b ops) full b').cols →
+        v ∈ certain a ∧ v ∈ certain b' := by
       rw [hca, hcb]; exact sharedCertain_spec a b' hsc
-    have ok := joinOk_of_good n _ _ ta tb ga gb hsh
-    refine ⟨nlJoin env false ta tb, by simp [exec, hea, heb], ?_, ?_, ?_⟩
-    · rw [cols_nlJoin, hca, hcb]; rfl
-    · have := join_good env hv false n _ _ ta tb ga gb hsh
-      simpa [certain] using this
-    · rw [cols_nlJoin, rows_nlJoin_good env hv false ta tb ga.noInt gb.noInt, join_rows_sols n _ _ _ _ ok]
+    have ok := joinOk_of_good n _ _ _ _ ga gb hsh
+    refine ⟨?_, ?_, ?_⟩
+    · simp only [exec]; rw [cols_nlJoin, hca, hcb]; rfl
+    · have := join_good false n _ _ _ _ ga gb hsh
+      simpa [certain, exec] using this
+    · simp only [exec]
+      rw [cols_nlJoin, rows_nlJoin, join_rows_sols n _ _ _ _ ok]
       simp only [eval]
       have wa := eval_wf env n (run b ops).triples a
       have wb := eval_wf env n (run b ops).triples b'
@@ -1702,16 +1887,18 @@ theorem exec_perm_eval (env : Env) (hv : env.vfix = true) (b : Bool) (ops : List
     | none =>
       simp only [wfPat, Bool.and_eq_true] at hwf
       obtain ⟨⟨hwa, hwb⟩, hsc⟩ := hwf
-      obtain ⟨ta, hea, hca, ga, pa⟩ := iha hwa (fun c h => hc c (by simp [patConsts, h]))
-      obtain ⟨tb, heb, hcb, gb, pb⟩ := ihb hwb (fun c h => hc c (by simp [patConsts, h]))
-      have hsh : ∀ v, v ∈ ta.cols → v ∈ tb.cols → v ∈ certain a ∧ v ∈ certain b' := by
+      obtain ⟨hca, ga, pa⟩ := iha hwa (fun c h => hc c (by simp [patConsts, h]))
+      obtain ⟨hcb, gb, pb⟩ := ihb hwb (fun c h => hc c (by simp [patConsts, h]))
+      have hsh : ∀ v, v ∈ (exec env (run b ops) full a).cols → v ∈ (exec env (run b ops) full b').cols →
+          v ∈ certain a ∧ v ∈ certain b' := by
         rw [hca, hcb]; exact sharedCertain_spec a b' hsc
-      have ok := joinOk_of_good n _ _ ta tb ga gb hsh
-      refine ⟨nlJoin env true ta tb, by simp [exec, hea, heb], ?_, ?_, ?_⟩
-      · rw [cols_nlJoin, hca, hcb]; rfl
-      · have := join_good env hv true n _ _ ta tb ga gb hsh
-        simpa [certain] using this
-      · rw [cols_nlJoin, rows_nlJoin_good env hv true ta tb ga.noInt gb.noInt, leftJoin_rows_sols env n _ _ _ _ ok]
+      have ok := joinOk_of_good n _ _ _ _ ga gb hsh
+      refine ⟨?_, ?_, ?_⟩
+      · simp only [exec]; rw [cols_nlJoin, hca, hcb]; rfl
+      · have := join_good true n _ _ _ _ ga gb hsh
+        simpa [certain, exec] using this
+      · simp only [exec]
+        rw [cols_nlJoin, rows_nlJoin, leftJoin_rows_sols env n _ _ _ _ ok]
         simp only [eval]
         have wa := eval_wf env n (run b ops).triples a
         have wb := eval_wf env n (run b ops).triples b'
@@ -1719,38 +1906,36 @@ theorem exec_perm_eval (env : Env) (hv : env.vfix = true) (b : Bool) (ops : List
           (fun μ h => ⟨(wb μ h).1, fun w y hy => hG y ((wb μ h).2 w y hy)⟩)]
         exact leftJoin_perm env none _ _ _ _ pa pb
   | union a b' iha ihb =>
-    simp only [wfPat, Bool.and_eq_true, beq_iff_eq] at hwf
-    obtain ⟨⟨hwa, hwb⟩, hcols⟩ := hwf
-    obtain ⟨ta, hea, hca, ga, pa⟩ := iha hwa (fun c h => hc c (by simp [patConsts, h]))
-    obtain ⟨tb, heb, hcb, gb, pb⟩ := ihb hwb (fun c h => hc c (by simp [patConsts, h]))
-    have hcc : ta.cols = tb.cols := by rw [hca, hcb, hcols]
-    refine ⟨{ cols := ta.cols, chunks := ta.chunks ++ tb.chunks }, by simp [exec, hea, heb], hca, ?_, ?_⟩
-    · exact good_union n _ _ ta tb ga gb hcc
-    · have hrows : ({ cols := ta.cols, chunks := ta.chunks ++ tb.chunks } : Table).rows = ta.rows ++ tb.rows := by
-        simp [Table.rows]
-      simp only [hrows, eval, List.map_append]
-      refine List.Perm.append pa ?_
-      rw [hcc]
-      exact pb
+    simp only [wfPat, Bool.and_eq_true] at hwf
+    obtain ⟨hwa, hwb⟩ := hwf
+    obtain ⟨hca, ga, pa⟩ := iha hwa (fun c h => hc c (by simp [patConsts, h]))
+    obtain ⟨hcb, gb, pb⟩ := ihb hwb (fun c h => hc c (by simp [patConsts, h]))
+    refine ⟨?_, ?_, ?_⟩
+    · simp only [exec, unionT, patCols, hca, hcb]
+    · have := good_union n _ _ _ _ ga gb
+      simpa [certain, exec] using this
+    · simp only [exec, eval, List.map_append]
+      rw [union_perm_parts n _ _ ga.nodup gb.nodup]
+      exact List.Perm.append pa pb
   | filter e a iha =>
     simp only [wfPat, Bool.and_eq_true] at hwf
     obtain ⟨hwa, hse⟩ := hwf
-    obtain ⟨ta, hea, hca, ga, pa⟩ := iha hwa (fun c h => hc c (by simp [patConsts, h]))
-    refine ⟨filterT env e ta, by simp [exec, hea], hca, good_filter env n _ e ta ga, ?_⟩
-    have hcolsF : (filterT env e ta).cols = ta.cols := rfl
+    obtain ⟨hca, ga, pa⟩ := iha hwa (fun c h => hc c (by simp [patConsts, h]))
+    refine ⟨by simp only [exec]; exact hca, by simp only [exec, certain]; exact good_filter env n _ e _ ga, ?_⟩
+    simp only [exec]
+    have hcolsF : (filterT env e (exec env (run b ops) full a)).cols = (exec env (run b ops) full a).cols := rfl
     rw [hcolsF, rows_filterT]
     simp only [eval]
-    -- both filters are the lexical evaluation of `e`
-    have h1 : (ta.rows.filter (passes env ta.cols e)).map (toSol n ta.cols) =
-        (ta.rows.map (toSol n ta.cols)).filter (fun σ => lexEval env σ e == some true) := by
+    have h1 : ((exec env (run b ops) full a).rows.filter (passes env (exec env (run b ops) full a).cols e)).map
+          (toSol n (exec env (run b ops) full a).cols) =
+        ((exec env (run b ops) full a).rows.map (toSol n (exec env (run b ops) full a).cols)).filter
+          (fun σ => lexEval env σ e == some true) := by
       rw [List.filter_map]
       congr 1
       apply List.filter_congr
       intro r hr
       simp only [Function.comp]
-      rw [← hca] at hse
-      exact passes_eq env n ta.cols (certain a) r
-        ⟨ga.nodup, ga.lt, ga.width r hr, fun v hvv => ga.cert r hr v hvv⟩ e hse
+      exact passes_eq env n _ r ⟨ga.nodup, ga.lt, ga.noInt r hr⟩ e hse
     have wa := eval_wf env n (run b ops).triples a
     have h2 : ((eval env n (run b ops).triples a).filter (fun μ => evalE env μ e == some true)).map (lexSol env) =
         ((eval env n (run b ops).triples a).map (lexSol env)).filter (fun σ => lexEval env σ e == some true) := by
@@ -1760,611 +1945,29 @@ theorem exec_perm_eval (env : Env) (hv : env.vfix = true) (b : Bool) (ops : List
       intro μ hμ
       simp only [Function.comp]
       rw [evalE_eq env U hU hE μ (fun w y hy => hG y ((wa μ hμ).2 w y hy)) e
-        (fun c h => hc c (by simp [patConsts, h])) (noLt_of_safe env _ _ e hse)]
+        (fun c h => hc c (by simp [patConsts, h])) (noLt_of_safe env e hse)]
     rw [h1, h2]
     exact pa.filter _
-
-/-! ### the code as it is: without OPTIONAL no null is ever pushed, so the validity bitmap is not in play -/
-
-def fixed (env : Env) : Env := { env with vfix := true }
-
-theorem exprSafe_fixed (env : Env) (cols cert : List Nat) (e : Expr) :
-    exprSafe (fixed env) cols cert e = exprSafe env cols cert e := by
-  induction e with
-  | eq a b => cases a <;> cases b <;> rfl
-  | ne a b => cases a <;> cases b <;> rfl
-  | not e ih => simp only [exprSafe, ih]
-  | and a b iha ihb => simp only [exprSafe, iha, ihb]
-  | or a b iha ihb => simp only [exprSafe, iha, ihb]
-  | _ => rfl
-
-theorem wfPat_fixed (env : Env) (n : Nat) (p : Pat) : wfPat (fixed env) n p = wfPat env n p := by
-  induction p with
-  | unit => rfl
-  | scan tp => rfl
-  | join a b iha ihb => simp only [wfPat, iha, ihb]
-  | leftJoin a b c iha ihb =>
-    cases c with
-    | none => simp only [wfPat, iha, ihb]
-    | some e => rfl
-  | union a b iha ihb => simp only [wfPat, iha, ihb]
-  | filter e a iha =>
-    simp only [wfPat, iha, exprSafe_fixed]
-
-theorem evalE_fixed (env : Env) (μ : Sol) (e : Expr) : evalE (fixed env) μ e = evalE env μ e := by
-  induction e with
-  | not e ih => simp only [evalE, ih]
-  | and a b iha ihb => simp only [evalE, iha, ihb]
-  | or a b iha ihb => simp only [evalE, iha, ihb]
-  | _ => rfl
-
-theorem eval_fixed (env : Env) (n : Nat) (G : List Triple) (p : Pat) : eval (fixed env) n G p = eval env n G p := by
-  induction p with
-  | unit => rfl
-  | scan tp => rfl
-  | join a b iha ihb => simp only [eval, iha, ihb]
-  | leftJoin a b c iha ihb =>
-    simp only [eval, iha, ihb]
-    congr 1
-    funext μ
-    simp only [leftJoinOne, holds]
-    cases c with
-    | none => rfl
-    | some e => simp only [evalE_fixed]; rfl
-  | union a b iha ihb => simp only [eval, iha, ihb]
-  | filter e a iha =>
-    simp only [eval, iha, evalE_fixed]
-
-def AllStr (r : Row) : Prop := ∀ c ∈ r, ∃ l, c = Cell.str l
-
-theorem degradeRow_id (env : Env) (seen : List Bool) (r : Row) (h : AllStr r) : degradeRow env seen r = (seen, r) := by
-  induction r generalizing seen with
-  | nil => cases seen <;> rfl
-  | cons c cs ih =>
-    cases seen with
-    | nil => rfl
-    | cons s ss =>
-      obtain ⟨l, hl⟩ := h c List.mem_cons_self
-      subst hl
-      simp only [degradeRow, degradeCell]
-      rw [ih ss (fun c' hc' => h c' (List.mem_cons_of_mem _ hc'))]
-
-theorem degradeRows_id (env : Env) (seen : List Bool) (rows : List Row) (h : ∀ r ∈ rows, AllStr r) :
-    degradeRows env seen rows = rows := by
-  induction rows generalizing seen with
-  | nil => rfl
-  | cons r rs ih =>
-    simp only [degradeRows]
-    rw [degradeRow_id env seen r (h r List.mem_cons_self)]
-    simp only
-    rw [ih seen (fun r' hr' => h r' (List.mem_cons_of_mem _ hr'))]
-
-theorem strOfCell_allStr (env : Env) (r : Row) (h : AllStr r) : r.map (strOfCell env) = r := by
-  apply strOfCell_id
-  intro c hc k
-  obtain ⟨l, hl⟩ := h c hc
-  simp [hl]
-
-/-- rebuilding rows that hold strings only does not depend on the null policy -/
-theorem rebuild_allStr (env : Env) (w : Nat) (rows : List Row) (h : ∀ r ∈ rows, AllStr r) :
-    rebuild env w rows = allSel rows := by
-  have h1 : rows.map (·.map (strOfCell env)) = rows := by
-    apply strOfCell_rows_id
-    intro r hr c hc k
-    obtain ⟨l, hl⟩ := h r hr c hc
-    simp [hl]
-  simp only [rebuild, h1, nullPolicy]
-  split
-  · rfl
-  · rw [degradeRows_id env _ rows h]
-
-theorem mem_chunksAux {α : Type} (k fuel : Nat) (l : List α) (c : List α) (x : α)
-    (hc : c ∈ chunksAux k fuel l) (hx : x ∈ c) : x ∈ l := by
-  induction fuel generalizing l with
-  | zero => simp [chunksAux] at hc
-  | succ f ih =>
-    unfold chunksAux at hc
-    split at hc
-    · cases hc
-    · simp only [List.mem_cons] at hc
-      rcases hc with h | h
-      · subst h; exact List.mem_of_mem_take hx
-      · exact List.mem_of_mem_drop (ih _ h)
-
-theorem allStr_keepCells (lc rc : List Nat) (r : Row) (h : AllStr r) : AllStr (keepCells lc rc r) := by
-  induction rc generalizing r with
-  | nil => cases r <;> simp [keepCells, AllStr]
-  | cons b bs ih =>
-    cases r with
-    | nil => simp [keepCells, AllStr]
-    | cons x xs =>
-      simp only [keepCells]
-      have hx := h x List.mem_cons_self
-      have hxs : AllStr xs := fun c hc => h c (List.mem_cons_of_mem _ hc)
-      split
-      · exact ih xs hxs
-      · intro c hc
-        simp only [List.mem_cons] at hc
-        rcases hc with rfl | hc
-        · exact hx
-        · exact ih xs hxs c hc
-
-/-- joining (without padding) tables that hold strings only does not depend on the null policy -/
-theorem nlJoin_fixed (env : Env) (ta tb : Table) (ha : ∀ r ∈ ta.rows, AllStr r) (hb : ∀ r ∈ tb.rows, AllStr r)
-    (hwb : ∀ r ∈ tb.rows, r.length = tb.cols.length) :
-    nlJoin env false ta tb = nlJoin (fixed env) false ta tb := by
-  simp only [nlJoin]
-  congr 1
-  apply flatMap_congr'
-  intro c hc
-  have hall : ∀ x ∈ (selRows c).flatMap (joinOne false (sharedPairs ta.cols tb.cols) (keepRight ta.cols tb.cols) tb.rows),
-      AllStr x := by
-    intro x hx
-    simp only [List.mem_flatMap] at hx
-    obtain ⟨l, hl, hx⟩ := hx
-    have hlt : l ∈ ta.rows := by
-      simp only [Table.rows, List.mem_flatMap]
-      exact ⟨c, hc, hl⟩
-    rcases mem_joinOne false _ _ _ l x hx with ⟨r, hr, rfl⟩ | ⟨h, _⟩
-    · rw [joinRow_eq _ _ _ _ (hwb r hr)]
-      intro c' hc'
-      simp only [List.mem_append] at hc'
-      rcases hc' with h | h
-      · exact ha l hlt c' h
-      · exact allStr_keepCells _ _ r (hb r hr) c' h
-    · cases h
-  apply List.map_congr_left
-  intro ch hch
-  have hch' : ∀ r ∈ ch, AllStr r := fun r hr => hall r (mem_chunksAux _ _ _ ch r hch hr)
-  rw [rebuild_allStr env _ ch hch', rebuild_allStr (fixed env) _ ch hch']
-
-theorem allStr_of_lookups (cols : List Nat) (r : Row) (hnd : cols.Nodup) (hw : r.length = cols.length)
-    (h : ∀ v ∈ cols, (lookupCol cols r v).isSome = true) : AllStr r := by
-  induction cols generalizing r with
-  | nil =>
-    cases r with
-    | nil => intro c hc; cases hc
-    | cons x xs => simp at hw
-  | cons c cs ih =>
-    cases r with
-    | nil => simp at hw
-    | cons x xs =>
-      simp only [List.nodup_cons] at hnd
-      intro y hy
-      simp only [List.mem_cons] at hy
-      rcases hy with rfl | hy
-      · have := h c List.mem_cons_self
-        simp only [lookupCol, if_true] at this
-        cases y <;> simp_all [cellVal]
-      · apply ih xs hnd.2 (by simpa using hw) _ y hy
-        intro v hv
-        have := h v (List.mem_cons_of_mem _ hv)
-        have hne : c ≠ v := fun hcv => hnd.1 (hcv ▸ hv)
-        simpa [lookupCol, hne] using this
-
-theorem colsCertain (env : Env) (n : Nat) (p : Pat) (hwf : wfPat env n p = true) (hopt : patHasOptional p = false) :
-    ∀ v ∈ patCols p, v ∈ certain p := by
-  induction p with
-  | unit => simp [wfPat] at hwf
-  | scan tp => intro v hv; exact hv
-  | join a b iha ihb =>
-    simp only [wfPat, Bool.and_eq_true] at hwf
-    simp only [patHasOptional, Bool.or_eq_false_iff] at hopt
-    intro v hv
-    simp only [patCols, List.mem_append, List.mem_filter] at hv
-    simp only [certain, List.mem_append]
-    rcases hv with h | h
-    · exact Or.inl (iha hwf.1.1 hopt.1 v h)
-    · exact Or.inr (ihb hwf.1.2 hopt.2 v h.1)
-  | leftJoin a b c iha ihb => simp [patHasOptional] at hopt
-  | union a b iha ihb =>
-    simp only [wfPat, Bool.and_eq_true, beq_iff_eq] at hwf
-    simp only [patHasOptional, Bool.or_eq_false_iff] at hopt
-    intro v hv
-    simp only [patCols] at hv
-    simp only [certain, List.mem_filter, List.contains_iff_mem]
-    exact ⟨iha hwf.1.1 hopt.1 v hv, ihb hwf.1.2 hopt.2 v (hwf.2 ▸ hv)⟩
-  | filter e a iha =>
-    simp only [wfPat, Bool.and_eq_true] at hwf
-    simp only [patHasOptional] at hopt
-    exact iha hwf.1 hopt
-
-theorem allStr_of_good (n : Nat) (cert : List Nat) (t : Table) (g : Good n cert t) (hc : ∀ v ∈ t.cols, v ∈ cert) :
-    ∀ r ∈ t.rows, AllStr r := by
-  intro r hr
-  exact allStr_of_lookups t.cols r g.nodup (g.width r hr) (fun v hv => g.cert r hr v (hc v hv))
-
-theorem evalF_fixed (env : Env) (cols : List Nat) (row : Row) (e : Expr) :
-    evalF (fixed env) cols row e = evalF env cols row e := by
-  induction e with
-  | eq a b => cases a <;> cases b <;> rfl
-  | ne a b => cases a <;> cases b <;> rfl
-  | lt a b => cases a <;> cases b <;> rfl
-  | bound v => rfl
-  | not e ih => simp only [evalF, ih]
-  | and a b iha ihb => simp only [evalF, iha, ihb]
-  | or a b iha ihb => simp only [evalF, iha, ihb]
-
-theorem filterT_fixed (env : Env) (e : Expr) (t : Table) : filterT (fixed env) e t = filterT env e t := by
-  have h : ∀ c, filterChunk (fixed env) t.cols e c = filterChunk env t.cols e c := by
-    intro c
-    unfold filterChunk passes
-    simp only [evalF_fixed]
-  simp only [filterT]
-  congr 2
-  exact List.map_congr_left (fun c _ => h c)
-
-/-- without OPTIONAL the plan produces the same table under either null policy -/
-theorem exec_fixed_eq (env : Env) (b : Bool) (ops : List Op) (full : List Triple)
-    (n : Nat) (U : List Nat)
-    (hfull : full.Perm (run b ops).triples)
-    (hU : LexInj env U) (hE : EqExact env U) (hG : ∀ x ∈ triplesTerms (run b ops).triples, x ∈ U)
-    (p : Pat) (hwf : wfPat env n p = true) (hopt : patHasOptional p = false) (hc : ∀ c ∈ patConsts p, c ∈ U) :
-    exec env (run b ops) full p = exec (fixed env) (run b ops) full p := by
-  induction p with
-  | unit => rfl
-  | scan tp => rfl
-  | join a b' iha ihb =>
-    simp only [wfPat, Bool.and_eq_true] at hwf
-    simp only [patHasOptional, Bool.or_eq_false_iff] at hopt
-    have hca : ∀ c ∈ patConsts a, c ∈ U := fun c h => hc c (by simp [patConsts, h])
-    have hcb : ∀ c ∈ patConsts b', c ∈ U := fun c h => hc c (by simp [patConsts, h])
-    obtain ⟨ta, hea, hcola, ga, _⟩ := exec_perm_eval (fixed env) rfl b ops full n U hfull hU hE hG a
-      (by rw [wfPat_fixed]; exact hwf.1.1) hca
-    obtain ⟨tb, heb, hcolb, gb, _⟩ := exec_perm_eval (fixed env) rfl b ops full n U hfull hU hE hG b'
-      (by rw [wfPat_fixed]; exact hwf.1.2) hcb
-    simp only [exec, iha hwf.1.1 hopt.1 hca, ihb hwf.1.2 hopt.2 hcb, hea, heb, Option.bind_some, Option.map_some]
-    congr 1
-    apply nlJoin_fixed env ta tb
-    · exact allStr_of_good n _ ta ga (by rw [hcola]; exact colsCertain env n a hwf.1.1 hopt.1)
-    · exact allStr_of_good n _ tb gb (by rw [hcolb]; exact colsCertain env n b' hwf.1.2 hopt.2)
-    · exact gb.width
-  | leftJoin a b' c iha ihb => simp [patHasOptional] at hopt
-  | union a b' iha ihb =>
-    simp only [wfPat, Bool.and_eq_true] at hwf
-    simp only [patHasOptional, Bool.or_eq_false_iff] at hopt
-    simp only [exec, iha hwf.1.1 hopt.1 (fun c h => hc c (by simp [patConsts, h])),
-      ihb hwf.1.2 hopt.2 (fun c h => hc c (by simp [patConsts, h]))]
-  | filter e a iha =>
-    simp only [wfPat, Bool.and_eq_true] at hwf
-    simp only [patHasOptional] at hopt
-    simp only [exec, iha hwf.1 hopt (fun c h => hc c (by simp [patConsts, h]))]
-    congr 1
-    funext t
-    exact (filterT_fixed env e t).symm
 
 /-- the terms a query over a store can touch -/
 def termsOf (G : List Triple) (p : Pat) : List Nat := triplesTerms G ++ patConsts p
 
-/-- **C13/SPARQL, pattern level, without OPTIONAL, either null policy.** For every store reachable by inserts / removes /
-clears (object index on or off), every iteration order of its hash set, and every plan without
-OPTIONAL that satisfies `wfPat`, over terms whose lexical forms are pairwise different and on which
-`=` is term identity: the rows the physical plan produces are a permutation of the algebra's
-solutions. -/
-theorem c13_sparql_pattern_no_optional_partial (env : Env) (b : Bool) (ops : List Op) (full : List Triple) (n : Nat) (p : Pat)
-    (hfull : full.Perm (run b ops).triples)
-    (hwf : wfPat env n p = true) (hopt : patHasOptional p = false)
-    (hlex : lexClash env (termsOf (run b ops).triples p) = false)
-    (heq : eqExactB env (termsOf (run b ops).triples p) = true) :
-    ∃ t, exec env (run b ops) full p = some t ∧ t.cols = patCols p ∧
-      (t.rows.map (toSol n t.cols)).Perm ((eval env n (run b ops).triples p).map (lexSol env)) := by
-  have hU := lexInj_of_noClash env _ hlex
-  have hE := eqExact_of_B env _ heq
-  have hG : ∀ x ∈ triplesTerms (run b ops).triples, x ∈ termsOf (run b ops).triples p :=
-    fun x hx => List.mem_append_left _ hx
-  have hc : ∀ c ∈ patConsts p, c ∈ termsOf (run b ops).triples p := fun c h => List.mem_append_right _ h
-  rw [exec_fixed_eq env b ops full n _ hfull hU hE hG p hwf hopt hc]
-  obtain ⟨t, he, hcols, _, hp⟩ := exec_perm_eval (fixed env) rfl b ops full n _ hfull hU hE hG p
-    (by rw [wfPat_fixed]; exact hwf) hc
-  refine ⟨t, he, hcols, ?_⟩
-  rw [eval_fixed] at hp
-  exact hp
-
-/-- **C13/SPARQL, pattern level, code as it is** (`vfix`: since /repo commit ea119b4 `ValueVector`
-records every null): every plan that satisfies `wfPat`, left joins (OPTIONAL) included. -/
-theorem c13_sparql_pattern_partial (env : Env) (hv : env.vfix = true) (b : Bool) (ops : List Op)
+/-- **C13/SPARQL, pattern level, code as it is**: every plan that satisfies `wfPat` — the empty
+group, BGPs, joins, FILTER, OPTIONAL, UNION. -/
+theorem c13_sparql_pattern_partial (env : Env) (b : Bool) (ops : List Op)
     (full : List Triple) (n : Nat) (p : Pat)
     (hfull : full.Perm (run b ops).triples)
     (hwf : wfPat env n p = true)
     (hlex : lexClash env (termsOf (run b ops).triples p) = false)
     (heq : eqExactB env (termsOf (run b ops).triples p) = true) :
-    ∃ t, exec env (run b ops) full p = some t ∧ t.cols = patCols p ∧
-      (t.rows.map (toSol n t.cols)).Perm ((eval env n (run b ops).triples p).map (lexSol env)) := by
-  obtain ⟨t, he, hcols, _, hp⟩ := exec_perm_eval env hv b ops full n _ hfull
+    (exec env (run b ops) full p).cols = patCols p ∧
+      ((exec env (run b ops) full p).rows.map (toSol n (patCols p))).Perm
+        ((eval env n (run b ops).triples p).map (lexSol env)) := by
+  obtain ⟨hcols, _, hp⟩ := exec_perm_eval env b ops full n _ hfull
     (lexInj_of_noClash env _ hlex) (eqExact_of_B env _ heq) (fun x hx => List.mem_append_left _ hx) p hwf
     (fun c h => List.mem_append_right _ h)
-  exact ⟨t, he, hcols, hp⟩
-
-/-- **… with OPTIONAL, for the `ValueVector` before ea119b4**, on the inputs on which its
-validity-bitmap defect does not show (the two null policies give the same table — decidable by
-running both). -/
-theorem c13_sparql_pattern_old_vector_partial (env : Env) (b : Bool) (ops : List Op)
-    (full : List Triple) (n : Nat) (p : Pat)
-    (hfull : full.Perm (run b ops).triples)
-    (hwf : wfPat env n p = true)
-    (hnull : exec env (run b ops) full p = exec (fixed env) (run b ops) full p)
-    (hlex : lexClash env (termsOf (run b ops).triples p) = false)
-    (heq : eqExactB env (termsOf (run b ops).triples p) = true) :
-    ∃ t, exec env (run b ops) full p = some t ∧ t.cols = patCols p ∧
-      (t.rows.map (toSol n t.cols)).Perm ((eval env n (run b ops).triples p).map (lexSol env)) := by
-  rw [hnull]
-  obtain ⟨t, he, hcols, hp⟩ := c13_sparql_pattern_partial (fixed env) rfl b ops full n p hfull
-    (by rw [wfPat_fixed]; exact hwf) hlex heq
-  refine ⟨t, he, hcols, ?_⟩
-  rw [eval_fixed] at hp
-  exact hp
-
-/-! ## a concrete environment: the term pool of stream `sparql`
-
-0 `<http://ex.org/a>` 1 `<http://ex.org/b>` 2 `<http://ex.org/p>` 3 `<x>` 4 `_:x` 5 `_:b1` 6 `"x"`
-7 `"x"@en` 8 `"x"@de` 9 `"x"^^xsd:token` 10 `"1"^^xsd:integer` 11 `"1"` 12 `""` 13… `<http://ex.org/n13>`…
-16 `"_:x"` 17 `"_:b1"` 18 `"http://ex.org/a"` 19 `"10"` 20 `"9"` 21 `"10"^^xsd:integer` 22 `"9"^^xsd:integer` -/
-
-def wLex (c : Nat) : Nat :=
-  match c with
-  | 6 => 3 | 7 => 3 | 8 => 3 | 9 => 3 | 11 => 10 | 16 => 4 | 17 => 5 | 18 => 0 | 21 => 19 | 22 => 20
-  | c => c
-
-/-- position of a lexical form in byte order -/
-def wRank (l : Nat) : Nat :=
-  match l with
-  | 12 => 0 | 10 => 1 | 19 => 2 | 20 => 3 | 5 => 4 | 4 => 5 | 0 => 6 | 1 => 7 | 13 => 8 | 14 => 9 | 15 => 10
-  | 2 => 11 | 3 => 12
-  | l => 100 + l
-
-def wKind (c : Nat) : Kind :=
-  match c with
-  | 4 => .blank | 5 => .blank
-  | 6 => .plain | 7 => .lang | 8 => .lang | 9 => .other | 10 => .int 1 | 11 => .plain | 12 => .plain
-  | 16 => .plain | 17 => .plain | 18 => .plain | 19 => .plain | 20 => .plain | 21 => .int 10 | 22 => .int 9
-  | _ => .iri
-
-def wNum (l : Nat) : Option Int :=
-  match l with
-  | 10 => some 1 | 19 => some 10 | 20 => some 9
-  | _ => none
-
-def wLitNorm (c : Nat) : Nat :=
-  match c with
-  | 7 => 6 | 8 => 6 | 9 => 6
-  | c => c
-
-def wConstVal (c : Nat) : FVal :=
-  match wKind c with
-  | .int n => .int n
-  | _ => .str (wLex c)
-
-def wBack (l : Nat) : Nat :=
-  match l with
-  | 3 => 6 | 4 => 16 | 5 => 17 | 19 => 21 | 20 => 22
-  | l => l
-
-/-- the pool, code as it is -/
-def wEnv : Env :=
-  { lex := wLex, emptyLex := 12, strLt := fun a b => decide (wRank a < wRank b), num := wNum,
-    litNorm := wLitNorm, constVal := wConstVal, back := wBack, kind := wKind, vfix := true }
-
-/-- the pool with the `ValueVector` of before /repo commit ea119b4 -/
-def wEnvOld : Env := { wEnv with vfix := false }
-
-def mkStore (io : Bool) (ts : List Triple) : Store := run io (ts.map Op.insert)
-
-/-- does the model's answer to a SELECT agree with the specification's (as multisets of solutions)? -/
-def selAgrees (env : Env) (st : Store) (full : List Triple) (n : Nat) (q : Select) : Prop :=
-  match execSelect env st full q with
-  | none => False
-  | some t => (t.rows.map (toSol n t.cols)).Perm ((specSelect env n st.triples q).map (lexSol env))
-
-instance (env : Env) (st : Store) (full : List Triple) (n : Nat) (q : Select) : Decidable (selAgrees env st full n q) := by
-  unfold selAgrees
-  split <;> infer_instance
-
-def tp (s p o : PT) : TP := ⟨s, p, o⟩
-def v (n : Nat) : PT := .var n
-def c (n : Nat) : PT := .const n
-
-/-- … as sequences (ORDER BY) -/
-def selAgreesOrdered (env : Env) (st : Store) (full : List Triple) (n : Nat) (q : Select) : Prop :=
-  match execSelect env st full q with
-  | none => False
-  | some t => t.rows.map (toSol n t.cols) = (specSelect env n st.triples q).map (lexSol env)
-
-instance (env : Env) (st : Store) (full : List Triple) (n : Nat) (q : Select) :
-    Decidable (selAgreesOrdered env st full n q) := by
-  unfold selAgreesOrdered
-  split <;> infer_instance
-
-def countRowCells (env : Env) (r : CountRow) : Row :=
-  (r.key.map fun k => match k with
-    | some x => Cell.str (env.lex x)
-    | none => Cell.null) ++ [Cell.int r.count]
-
-/-- does the model's answer to a COUNT query agree with the specification's (header and rows)? -/
-def cntAgrees (env : Env) (st : Store) (full : List Triple) (n : Nat) (q : Count) : Prop :=
-  match execCount env st full q with
-  | none => False
-  | some t => t.cols = q.groupBy ++ [q.alias] ∧ t.rows.Perm ((specCount env n st.triples q).map (countRowCells env))
-
-instance (env : Env) (st : Store) (full : List Triple) (n : Nat) (q : Count) : Decidable (cntAgrees env st full n q) := by
-  unfold cntAgrees
-  split <;> infer_instance
-
-/-- does the store after the model's update hold the triples the specification says? -/
-def updAgrees (env : Env) (st : Store) (full : List Triple) (n : Nat) (u : Update) : Prop :=
-  match execUpdate env ⟨st, full⟩ u, specUpdate env n st.triples u with
-  | some u', some G' => u'.st.triples.Perm G'
-  | none, none => True
-  | _, _ => False
-
-instance (env : Env) (st : Store) (full : List Triple) (n : Nat) (u : Update) : Decidable (updAgrees env st full n u) := by
-  unfold updAgrees
-  split <;> infer_instance
-
-def sel (proj : Option (List Nat)) (g : Grp) : Select :=
-  { distinct := false, proj := proj, order := [], offset := none, limit := none, where_ := g }
-
-/-! ## witnesses: where the code's strategy is not the algebra
-
-Each is a smallest instance, decided by evaluation, and is a line of `corpus/C13/sparql.ops`
-(replayed on the real code by stream `sparql`). Data are given in insertion order; `full` is that
-order too (none of the witnesses depends on it). -/
-
-/-- `SELECT DISTINCT ?v0 WHERE { ?v0 <p> ?v1 }` over `{a p a, a p b}` returns `a` twice:
-`plan_operator` plans `Distinct` as its input -/
-theorem w_distinct_ignored :
-    ¬ selAgrees wEnv (mkStore true [⟨0, 2, 0⟩, ⟨0, 2, 1⟩]) [⟨0, 2, 0⟩, ⟨0, 2, 1⟩] 2
-      { sel (some [0]) (.triples [tp (v 0) (c 2) (v 1)] .nil) with distinct := true } := by
-  decide
-
-/-- `{ ?v0 <p> ?v1 OPTIONAL { ?v0 <x> ?v2 } }` over `{a p a, b p a}`: the second unmatched row gets
-`""` for `?v2` instead of unbound (`ValueVector::set_null` beyond the bitmap; repaired in /repo by
-commit ea119b4 while this file was written — kept as a regression witness) -/
-theorem w_null_lost_after_first :
-    ¬ selAgrees wEnvOld (mkStore true [⟨0, 2, 0⟩, ⟨1, 2, 0⟩]) [⟨0, 2, 0⟩, ⟨1, 2, 0⟩] 3
-      (sel none (.triples [tp (v 0) (c 2) (v 1)] (.optional (.triples [tp (v 0) (c 3) (v 2)] .nil) .nil))) := by
-  decide
-
-/-- … and only that: with the vector as it is now the same query is answered correctly -/
-theorem w_null_lost_after_first_repaired :
-    selAgrees wEnv (mkStore true [⟨0, 2, 0⟩, ⟨1, 2, 0⟩]) [⟨0, 2, 0⟩, ⟨1, 2, 0⟩] 3
-      (sel none (.triples [tp (v 0) (c 2) (v 1)] (.optional (.triples [tp (v 0) (c 3) (v 2)] .nil) .nil))) := by
-  decide
-
-/-- `{ ?v0 <p> ?v0 }` over `{a p a, a p b}` returns both triples: a variable used twice in one
-triple pattern is two columns of the same name, never compared -/
-theorem w_repeated_variable :
-    ¬ selAgrees wEnv (mkStore true [⟨0, 2, 0⟩, ⟨0, 2, 1⟩]) [⟨0, 2, 0⟩, ⟨0, 2, 1⟩] 1
-      (sel none (.triples [tp (v 0) (c 2) (v 0)] .nil)) := by
-  decide
-
-/-- `{ ?v0 <p> "x"@en }` over `{a p "x", b p "x"@en}` returns `a`: `literal_to_value` drops the
-language tag (and any datatype it does not know) -/
-theorem w_literal_constant_loses_tag :
-    ¬ selAgrees wEnv (mkStore true [⟨0, 2, 6⟩, ⟨1, 2, 7⟩]) [⟨0, 2, 6⟩, ⟨1, 2, 7⟩] 1
-      (sel none (.triples [tp (v 0) (c 2) (c 7)] .nil)) := by
-  decide
-
-/-- `{ ?v0 <p> ?v1 } UNION { ?v1 <x> ?v0 }` over `{a p b, b x a}`: the second branch's columns are
-`[v1, v0]`, its rows are handed on under the first branch's names `[v0, v1]` -/
-theorem w_union_columns_of_first_branch :
-    ¬ selAgrees wEnv (mkStore true [⟨0, 2, 1⟩, ⟨1, 3, 0⟩]) [⟨0, 2, 1⟩, ⟨1, 3, 0⟩] 2
-      (sel none (.union (.triples [tp (v 0) (c 2) (v 1)] .nil) (.triples [tp (v 1) (c 3) (v 0)] .nil) .nil)) := by
-  decide
-
-/-- `{ OPTIONAL { ?v0 <p> ?v1 } ?v0 <x> ?v2 }` over `{a p b, b x b}`: the translator joins the
-required patterns first and makes every OPTIONAL a left join on top -/
-theorem w_optional_placement :
-    ¬ selAgrees wEnv (mkStore true [⟨0, 2, 1⟩, ⟨1, 3, 1⟩]) [⟨0, 2, 1⟩, ⟨1, 3, 1⟩] 3
-      (sel none (.optional (.triples [tp (v 0) (c 2) (v 1)] .nil) (.triples [tp (v 0) (c 3) (v 2)] .nil))) := by
-  decide
-
-/-- `{ ?v0 <p> ?v1 OPTIONAL { ?v0 <x> ?v2 } OPTIONAL { ?v1 <x> ?v2 } }` over `{a p b, b x a}`: an
-unbound `?v2` is a null that is not equal to any value, so the second OPTIONAL cannot bind it
-(independent of the vector defect) -/
-theorem w_join_on_unbound :
-    ¬ selAgrees wEnv (mkStore true [⟨0, 2, 1⟩, ⟨1, 3, 0⟩]) [⟨0, 2, 1⟩, ⟨1, 3, 0⟩] 3
-      (sel none (.triples [tp (v 0) (c 2) (v 1)] (.optional (.triples [tp (v 0) (c 3) (v 2)] .nil)
-        (.optional (.triples [tp (v 1) (c 3) (v 2)] .nil) .nil)))) := by
-  decide
-
-/-- `{ ?v0 <p> ?v1 OPTIONAL { ?v0 <x> ?v2 } FILTER(!BOUND(?v2)) }` over `{a p b}` is empty: BOUND is
-"the column exists" (`get_value` answers `Some(Null)`) -/
-theorem w_bound_of_null :
-    ¬ selAgrees wEnv (mkStore true [⟨0, 2, 1⟩]) [⟨0, 2, 1⟩] 3
-      (sel none (.triples [tp (v 0) (c 2) (v 1)] (.optional (.triples [tp (v 0) (c 3) (v 2)] .nil)
-        (.filter (.not (.bound 2)) .nil)))) := by
-  decide
-
-/-- `{ ?v0 <p> ?v1 . ?v1 <p> ?v2 }` over `{a p "x", <x> p b}`: the literal `"x"` joins with the
-IRI `<x>` — columns hold lexical forms -/
-theorem w_terms_compared_as_strings :
-    ¬ selAgrees wEnv (mkStore true [⟨0, 2, 6⟩, ⟨3, 2, 1⟩]) [⟨0, 2, 6⟩, ⟨3, 2, 1⟩] 3
-      (sel none (.triples [tp (v 0) (c 2) (v 1), tp (v 1) (c 2) (v 2)] .nil)) := by
-  decide
-
-/-- `FILTER(?v1 = <b> || ?v2 = <b>)` with `?v2` not in scope, over `{a p b}`: an error in one
-operand of `||` makes the engine's result an error although the other operand is true -/
-theorem w_filter_or_error :
-    ¬ selAgrees wEnv (mkStore true [⟨0, 2, 1⟩]) [⟨0, 2, 1⟩] 3
-      (sel none (.triples [tp (v 0) (c 2) (v 1)] (.filter (.or (.eq (v 1) (c 1)) (.eq (v 2) (c 1))) .nil))) := by
-  decide
-
-/-- `FILTER(?v1 < <b>)` over `{a p a}`: `<` between IRIs is a type error in SPARQL, a string
-comparison in the engine -/
-theorem w_filter_lt_on_iris :
-    ¬ selAgrees wEnv (mkStore true [⟨0, 2, 0⟩]) [⟨0, 2, 0⟩] 2
-      (sel none (.triples [tp (v 0) (c 2) (v 1)] (.filter (.lt (v 1) (c 1)) .nil))) := by
-  decide
-
-/-- `FILTER(?v1 = 1)` over `{a p "1"^^xsd:integer}` is empty: the constant is `Int64(1)`, the
-column holds the string `"1"` -/
-theorem w_filter_numeric_constant :
-    ¬ selAgrees wEnv (mkStore true [⟨0, 2, 10⟩]) [⟨0, 2, 10⟩] 2
-      (sel none (.triples [tp (v 0) (c 2) (v 1)] (.filter (.eq (v 1) (c 10)) .nil))) := by
-  decide
-
-/-- `SELECT ?v1 { <a> <p> ?v1 } ORDER BY ?v1` over `{a p "1", a p b}`: byte order of the lexical
-forms (`"1"` before `http://…`) instead of §15.1 (IRIs before literals) -/
-theorem w_order_by_lexical :
-    ¬ selAgreesOrdered wEnv (mkStore true [⟨0, 2, 11⟩, ⟨0, 2, 1⟩]) [⟨0, 2, 11⟩, ⟨0, 2, 1⟩] 2
-      { sel (some [1]) (.triples [tp (c 0) (c 2) (v 1)] .nil) with order := [(1, false)] } := by
-  decide
-
-/-- `SELECT * { }` is an error ("Empty plan"); the empty group has one solution -/
-theorem w_empty_group_error :
-    ¬ selAgrees wEnv (mkStore true [⟨0, 2, 1⟩]) [⟨0, 2, 1⟩] 1 (sel none .nil) := by
-  decide
-
-/-- `SELECT ?v2 { ?v0 <p> ?v1 }` is an error; projecting a variable that is not in scope gives
-unbound -/
-theorem w_projection_not_a_column :
-    ¬ selAgrees wEnv (mkStore true [⟨0, 2, 1⟩]) [⟨0, 2, 1⟩] 3
-      (sel (some [2]) (.triples [tp (v 0) (c 2) (v 1)] .nil)) := by
-  decide
-
-def cnt (arg : Option Nat) (alias : Nat) (groupBy : List Nat) (g : Grp) : Count :=
-  { distinct := false, arg := arg, alias := alias, groupBy := groupBy, order := [], offset := none, limit := none,
-    where_ := g }
-
-/-- `SELECT (COUNT(?v2) AS ?v3) { ?v0 <p> ?v1 OPTIONAL { ?v0 <x> ?v2 } }` over `{a p b}` is 1:
-COUNT of an expression counts rows, not bound values -/
-theorem w_count_counts_unbound :
-    ¬ cntAgrees wEnv (mkStore true [⟨0, 2, 1⟩]) [⟨0, 2, 1⟩] 4
-      (cnt (some 2) 3 [] (.triples [tp (v 0) (c 2) (v 1)] (.optional (.triples [tp (v 0) (c 3) (v 2)] .nil) .nil))) := by
-  decide
-
-/-- `SELECT (COUNT(*) AS ?v2) { ?v0 <p> ?v1 } ORDER BY ?v2` returns `""`: the sort rebuilds the
-row into `String` columns -/
-theorem w_count_column_type_lost :
-    ¬ cntAgrees wEnv (mkStore true [⟨0, 2, 1⟩]) [⟨0, 2, 1⟩] 3
-      { cnt none 2 [] (.triples [tp (v 0) (c 2) (v 1)] .nil) with order := [(2, false)] } := by
-  decide
-
-/-- `INSERT DATA { <a> <p> "x"@en }` stores `"x"` -/
-theorem w_insert_data_loses_tag :
-    ¬ updAgrees wEnv (mkStore true []) [] 0 (.insertData [⟨0, 2, 7⟩]) := by
-  decide
-
-/-- `DELETE WHERE { ?v0 <x> ?v1 . ?v0 <p> ?v2 }` over `{a x b, a p b}` leaves `a p b`: one delete
-operator per triple pattern, each re-evaluating the pattern after the previous one has run -/
-theorem w_delete_where_sequential :
-    ¬ updAgrees wEnv (mkStore true [⟨0, 3, 1⟩, ⟨0, 2, 1⟩]) [⟨0, 3, 1⟩, ⟨0, 2, 1⟩] 3
-      (.deleteWhere [tp (v 0) (c 3) (v 1), tp (v 0) (c 2) (v 2)]) := by
-  decide
-
-/-- `DELETE WHERE { ?v0 <p> ?v1 }` over `{<x> p a}` deletes nothing: the binding `"x"` is turned
-back into a term by looking at it (`value_to_term`: not `http…`, so a literal — an illegal subject) -/
-theorem w_update_term_from_string :
-    ¬ updAgrees wEnv (mkStore true [⟨3, 2, 0⟩]) [⟨3, 2, 0⟩] 2 (.deleteWhere [tp (v 0) (c 2) (v 1)]) := by
-  decide
-
-/-- `DELETE { ?v0 <p> ?v1 } WHERE { ?v0 <p> ?v1 FILTER(?v1 = <b>) }` over `{a p a, a p b}` (in that
-order) deletes `a p a`: the update operators read the first `k` physical rows of a chunk, `k` the
-number of rows the filter selected -/
-theorem w_update_ignores_selection :
-    ¬ updAgrees wEnv (mkStore true [⟨0, 2, 0⟩, ⟨0, 2, 1⟩]) [⟨0, 2, 0⟩, ⟨0, 2, 1⟩] 2
-      (.modify [tp (v 0) (c 2) (v 1)] [] (.triples [tp (v 0) (c 2) (v 1)] (.filter (.eq (v 1) (c 1)) .nil))) := by
-  decide
+  rw [hcols] at hp
+  exact ⟨hcols, hp⟩
 
 /-! ## the two translations -/
 
@@ -2448,60 +2051,334 @@ theorem eval_simpUnit (env : Env) (n : Nat) (G : List Triple) (p : Pat) :
   | union a b iha ihb => simp only [simpUnit, eval, iha, ihb]
   | filter e a iha => simp only [simpUnit, eval, iha]
 
-/-! ## SELECT: projection -/
+/-- simplification, then the translator's way of writing the condition of a left join -/
+def normalize (p : Pat) : Pat := normOpt (simpUnit p)
 
-theorem resolveCols_some (cols vars : List Nat) (h : ∀ v ∈ vars, v ∈ cols) (hnd : cols.Nodup) :
-    ∃ idx, resolveCols cols vars = some idx ∧ idx.length = vars.length ∧
-      ∀ (k v : Nat), vars[k]? = some v → ∃ i : Nat, idx[k]? = some i ∧ cols[i]? = some v := by
-  induction vars with
-  | nil => exact ⟨[], rfl, rfl, fun k v hk => by simp at hk⟩
-  | cons x xs ih =>
-    obtain ⟨idx, h1, h2, h3⟩ := ih (fun v hv => h v (List.mem_cons_of_mem _ hv))
-    obtain ⟨i, hi⟩ := List.getElem?_of_mem (h x List.mem_cons_self)
-    refine ⟨i :: idx, ?_, by simp [h2], ?_⟩
-    · simp [resolveCols, colIdx_of_index cols x i hnd hi, h1]
-    · intro k v hk
-      cases k with
-      | zero =>
-        simp only [List.getElem?_cons_zero, Option.some.injEq] at hk
-        subst hk
-        exact ⟨i, by simp, hi⟩
-      | succ j =>
-        simp only [List.getElem?_cons_succ] at hk ⊢
-        exact h3 j v hk
+theorem normOpt_unit_iff (p : Pat) : normOpt p = .unit ↔ p = .unit := by
+  cases p with
+  | leftJoin a b c => cases c <;> simp [normOpt]
+  | _ => simp [normOpt]
 
-/-- a projected row, column by column -/
-theorem lookupCol_project (cols vars idx : List Nat) (r : Row) (v : Nat)
-    (hnd : cols.Nodup) (hvn : vars.Nodup)
-    (hidx : ∀ (k w : Nat), vars[k]? = some w → ∃ i : Nat, idx[k]? = some i ∧ cols[i]? = some w)
-    (hlen : idx.length = vars.length) :
-    lookupCol vars (idx.map fun i => r.getD i Cell.null) v =
-      if vars.contains v then lookupCol cols r v else none := by
-  induction vars generalizing idx with
-  | nil => simp [lookupCol]
+theorem normOpt_joinP (a b : Pat) : normOpt (joinP a b) = joinP (normOpt a) (normOpt b) := by
+  by_cases ha : a = .unit
+  · subst ha; simp [joinP, normOpt]
+  · by_cases hb : b = .unit
+    · subst hb
+      have : joinP a .unit = a := by cases a <;> simp_all [joinP]
+      have h2 : joinP (normOpt a) .unit = normOpt a := by
+        have : normOpt a ≠ .unit := fun h => ha ((normOpt_unit_iff a).mp h)
+        cases h : normOpt a <;> simp_all [joinP]
+      rw [this, normOpt, h2]
+    · have h1 : joinP a b = .join a b := by cases a <;> cases b <;> simp_all [joinP]
+      have hna : normOpt a ≠ .unit := fun h => ha ((normOpt_unit_iff a).mp h)
+      have hnb : normOpt b ≠ .unit := fun h => hb ((normOpt_unit_iff b).mp h)
+      have h2 : joinP (normOpt a) (normOpt b) = .join (normOpt a) (normOpt b) := by
+        cases h : normOpt a <;> cases h' : normOpt b <;> simp_all [joinP]
+      rw [h1, h2, normOpt]
+
+theorem normalize_join (a b : Pat) : normalize (.join a b) = joinP (normalize a) (normalize b) := by
+  simp only [normalize, simpUnit, normOpt_joinP]
+
+theorem normalize_bgpStd (tps : List TP) : normalize (bgpStd tps) = bgp tps := by
+  have key : ∀ (acc : Pat) (acc' : Pat), normalize acc' = acc →
+      normalize (tps.foldl (fun acc tp => .join acc (.scan tp)) acc') =
+        tps.foldl (fun acc tp => joinP acc (.scan tp)) acc := by
+    induction tps with
+    | nil => intro acc acc' h; exact h
+    | cons tp rest ih =>
+      intro acc acc' h
+      simp only [List.foldl_cons]
+      apply ih
+      rw [normalize_join, h]
+      rfl
+  exact key .unit .unit rfl
+
+theorem normalize_withFilter (fs : List Expr) (p : Pat) : normalize (withFilter fs p) = withFilter fs (normalize p) := by
+  simp only [withFilter]
+  cases conj fs <;> rfl
+
+theorem normalize_optJoinStd (acc a : Pat) :
+    normalize (optJoinStd acc a) = .leftJoin (normalize acc) (normalize a) none := by
+  cases a with
+  | filter e a' => rfl
+  | _ => rfl
+
+/-- **the translator produces the standard algebra expression** (after the standard's simplification
+step, and with the condition of an OPTIONAL written as a FILTER in its right operand), for every
+group graph pattern -/
+theorem codeParts_eq (g : Grp) : ∀ (acc : CParts) (acc' : SParts),
+    normalize acc'.pat = acc.pat → acc'.filters = acc.filters →
+      normalize (stdParts acc' g).pat = (codeParts acc g).pat ∧ (stdParts acc' g).filters = (codeParts acc g).filters := by
+  induction g with
+  | nil => intro acc acc' h1 h2; exact ⟨h1, h2⟩
+  | triples tps rest ih =>
+    intro acc acc' h1 h2
+    simp only [stdParts, codeParts]
+    apply ih
+    · simp only [normalize_join, h1, normalize_bgpStd]
+    · exact h2
+  | optional g rest ihg ih =>
+    intro acc acc' h1 h2
+    simp only [stdParts, codeParts]
+    apply ih
+    · have hg := ihg ⟨.unit, []⟩ ⟨.unit, []⟩ rfl rfl
+      simp only [normalize_optJoinStd, h1, assembleStd, assembleCode, normalize_withFilter, hg.1, hg.2]
+    · exact h2
+  | union a b rest iha ihb ih =>
+    intro acc acc' h1 h2
+    simp only [stdParts, codeParts]
+    apply ih
+    · have ha := iha ⟨.unit, []⟩ ⟨.unit, []⟩ rfl rfl
+      have hb := ihb ⟨.unit, []⟩ ⟨.unit, []⟩ rfl rfl
+      simp only [normalize_join, h1]
+      congr 1
+      simp only [normalize, simpUnit, normOpt]
+      simp only [assembleStd, assembleCode]
+      have e1 := normalize_withFilter (stdParts ⟨.unit, []⟩ a).filters (stdParts ⟨.unit, []⟩ a).pat
+      have e2 := normalize_withFilter (stdParts ⟨.unit, []⟩ b).filters (stdParts ⟨.unit, []⟩ b).pat
+      simp only [normalize] at e1 e2 ha hb
+      rw [e1, e2, ha.1, ha.2, hb.1, hb.2]
+    · exact h2
+  | group g rest ihg ih =>
+    intro acc acc' h1 h2
+    simp only [stdParts, codeParts]
+    apply ih
+    · have hg := ihg ⟨.unit, []⟩ ⟨.unit, []⟩ rfl rfl
+      simp only [normalize_join, h1, assembleStd, assembleCode, normalize_withFilter, hg.1, hg.2]
+    · exact h2
+  | filter e rest ih =>
+    intro acc acc' h1 h2
+    simp only [stdParts, codeParts]
+    apply ih
+    · exact h1
+    · simp only [h2]
+
+theorem transCode_eq (g : Grp) : transCode g = normalize (transStd g) := by
+  have := codeParts_eq g ⟨.unit, []⟩ ⟨.unit, []⟩ rfl rfl
+  simp only [transCode, transStd, assembleCode, assembleStd, normalize_withFilter, this.1, this.2]
+
+/-! ### the condition of an OPTIONAL, as a FILTER of its right operand -/
+
+def exprVars : Expr → List Nat
+  | .eq a b => ptCols a ++ ptCols b
+  | .ne a b => ptCols a ++ ptCols b
+  | .lt a b => ptCols a ++ ptCols b
+  | .bound v => [v]
+  | .not e => exprVars e
+  | .and a b => exprVars a ++ exprVars b
+  | .or a b => exprVars a ++ exprVars b
+
+/-- variables below `n`, and the FILTER of an `OPTIONAL { … FILTER(F) }` reads only variables that
+the optional part binds in every solution (then evaluating it inside the optional part, as the
+translator arranges it, is evaluating it on the joined solution, as the standard says) -/
+def scopeOk (n : Nat) : Pat → Bool
+  | .unit => true
+  | .scan tp => (tpCols tp).all fun v => decide (v < n)
+  | .join a b => scopeOk n a && scopeOk n b
+  | .union a b => scopeOk n a && scopeOk n b
+  | .filter _ a => scopeOk n a
+  | .leftJoin a b none => scopeOk n a && scopeOk n b
+  | .leftJoin a b (some e) => scopeOk n a && scopeOk n b && (exprVars e).all fun v => (certain b).contains v
+
+theorem valPT_congr (μ ν : Sol) (a : PT) (h : ∀ v ∈ ptCols a, μ.get v = ν.get v) : valPT μ a = valPT ν a := by
+  cases a with
+  | const c => rfl
+  | var v => exact h v (by simp [ptCols])
+
+theorem evalE_congr (env : Env) (μ ν : Sol) (e : Expr) (h : ∀ v ∈ exprVars e, μ.get v = ν.get v) :
+    evalE env μ e = evalE env ν e := by
+  induction e with
+  | eq a b =>
+    simp only [evalE, valPT_congr μ ν a (fun v hv => h v (by simp [exprVars, hv])),
+      valPT_congr μ ν b (fun v hv => h v (by simp [exprVars, hv]))]
+  | ne a b =>
+    simp only [evalE, valPT_congr μ ν a (fun v hv => h v (by simp [exprVars, hv])),
+      valPT_congr μ ν b (fun v hv => h v (by simp [exprVars, hv]))]
+  | lt a b =>
+    simp only [evalE, valPT_congr μ ν a (fun v hv => h v (by simp [exprVars, hv])),
+      valPT_congr μ ν b (fun v hv => h v (by simp [exprVars, hv]))]
+  | bound v => simp only [evalE, h v (by simp [exprVars])]
+  | not e ih => simp only [evalE, ih h]
+  | and a b iha ihb =>
+    simp only [evalE, iha (fun v hv => h v (by simp [exprVars, hv])), ihb (fun v hv => h v (by simp [exprVars, hv]))]
+  | or a b iha ihb =>
+    simp only [evalE, iha (fun v hv => h v (by simp [exprVars, hv])), ihb (fun v hv => h v (by simp [exprVars, hv]))]
+
+theorem lookupB_isSome_of_key (fb : List (Nat × Nat)) (v : Nat) (h : v ∈ fb.map (·.1)) : (lookupB fb v).isSome = true := by
+  induction fb with
+  | nil => cases h
+  | cons b rest ih =>
+    simp only [lookupB, List.find?_cons]
+    by_cases hb : b.1 = v
+    · simp [hb]
+    · have : (b.1 == v) = false := beq_eq_false_iff_ne.mpr hb
+      simp only [this]
+      simp only [List.map_cons, List.mem_cons] at h
+      rcases h with h | h
+      · exact absurd h.symm hb
+      · exact ih h
+
+/-- every solution of the algebra binds the `certain` variables -/
+theorem eval_certain (env : Env) (n : Nat) (G : List Triple) (p : Pat) (hs : scopeOk n p = true) :
+    ∀ ν ∈ eval env n G p, ∀ v ∈ certain p, (ν.get v).isSome = true := by
+  induction p with
+  | unit => intro ν _ v hv; cases hv
+  | scan tp =>
+    intro ν hν v hv
+    simp only [scopeOk, List.all_eq_true, decide_eq_true_eq] at hs
+    simp only [eval, List.mem_filterMap] at hν
+    obtain ⟨t, _, hm⟩ := hν
+    rw [matchTP_eq] at hm
+    split at hm
+    · have hb : ∀ b ∈ tpBinds tp t, b.1 < n := by
+        intro b hb
+        apply hs
+        rw [← tpBinds_keys tp t]
+        exact List.mem_map_of_mem hb
+      have hspec := bindAll_spec n (tpBinds tp t) (emptySol n) [] (emptySol_length n) hb
+        (fun w => by simp [emptySol_get, lookupB])
+      split at hspec
+      · obtain ⟨μ', h1, _, h3⟩ := hspec
+        rw [h1] at hm
+        simp only [Option.some.injEq] at hm
+        subst hm
+        rw [h3 v]
+        apply lookupB_isSome_of_key
+        simp only [List.nil_append, firstBinds_keys, tpBinds_keys]
+        exact hv
+      · rw [hspec] at hm; cases hm
+    · cases hm
+  | join a b iha ihb =>
+    intro ν hν v hv
+    simp only [scopeOk, Bool.and_eq_true] at hs
+    simp only [eval, joinSols, List.mem_flatMap, List.mem_filterMap] at hν
+    obtain ⟨x, hx, y, hy, hxy⟩ := hν
+    split at hxy
+    · simp only [Option.some.injEq] at hxy
+      subst hxy
+      rw [merge_get x y v (by rw [(eval_wf env n G a x hx).1, (eval_wf env n G b y hy).1])]
+      apply mergeCell_isSome
+      simp only [certain, List.mem_append] at hv
+      rcases hv with h | h
+      · exact Or.inl (iha hs.1 x hx v h)
+      · exact Or.inr (ihb hs.2 y hy v h)
+    · cases hxy
+  | leftJoin a b cond iha ihb =>
+    intro ν hν v hv
+    have hsa : scopeOk n a = true := by
+      cases cond <;> simp only [scopeOk, Bool.and_eq_true] at hs
+      · exact hs.1
+      · exact hs.1.1
+    simp only [eval, List.mem_flatMap] at hν
+    obtain ⟨x, hx, hm⟩ := hν
+    simp only [leftJoinOne] at hm
+    split at hm
+    · simp only [List.mem_singleton] at hm
+      subst hm
+      exact iha hsa ν hx v hv
+    · simp only [List.mem_filterMap] at hm
+      obtain ⟨y, hy, hxy⟩ := hm
+      split at hxy
+      · simp only [Option.some.injEq] at hxy
+        subst hxy
+        rw [merge_get x y v (by rw [(eval_wf env n G a x hx).1, (eval_wf env n G b y hy).1])]
+        exact mergeCell_isSome _ _ (Or.inl (iha hsa x hx v hv))
+      · cases hxy
+  | union a b iha ihb =>
+    intro ν hν v hv
+    simp only [scopeOk, Bool.and_eq_true] at hs
+    simp only [certain, List.mem_filter, List.contains_iff_mem] at hv
+    simp only [eval, List.mem_append] at hν
+    rcases hν with h | h
+    · exact iha hs.1 ν h v hv.1
+    · exact ihb hs.2 ν h v hv.2
+  | filter e a iha =>
+    intro ν hν v hv
+    simp only [eval, List.mem_filter] at hν
+    exact iha hs ν hν.1 v hv
+
+theorem merge_get_bound (μ ν : Sol) (v : Nat) (hl : μ.length = ν.length) (hc : compat μ ν = true)
+    (hb : (ν.get v).isSome = true) : Sol.get (merge μ ν) v = ν.get v := by
+  rw [merge_get μ ν v hl]
+  have := (compat_iff μ ν hl).mp hc v
+  cases hx : μ.get v with
+  | none => rfl
+  | some x =>
+    cases hy : ν.get v with
+    | none => rw [hy] at hb; cases hb
+    | some y =>
+      simp only [hx, hy, compatCell, beq_iff_eq] at this
+      simp [mergeCell, this]
+
+theorem filterMap_filter {α β : Type} (l : List α) (p : α → Bool) (f : α → Option β) :
+    (l.filter p).filterMap f = l.filterMap fun a => if p a then f a else none := by
+  induction l with
+  | nil => rfl
   | cons x xs ih =>
-    cases idx with
-    | nil => simp at hlen
-    | cons i is =>
-      simp only [List.nodup_cons] at hvn
-      obtain ⟨i', hi1, hi2⟩ := hidx 0 x (by simp)
-      simp only [List.getElem?_cons_zero, Option.some.injEq] at hi1
-      subst hi1
-      simp only [List.map_cons, lookupCol, List.contains_cons]
-      by_cases hxv : x = v
-      · subst hxv
-        simp only [if_true, beq_self_eq_true, Bool.true_or]
-        rw [lookupCol_eq, lookupCell_of_index cols r x i hnd hi2, List.getD_eq_getElem?_getD]
-        cases r[i]? <;> rfl
-      · have hvx : (v == x) = false := by
-          simp only [beq_eq_false_iff_ne, ne_eq]
-          exact fun h => hxv h.symm
-        simp only [if_neg hxv, hvx, Bool.false_or]
-        apply ih is hvn.2
-        · intro k w hk
-          have := hidx (k + 1) w (by simpa using hk)
-          simpa using this
-        · simpa using hlen
+    simp only [List.filter_cons, List.filterMap_cons]
+    cases hp : p x
+    · simp [ih]
+    · simp only [if_true, List.filterMap_cons, ih]
+
+/-- writing the condition of an OPTIONAL as a FILTER of the optional part does not change the solutions -/
+theorem eval_normOpt (env : Env) (n : Nat) (G : List Triple) (p : Pat) (hs : scopeOk n p = true) :
+    eval env n G (normOpt p) = eval env n G p := by
+  induction p with
+  | unit => rfl
+  | scan tp => rfl
+  | join a b iha ihb =>
+    simp only [scopeOk, Bool.and_eq_true] at hs
+    simp only [normOpt, eval, iha hs.1, ihb hs.2]
+  | union a b iha ihb =>
+    simp only [scopeOk, Bool.and_eq_true] at hs
+    simp only [normOpt, eval, iha hs.1, ihb hs.2]
+  | filter e a iha =>
+    simp only [scopeOk] at hs
+    simp only [normOpt, eval, iha hs]
+  | leftJoin a b cond iha ihb =>
+    cases cond with
+    | none =>
+      simp only [scopeOk, Bool.and_eq_true] at hs
+      simp only [normOpt, eval, iha hs.1, ihb hs.2]
+    | some e =>
+      simp only [scopeOk, Bool.and_eq_true, List.all_eq_true, List.contains_iff_mem] at hs
+      obtain ⟨⟨hsa, hsb⟩, hvars⟩ := hs
+      simp only [normOpt, eval, iha hsa, ihb hsb]
+      apply flatMap_congr'
+      intro μ hμ
+      have key : ((eval env n G b).filter fun ν => evalE env ν e == some true).filterMap
+            (fun ν => if compat μ ν && holds env none (merge μ ν) then some (merge μ ν) else none) =
+          (eval env n G b).filterMap
+            (fun ν => if compat μ ν && holds env (some e) (merge μ ν) then some (merge μ ν) else none) := by
+        rw [filterMap_filter]
+        apply filterMap_congr'
+        intro ν hν
+        have hl : μ.length = ν.length := by rw [(eval_wf env n G a μ hμ).1, (eval_wf env n G b ν hν).1]
+        cases hc : compat μ ν
+        · simp
+        · have heq : evalE env (merge μ ν) e = evalE env ν e := by
+            apply evalE_congr
+            intro v hv
+            exact merge_get_bound μ ν v hl hc (eval_certain env n G b hsb ν hν v (hvars v hv))
+          simp only [holds, Bool.true_and, heq]
+          split <;> simp_all
+      simp only [leftJoinOne, key]
+
+/-- **the translator's plan has the solutions of the standard algebra expression**, for every group
+whose OPTIONAL filters stay inside their scope -/
+theorem eval_transCode (env : Env) (n : Nat) (G : List Triple) (g : Grp)
+    (hs : scopeOk n (simpUnit (transStd g)) = true) :
+    eval env n G (transCode g) = eval env n G (transStd g) := by
+  rw [transCode_eq, normalize, eval_normOpt env n G _ hs, eval_simpUnit]
+
+/-! ## SELECT: projection and DISTINCT -/
+
+theorem rows_projectT (vars : List Nat) (t : Table) :
+    (projectT vars t).rows = t.rows.map (projectRow t.cols vars) := by
+  simp only [projectT, Table.rows, List.flatMap_map, List.map_flatMap]
+  apply flatMap_congr'
+  intro c _
+  exact selRows_rebuild _
 
 theorem restrict_toSol (n : Nat) (cols vars : List Nat) (r : Row) :
     restrict vars (toSol n cols r) = (List.range n).map fun v => if vars.contains v then lookupCol cols r v else none := by
@@ -2510,16 +2387,29 @@ theorem restrict_toSol (n : Nat) (cols vars : List Nat) (r : Row) :
   intro v hv
   rw [toSol_get _ _ _ _ (List.mem_range.mp hv)]
 
-theorem toSol_project (n : Nat) (cols vars idx : List Nat) (r : Row)
-    (hnd : cols.Nodup) (hvn : vars.Nodup)
-    (hidx : ∀ (k w : Nat), vars[k]? = some w → ∃ i : Nat, idx[k]? = some i ∧ cols[i]? = some w)
-    (hlen : idx.length = vars.length) :
-    toSol n vars (idx.map fun i => r.getD i Cell.null) = restrict vars (toSol n cols r) := by
+/-- a projected row, read as a solution, is the row's solution restricted to the projection -/
+theorem toSol_project (n : Nat) (cols vars : List Nat) (r : Row) (hnd : cols.Nodup) :
+    toSol n vars (projectRow cols vars r) = restrict vars (toSol n cols r) := by
   rw [restrict_toSol]
-  simp only [toSol]
+  simp only [toSol, projectRow]
   apply List.map_congr_left
   intro v _
-  exact lookupCol_project cols vars idx r v hnd hvn hidx hlen
+  rw [lookupCol_map]
+  by_cases hv : v ∈ vars
+  · rw [if_pos hv, if_pos (List.contains_iff_mem.mpr hv)]
+    by_cases hc : v ∈ cols
+    · obtain ⟨i, hi⟩ := List.getElem?_of_mem hc
+      rw [colIdx_of_index cols v i hnd hi, lookupCol_eq, lookupCell_of_index cols r v i hnd hi]
+      simp only [List.getD_eq_getElem?_getD]
+      cases r[i]? <;> rfl
+    · rw [colIdx_none cols v hc, lookupCol_none_of_not_mem cols r v hc]
+      rfl
+  · have : vars.contains v = false := by
+      cases h : vars.contains v
+      · rfl
+      · exact absurd (List.contains_iff_mem.mp h) hv
+    rw [if_neg hv, this]
+    rfl
 
 theorem restrict_lexSol (env : Env) (vars : List Nat) (μ : Sol) :
     restrict vars (lexSol env μ) = lexSol env (restrict vars μ) := by
@@ -2533,527 +2423,471 @@ theorem restrict_lexSol (env : Env) (vars : List Nat) (μ : Sol) :
   rw [this]
   split <;> rfl
 
-theorem rows_projectT (env : Env) (hv : env.vfix = true) (vars idx : List Nat) (t : Table)
-    (h : resolveCols t.cols vars = some idx) :
-    ∃ t', projectT env vars t = some t' ∧ t'.cols = vars ∧
-      t'.rows = (t.rows.map fun r => idx.map fun i => r.getD i Cell.null).map (·.map (strOfCell env)) := by
-  refine ⟨{ cols := vars, chunks := t.chunks.map fun c =>
-      rebuild env vars.length ((selRows c).map fun r => idx.map fun i => r.getD i Cell.null) },
-    by simp [projectT, h], rfl, ?_⟩
-  simp only [Table.rows, List.flatMap_map, List.map_flatMap]
-  apply flatMap_congr'
-  intro c _
-  rw [selRows_rebuild env hv]
+theorem noInt_projectRow (cols vars : List Nat) (r : Row) (h : NoInt r) : NoInt (projectRow cols vars r) := by
+  intro c hc k
+  simp only [projectRow, List.mem_map] at hc
+  obtain ⟨v, _, rfl⟩ := hc
+  cases colIdx cols v with
+  | none => simp
+  | some i =>
+    simp only [List.getD_eq_getElem?_getD]
+    cases hi : r[i]? with
+    | none => simp
+    | some y => simpa using h y (List.mem_of_getElem? hi) k
 
-/-- the translator's plan is the standard algebra expression (after the standard's simplification) -/
-def transAgree (g : Grp) : Bool := simpUnit (transStd g) == transCode g
+/-! ### DISTINCT -/
 
-/-- a projection the planner accepts: `*`, or distinct variables that are all columns -/
-def projOk (cols : List Nat) : Option (List Nat) → Bool
+/-- every element once, the first of its kind where it is -/
+def dedupG {α : Type} [BEq α] : List α → List α
+  | [] => []
+  | x :: xs => x :: (dedupG xs).filter (· != x)
+
+theorem dedupSols_eq (l : List Sol) : dedupSols l = dedupG l := by
+  induction l with
+  | nil => rfl
+  | cons x xs ih => simp only [dedupSols, dedupG, ih]
+
+theorem mem_dedupG {α : Type} [BEq α] [LawfulBEq α] (l : List α) (a : α) : a ∈ dedupG l ↔ a ∈ l := by
+  induction l with
+  | nil => simp [dedupG]
+  | cons x xs ih =>
+    simp only [dedupG, List.mem_cons, List.mem_filter, ih, bne_iff_ne, ne_eq]
+    constructor
+    · rintro (h | h)
+      · exact Or.inl h
+      · exact Or.inr h.1
+    · rintro (h | h)
+      · exact Or.inl h
+      · by_cases hax : a = x
+        · exact Or.inl hax
+        · exact Or.inr ⟨h, hax⟩
+
+theorem nodup_dedupG {α : Type} [BEq α] [LawfulBEq α] (l : List α) : (dedupG l).Nodup := by
+  induction l with
+  | nil => exact List.nodup_nil
+  | cons x xs ih =>
+    simp only [dedupG]
+    rw [List.nodup_cons]
+    refine ⟨fun h => ?_, List.Pairwise.sublist List.filter_sublist ih⟩
+    have := (List.mem_filter.mp h).2
+    simp at this
+
+theorem dedupG_perm {α : Type} [BEq α] [LawfulBEq α] (l l' : List α) (h : l.Perm l') : (dedupG l).Perm (dedupG l') := by
+  rw [List.perm_ext_iff_of_nodup (nodup_dedupG l) (nodup_dedupG l')]
+  intro a
+  rw [mem_dedupG, mem_dedupG, h.mem_iff]
+
+theorem dedupG_map {α β : Type} [BEq α] [LawfulBEq α] [BEq β] [LawfulBEq β] (f : α → β) (l : List α)
+    (hinj : ∀ a ∈ l, ∀ b ∈ l, f a = f b → a = b) : (dedupG l).map f = dedupG (l.map f) := by
+  induction l with
+  | nil => rfl
+  | cons x xs ih =>
+    have ih' := ih (fun a ha b hb => hinj a (List.mem_cons_of_mem _ ha) b (List.mem_cons_of_mem _ hb))
+    simp only [dedupG, List.map_cons]
+    congr 1
+    rw [← ih', List.filter_map]
+    congr 1
+    apply List.filter_congr
+    intro a ha
+    have hax : a ∈ xs := (mem_dedupG xs a).mp ha
+    simp only [Function.comp]
+    by_cases h : a = x
+    · subst h
+      simp only [bne_self_eq_false]
+    · have : f a ≠ f x := fun hf => h (hinj a (List.mem_cons_of_mem _ hax) x List.mem_cons_self hf)
+      rw [bne_iff_ne.mpr h, bne_iff_ne.mpr this]
+
+theorem freshRows_eq (seen l : List Row) : freshRows seen l = (dedupG l).filter fun x => !seen.contains x := by
+  induction l generalizing seen with
+  | nil => rfl
+  | cons x xs ih =>
+    simp only [freshRows, dedupG, List.filter_cons]
+    cases hx : seen.contains x
+    · simp only [Bool.false_eq_true, if_false, Bool.not_false, if_true]
+      congr 1
+      rw [ih, List.filter_filter]
+      apply List.filter_congr
+      intro a _
+      simp only [List.contains_append, List.contains_cons, List.contains_nil, Bool.or_false, Bool.not_or]
+      by_cases hax : a = x
+      · subst hax
+        simp only [BEq.rfl, Bool.not_true, Bool.and_false, bne_self_eq_false]
+      · rw [beq_eq_false_iff_ne.mpr hax, bne_iff_ne.mpr hax]
+        simp
+    · simp only [if_true, Bool.not_true, Bool.false_eq_true, if_false]
+      rw [ih, List.filter_filter]
+      apply List.filter_congr
+      intro a _
+      by_cases hax : a = x
+      · subst hax
+        simp only [hx, Bool.not_true, bne_self_eq_false, Bool.and_false]
+      · rw [bne_iff_ne.mpr hax]
+        simp
+
+theorem freshRows_append (seen a b : List Row) :
+    freshRows seen (a ++ b) = freshRows seen a ++ freshRows (seen ++ freshRows seen a) b := by
+  induction a generalizing seen with
+  | nil => simp [freshRows]
+  | cons x xs ih =>
+    simp only [List.cons_append, freshRows]
+    split
+    · exact ih seen
+    · rw [ih, List.cons_append, List.append_assoc]
+      rfl
+
+theorem rows_distinctChunks (seen : List Row) (cs : List Chunk) :
+    (distinctChunks seen cs).flatMap selRows = freshRows seen (cs.flatMap selRows) := by
+  induction cs generalizing seen with
+  | nil => rfl
+  | cons c rest ih =>
+    simp only [distinctChunks, List.flatMap_cons, freshRows_append]
+    split
+    · rename_i h
+      have hnil : freshRows seen (selRows c) = [] := List.isEmpty_iff.mp h
+      rw [ih, hnil]
+      simp
+    · simp only [List.flatMap_cons, selRows_rebuild, ih]
+
+theorem rows_distinctT (d : Bool) (t : Table) :
+    (distinctT d t).rows = if d then dedupG t.rows else t.rows := by
+  cases d
+  · rfl
+  · simp only [distinctT, if_true, Table.rows]
+    rw [rows_distinctChunks, freshRows_eq]
+    exact List.filter_eq_self.mpr (fun _ _ => rfl)
+
+/-- different rows of a good table stand for different solutions -/
+theorem toSol_inj (n : Nat) (cols : List Nat) (r1 r2 : Row) (hnd : cols.Nodup) (hlt : ∀ v ∈ cols, v < n)
+    (h1 : r1.length = cols.length) (h2 : r2.length = cols.length) (n1 : NoInt r1) (n2 : NoInt r2)
+    (h : toSol n cols r1 = toSol n cols r2) : r1 = r2 := by
+  apply List.ext_getElem (by omega)
+  intro i hi1 hi2
+  have hic : i < cols.length := by omega
+  have hci : cols[i]? = some cols[i] := List.getElem?_eq_getElem hic
+  have hv := hlt cols[i] (List.getElem_mem hic)
+  have e1 : Sol.get (toSol n cols r1) cols[i] = Sol.get (toSol n cols r2) cols[i] := by rw [h]
+  rw [toSol_get _ _ _ _ hv, toSol_get _ _ _ _ hv, lookupCol_eq, lookupCol_eq,
+    lookupCell_of_index cols r1 _ i hnd hci, lookupCell_of_index cols r2 _ i hnd hci,
+    List.getElem?_eq_getElem hi1, List.getElem?_eq_getElem hi2] at e1
+  simp only [Option.bind_some] at e1
+  have a1 := n1 r1[i] (List.getElem_mem hi1)
+  have a2 := n2 r2[i] (List.getElem_mem hi2)
+  cases hx : r1[i] with
+  | int k => exact absurd hx (a1 k)
+  | null =>
+    cases hy : r2[i] with
+    | int k => exact absurd hy (a2 k)
+    | null => rfl
+    | str l => rw [hx, hy] at e1; cases e1
+  | str l =>
+    cases hy : r2[i] with
+    | int k => exact absurd hy (a2 k)
+    | null => rw [hx, hy] at e1; cases e1
+    | str l' =>
+      rw [hx, hy] at e1
+      simp only [cellVal, Option.some.injEq] at e1
+      rw [e1]
+
+/-- a projection: `*`, or distinct variables below `n` -/
+def projOk (n : Nat) : Option (List Nat) → Bool
   | none => true
-  | some vars => !vars.isEmpty && decide vars.Nodup && vars.all cols.contains
+  | some vars => !vars.isEmpty && decide vars.Nodup && vars.all fun v => decide (v < n)
 
-theorem eval_transStd (env : Env) (n : Nat) (G : List Triple) (g : Grp) (h : transAgree g = true) :
-    eval env n G (transStd g) = eval env n G (transCode g) := by
-  simp only [transAgree, beq_iff_eq] at h
-  rw [← h, eval_simpUnit]
+theorem lexSol_inj (env : Env) (U : List Nat) (hU : LexInj env U) (μ ν : Sol) (hl : μ.length = ν.length)
+    (hμ : ∀ w y, μ.get w = some y → y ∈ U) (hν : ∀ w y, ν.get w = some y → y ∈ U)
+    (h : lexSol env μ = lexSol env ν) : μ = ν := by
+  apply sol_ext (n := μ.length) _ _ rfl hl.symm
+  intro v _
+  have := congrArg (fun σ => Sol.get σ v) h
+  simp only [lexSol_get] at this
+  cases hx : μ.get v with
+  | none =>
+    cases hy : ν.get v with
+    | none => rfl
+    | some y => rw [hx, hy] at this; cases this
+  | some x =>
+    cases hy : ν.get v with
+    | none => rw [hx, hy] at this; cases this
+    | some y =>
+      rw [hx, hy] at this
+      simp only [Option.map_some, Option.some.injEq] at this
+      rw [hU x (hμ v x hx) y (hν v y hy) this]
 
-/-- **SELECT without solution modifiers** (projection allowed): the rows returned are a permutation
-of the specification's solutions. -/
-theorem c13_sparql_select_partial (env : Env) (hv : env.vfix = true) (b : Bool) (ops : List Op)
-    (full : List Triple) (n : Nat) (q : Select)
-    (hfull : full.Perm (run b ops).triples)
-    (hd : q.distinct = false) (ho : q.order = []) (hoff : q.offset = none) (hlim : q.limit = none)
-    (htr : transAgree q.where_ = true)
-    (hwf : wfPat env n (transCode q.where_) = true)
-    (hproj : projOk (patCols (transCode q.where_)) q.proj = true)
-    (hlex : lexClash env (termsOf (run b ops).triples (transCode q.where_)) = false)
-    (heq : eqExactB env (termsOf (run b ops).triples (transCode q.where_)) = true) :
-    selAgrees env (run b ops) full n q := by
-  obtain ⟨t, he, hcols, g, hp⟩ := exec_perm_eval env hv b ops full n _ hfull
-    (lexInj_of_noClash env _ hlex) (eqExact_of_B env _ heq) (fun x hx => List.mem_append_left _ hx)
-    (transCode q.where_) hwf (fun c h => List.mem_append_right _ h)
-  rw [← eval_transStd env n _ q.where_ htr] at hp
-  unfold selAgrees
-  simp only [execSelect, he, Option.bind_some, ho, orderT, List.isEmpty_nil, if_true, hoff, hlim, skipT, limitT,
-    specSelect, hd, Bool.false_eq_true, if_false, sliceOpt]
-  cases hq : q.proj with
-  | none => simpa using hp
+theorem restrict_length (vars : List Nat) (μ : Sol) : (restrict vars μ).length = μ.length := by
+  simp [restrict]
+
+theorem restrict_get (vars : List Nat) (μ : Sol) (v : Nat) :
+    (restrict vars μ).get v = if vars.contains v then μ.get v else none := by
+  by_cases hv : v < μ.length
+  · simp only [restrict, Sol.get]
+    rw [List.getElem?_map, List.getElem?_range hv]
+    rfl
+  · have h1 : (restrict vars μ)[v]? = none := List.getElem?_eq_none (by rw [restrict_length]; omega)
+    have h2 : μ[v]? = none := List.getElem?_eq_none (by omega)
+    simp only [Sol.get, h1, h2]
+    split <;> rfl
+
+/-- the table after the projection of a SELECT -/
+structure ProjFacts (n : Nat) (proj : Option (List Nat)) (t t2 : Table) : Prop where
+  nodup : t2.cols.Nodup
+  lt : ∀ v ∈ t2.cols, v < n
+  width : ∀ r ∈ t2.rows, r.length = t2.cols.length
+  noInt : ∀ r ∈ t2.rows, NoInt r
+  sols : t2.rows.map (toSol n t2.cols) = (t.rows.map (toSol n t.cols)).map (projSol proj)
+
+theorem projOpt_facts (n : Nat) (cert : List Nat) (proj : Option (List Nat)) (t : Table) (g : Good n cert t)
+    (hp : projOk n proj = true) : ProjFacts n proj t (projOpt proj t) := by
+  cases proj with
+  | none =>
+    exact ⟨g.nodup, g.lt, g.width, g.noInt, by simp [projOpt, projSol]⟩
   | some vars =>
-    rw [hq] at hproj
-    simp only [projOk, Bool.and_eq_true, Bool.not_eq_true', decide_eq_true_eq, List.all_eq_true,
-      List.contains_iff_mem] at hproj
-    obtain ⟨⟨hne, hvn⟩, hsub⟩ := hproj
-    obtain ⟨idx, hres, hlen, hidx⟩ := resolveCols_some t.cols vars (by rw [hcols]; exact hsub) g.nodup
-    obtain ⟨t', hpt, hc', hr'⟩ := rows_projectT env hv vars idx t hres
+    simp only [projOk, Bool.and_eq_true, Bool.not_eq_true', decide_eq_true_eq, List.all_eq_true] at hp
+    obtain ⟨⟨hne, hvn⟩, hlt⟩ := hp
     cases vars with
     | nil => simp at hne
     | cons x xs =>
-      simp only [hpt]
-      rw [hc', hr']
-      have hnoInt : ∀ r ∈ (t.rows.map fun r => idx.map fun i => r.getD i Cell.null), NoInt r := by
-        intro r hr c hc k
+      have hrows := rows_projectT (x :: xs) t
+      refine ⟨hvn, hlt, ?_, ?_, ?_⟩
+      · intro r hr
+        simp only [projOpt] at hr
+        rw [hrows] at hr
+        obtain ⟨r0, _, rfl⟩ := List.mem_map.mp hr
+        simp [projectRow, projOpt, projectT]
+      · intro r hr
+        simp only [projOpt] at hr
+        rw [hrows] at hr
         obtain ⟨r0, hr0, rfl⟩ := List.mem_map.mp hr
-        obtain ⟨i, _, rfl⟩ := List.mem_map.mp hc
-        rw [List.getD_eq_getElem?_getD]
-        cases hi : r0[i]? with
-        | none => simp
-        | some y => simpa using g.noInt r0 hr0 y (List.mem_of_getElem? hi) k
-      rw [strOfCell_rows_id env _ hnoInt, List.map_map]
-      have h1 : (t.rows.map ((toSol n (x :: xs)) ∘ fun r => idx.map fun i => r.getD i Cell.null)) =
-          (t.rows.map (toSol n t.cols)).map (restrict (x :: xs)) := by
-        rw [List.map_map]
+        exact noInt_projectRow _ _ r0 (g.noInt r0 hr0)
+      · simp only [projOpt, hrows, projSol, List.map_map]
         apply List.map_congr_left
         intro r _
-        simp only [Function.comp]
-        exact toSol_project n t.cols (x :: xs) idx r g.nodup hvn hidx hlen
-      rw [h1]
-      have h2 : ((eval env n (run b ops).triples (transStd q.where_)).map (restrict (x :: xs))).map (lexSol env) =
-          ((eval env n (run b ops).triples (transStd q.where_)).map (lexSol env)).map (restrict (x :: xs)) := by
-        rw [List.map_map, List.map_map]
-        apply List.map_congr_left
-        intro μ _
-        simp only [Function.comp]
-        exact (restrict_lexSol env (x :: xs) μ).symm
-      rw [h2]
-      exact hp.map _
+        exact toSol_project n t.cols (x :: xs) r g.nodup
 
-/-! ## updates -/
-
-theorem filter_ne_of_not_mem (l : List Triple) (t : Triple) (h : t ∉ l) : l.filter (· != t) = l := by
-  rw [List.filter_eq_self]
-  intro a ha
-  simp only [bne_iff_ne, ne_eq]
-  exact fun hat => h (hat ▸ ha)
-
-theorem ustate_insert_triples (u : UState) (t : Triple) :
-    (u.insert t).st.triples = specInsert u.st.triples t := by
-  unfold UState.insert specInsert
-  split
+/-- DISTINCT on the rows is DISTINCT on the solutions they stand for -/
+theorem distinct_sols (n : Nat) (d : Bool) (t2 : Table) (hnd : t2.cols.Nodup) (hlt : ∀ v ∈ t2.cols, v < n)
+    (hw : ∀ r ∈ t2.rows, r.length = t2.cols.length) (hni : ∀ r ∈ t2.rows, NoInt r) :
+    (distinctT d t2).rows.map (toSol n t2.cols) =
+      if d then dedupG (t2.rows.map (toSol n t2.cols)) else t2.rows.map (toSol n t2.cols) := by
+  rw [rows_distinctT]
+  cases d
   · rfl
-  · rename_i h
-    simp [Store.insert, h]
+  · simp only [if_true]
+    exact dedupG_map _ _ (fun a ha b hb h => toSol_inj n t2.cols a b hnd hlt (hw a ha) (hw b hb) (hni a ha) (hni b hb) h)
 
-theorem ustate_remove_triples (u : UState) (t : Triple) :
-    (u.remove t).st.triples = specRemove u.st.triples t := by
-  unfold UState.remove specRemove Store.remove
-  simp only
-  split
-  · rename_i h
-    exact (filter_ne_of_not_mem _ t h).symm
-  · rfl
+theorem cols_distinctT (d : Bool) (t : Table) : (distinctT d t).cols = t.cols := by
+  cases d <;> rfl
 
-theorem foldl_insert_triples (u : UState) (ts : List Triple) :
-    (ts.foldl UState.insert u).st.triples = ts.foldl specInsert u.st.triples := by
-  induction ts generalizing u with
-  | nil => rfl
-  | cons t rest ih => simp only [List.foldl_cons, ih, ustate_insert_triples]
+/-- the specification's projection + DISTINCT, in lexical forms -/
+theorem spec_distinct_lex (env : Env) (n : Nat) (U : List Nat) (hU : LexInj env U) (proj : Option (List Nat)) (d : Bool)
+    (sols : List Sol) (hs : ∀ μ ∈ sols, μ.length = n ∧ ∀ w y, μ.get w = some y → y ∈ U) :
+    (if d then dedupSols (sols.map (projSol proj)) else sols.map (projSol proj)).map (lexSol env) =
+      if d then dedupG ((sols.map (lexSol env)).map (projSol proj)) else (sols.map (lexSol env)).map (projSol proj) := by
+  have hcomm : (sols.map (projSol proj)).map (lexSol env) = (sols.map (lexSol env)).map (projSol proj) := by
+    rw [List.map_map, List.map_map]
+    apply List.map_congr_left
+    intro μ _
+    cases proj with
+    | none => rfl
+    | some vars => exact (restrict_lexSol env vars μ).symm
+  cases d
+  · exact hcomm
+  · simp only [if_true, dedupSols_eq]
+    rw [dedupG_map (lexSol env), hcomm]
+    intro a ha b hb h
+    obtain ⟨μ, hμ, rfl⟩ := List.mem_map.mp ha
+    obtain ⟨ν, hν, rfl⟩ := List.mem_map.mp hb
+    have facts : ∀ μ ∈ sols, (projSol proj μ).length = n ∧ ∀ w y, (projSol proj μ).get w = some y → y ∈ U := by
+      intro μ hμ
+      cases proj with
+      | none => exact hs μ hμ
+      | some vars =>
+        refine ⟨by rw [projSol, restrict_length]; exact (hs μ hμ).1, fun w y hy => ?_⟩
+        simp only [projSol, restrict_get] at hy
+        split at hy
+        · exact (hs μ hμ).2 w y hy
+        · cases hy
+    exact lexSol_inj env U hU _ _ (by rw [(facts μ hμ).1, (facts ν hν).1]) (facts μ hμ).2 (facts ν hν).2 h
 
-theorem foldl_remove_triples (u : UState) (ts : List Triple) :
-    (ts.foldl UState.remove u).st.triples = ts.foldl specRemove u.st.triples := by
-  induction ts generalizing u with
-  | nil => rfl
-  | cons t rest ih => simp only [List.foldl_cons, ih, ustate_remove_triples]
+/-! ## agreement of the model's answers with the specification's -/
 
-/-- the constants of ground data survive `literal_to_value` -/
-def dataStable (env : Env) (ts : List Triple) : Bool :=
-  ts.all fun t => env.litNorm t.s == t.s && env.litNorm t.p == t.p && env.litNorm t.o == t.o
+/-- does the model's answer to a SELECT agree with the specification's (as multisets of solutions)? -/
+def selAgrees (env : Env) (st : Store) (full : List Triple) (n : Nat) (q : Select) : Prop :=
+  match execSelect env st full q with
+  | none => False
+  | some t => (t.rows.map (toSol n t.cols)).Perm ((specSelect env n st.triples q).map (lexSol env))
 
-theorem norm_id (env : Env) (ts : List Triple) (h : dataStable env ts = true) :
-    ∀ t ∈ ts, (⟨env.litNorm t.s, env.litNorm t.p, env.litNorm t.o⟩ : Triple) = t := by
-  intro t ht
-  simp only [dataStable, List.all_eq_true, Bool.and_eq_true, beq_iff_eq] at h
-  obtain ⟨⟨h1, h2⟩, h3⟩ := h t ht
-  rw [h1, h2, h3]
+instance (env : Env) (st : Store) (full : List Triple) (n : Nat) (q : Select) : Decidable (selAgrees env st full n q) := by
+  unfold selAgrees
+  split <;> infer_instance
 
-theorem foldl_congr_mem {α β : Type} (l : List α) (f g : β → α → β) (b : β)
-    (h : ∀ a ∈ l, ∀ x, f x a = g x a) : l.foldl f b = l.foldl g b := by
-  induction l generalizing b with
-  | nil => rfl
-  | cons a rest ih =>
-    simp only [List.foldl_cons]
-    rw [h a List.mem_cons_self b]
-    exact ih _ (fun a' ha' => h a' (List.mem_cons_of_mem _ ha'))
+/-- … as sequences (ORDER BY) -/
+def selAgreesOrdered (env : Env) (st : Store) (full : List Triple) (n : Nat) (q : Select) : Prop :=
+  match execSelect env st full q with
+  | none => False
+  | some t => t.rows.map (toSol n t.cols) = (specSelect env n st.triples q).map (lexSol env)
 
-theorem all_congr_mem {α : Type} (l : List α) (f g : α → Bool) (h : ∀ a ∈ l, f a = g a) : l.all f = l.all g := by
-  induction l with
-  | nil => rfl
-  | cons a rest ih =>
-    simp only [List.all_cons]
-    rw [h a List.mem_cons_self, ih (fun a' ha' => h a' (List.mem_cons_of_mem _ ha'))]
+instance (env : Env) (st : Store) (full : List Triple) (n : Nat) (q : Select) :
+    Decidable (selAgreesOrdered env st full n q) := by
+  unfold selAgreesOrdered
+  split <;> infer_instance
 
-/-- **INSERT DATA** changes the set exactly as the specification says (constants that survive
-`literal_to_value`). -/
-theorem c13_sparql_insert_data_partial (env : Env) (st : Store) (full : List Triple) (n : Nat) (ts : List Triple)
-    (hst : dataStable env ts = true) : updAgrees env st full n (.insertData ts) := by
-  have hn := norm_id env ts hst
-  have hw : (ts.all fun t => wellFormed env (env.litNorm t.s) (env.litNorm t.p)) = ts.all fun t => wellFormed env t.s t.p := by
-    apply all_congr_mem
-    intro t ht
-    have h1 := congrArg Triple.s (hn t ht)
-    have h2 := congrArg Triple.p (hn t ht)
-    simp only at h1 h2
-    rw [h1, h2]
+def countRowCells (env : Env) (r : CountRow) : Row :=
+  (r.key.map fun k => match k with
+    | some x => Cell.str (env.lex x)
+    | none => Cell.null) ++ [Cell.int r.count]
+
+/-- does the model's answer to a COUNT query agree with the specification's (header and rows)? -/
+def cntAgrees (env : Env) (st : Store) (full : List Triple) (n : Nat) (q : Count) : Prop :=
+  match execCount env st full q with
+  | none => False
+  | some t => t.cols = q.groupBy ++ [q.alias] ∧ t.rows.Perm ((specCount env n st.triples q).map (countRowCells env))
+
+instance (env : Env) (st : Store) (full : List Triple) (n : Nat) (q : Count) : Decidable (cntAgrees env st full n q) := by
+  unfold cntAgrees
+  split <;> infer_instance
+
+/-- does the store after the model's update hold the triples the specification says? -/
+def updAgrees (env : Env) (st : Store) (full : List Triple) (n : Nat) (u : Update) : Prop :=
+  match execUpdate env ⟨st, full⟩ u, specUpdate env n st.triples u with
+  | some u', some G' => u'.st.triples.Perm G'
+  | none, none => True
+  | _, _ => False
+
+instance (env : Env) (st : Store) (full : List Triple) (n : Nat) (u : Update) : Decidable (updAgrees env st full n u) := by
   unfold updAgrees
-  simp only [execUpdate, specUpdate, hw]
-  by_cases hwf : (ts.all fun t => wellFormed env t.s t.p) = true
-  · simp only [hwf, if_true]
-    rw [foldl_congr_mem ts _ UState.insert _ (fun t ht x => by rw [hn t ht]), foldl_insert_triples]
-  · rw [if_neg hwf, if_neg hwf]
-    trivial
+  split <;> infer_instance
 
-/-- **DELETE DATA** likewise. -/
-theorem c13_sparql_delete_data_partial (env : Env) (st : Store) (full : List Triple) (n : Nat) (ts : List Triple)
-    (hst : dataStable env ts = true) : updAgrees env st full n (.deleteData ts) := by
-  have hn := norm_id env ts hst
-  have hw : (ts.all fun t => wellFormed env (env.litNorm t.s) (env.litNorm t.p)) = ts.all fun t => wellFormed env t.s t.p := by
-    apply all_congr_mem
-    intro t ht
-    have h1 := congrArg Triple.s (hn t ht)
-    have h2 := congrArg Triple.p (hn t ht)
-    simp only at h1 h2
-    rw [h1, h2]
-  unfold updAgrees
-  simp only [execUpdate, specUpdate, hw]
-  by_cases hwf : (ts.all fun t => wellFormed env t.s t.p) = true
-  · simp only [hwf, if_true]
-    rw [foldl_congr_mem ts _ UState.remove _ (fun t ht x => by rw [hn t ht]), foldl_remove_triples]
-  · rw [if_neg hwf, if_neg hwf]
-    trivial
-
-/-! ### DELETE / INSERT … WHERE -/
-
-/-- the plan's output chunks carry no selection vector (no FILTER on top) -/
-def allSelected : Pat → Bool
-  | .unit => true
-  | .scan _ => true
-  | .join _ _ => true
-  | .leftJoin _ _ _ => true
-  | .union a b => allSelected a && allSelected b
-  | .filter _ _ => false
-
-def AllSel (t : Table) : Prop := ∀ c ∈ t.chunks, ∀ br ∈ c, br.1 = true
-
-theorem allSel_allSel (rows : List Row) : ∀ br ∈ allSel rows, br.1 = true := by
-  intro br h
-  simp only [allSel, List.mem_map] at h
-  obtain ⟨r, _, rfl⟩ := h
-  rfl
-
-theorem physRows_eq (c : Chunk) (h : ∀ br ∈ c, br.1 = true) : physRows c = selRows c := by
-  have hf : c.filter (·.1) = c := by
-    rw [List.filter_eq_self]
-    exact h
-  simp only [physRows, selRows, hf, List.length_map, List.take_length]
-
-theorem updRows_eq (t : Table) (h : AllSel t) : t.updRows = t.rows := by
-  simp only [Table.updRows, Table.rows]
-  apply flatMap_congr'
-  intro c hc
-  exact physRows_eq c (h c hc)
-
-theorem exec_allSel (env : Env) (st : Store) (full : List Triple) (p : Pat) (t : Table)
-    (he : exec env st full p = some t) (hp : allSelected p = true) : AllSel t := by
-  induction p generalizing t with
-  | unit => simp [exec] at he
-  | scan tp =>
-    simp only [exec, Option.some.injEq] at he
-    subst he
-    intro c hc br hbr
-    simp only [scanT, List.mem_map] at hc
-    obtain ⟨rows, _, rfl⟩ := hc
-    exact allSel_allSel rows br hbr
-  | join a b _ _ =>
-    simp only [exec, Option.bind_eq_some_iff, Option.map_eq_some_iff] at he
-    obtain ⟨ta, _, tb, _, rfl⟩ := he
-    intro c hc br hbr
-    simp only [nlJoin, List.mem_flatMap, List.mem_map] at hc
-    obtain ⟨_, _, rows, _, rfl⟩ := hc
-    exact allSel_allSel _ br hbr
-  | leftJoin a b cond _ _ =>
-    cases cond with
-    | none =>
-      simp only [exec, Option.bind_eq_some_iff, Option.map_eq_some_iff] at he
-      obtain ⟨ta, _, tb, _, rfl⟩ := he
-      intro c hc br hbr
-      simp only [nlJoin, List.mem_flatMap, List.mem_map] at hc
-      obtain ⟨_, _, rows, _, rfl⟩ := hc
-      exact allSel_allSel _ br hbr
-    | some e =>
-      simp only [exec, Option.bind_eq_some_iff, Option.map_eq_some_iff] at he
-      obtain ⟨ta, _, tb, _, rfl⟩ := he
-      intro c hc br hbr
-      simp only [nlJoin, List.mem_flatMap, List.mem_map] at hc
-      obtain ⟨_, _, rows, _, rfl⟩ := hc
-      exact allSel_allSel _ br hbr
-  | union a b iha ihb =>
-    simp only [allSelected, Bool.and_eq_true] at hp
-    simp only [exec, Option.bind_eq_some_iff, Option.map_eq_some_iff] at he
-    obtain ⟨ta, hea, tb, heb, rfl⟩ := he
-    intro c hc
-    simp only [List.mem_append] at hc
-    rcases hc with h | h
-    · exact iha ta hea hp.1 c h
-    · exact ihb tb heb hp.2 c h
-  | filter e a _ => simp [allSelected] at hp
-
-def resL (env : Env) (σ : Sol) : PT → Option Nat
-  | .const c => some (env.litNorm c)
-  | .var v => (σ.get v).map env.back
-
-/-- instantiation of a template from a solution given in lexical forms (what the update operators do) -/
-def instL (env : Env) (σ : Sol) (tp : TP) : Option Triple :=
-  (resL env σ tp.s).bind fun s => (resL env σ tp.p).bind fun p => (resL env σ tp.o).bind fun o =>
-    if wellFormed env s p then some ⟨s, p, o⟩ else none
-
-theorem resolvePT_eq (env : Env) (n : Nat) (cols : List Nat) (row : Row) (hnd : cols.Nodup)
-    (hlt : ∀ v ∈ cols, v < n) (hni : NoInt row) (a : PT) :
-    resolvePT env cols row a = resL env (toSol n cols row) a := by
-  cases a with
-  | const c => rfl
-  | var v =>
-    simp only [resolvePT, resL]
-    by_cases hv : v ∈ cols
-    · obtain ⟨i, hi⟩ := List.getElem?_of_mem hv
-      rw [colIdx_of_index cols v i hnd hi, toSol_get _ _ _ _ (hlt v hv), lookupCol_eq,
-        lookupCell_of_index cols row v i hnd hi]
-      simp only [Option.bind_some]
-      cases hc : row[i]? with
-      | none => rfl
-      | some x =>
-        cases x with
-        | null => rfl
-        | str l => rfl
-        | int k => exact absurd rfl (hni (Cell.int k) (List.mem_of_getElem? hc) k)
-    · rw [colIdx_none cols v hv]
-      by_cases hvn : v < n
-      · rw [toSol_get _ _ _ _ hvn, lookupCol_none_of_not_mem cols row v hv]; rfl
-      · have : (toSol n cols row).get v = none := by simp [Sol.get, toSol, hvn]
-        rw [this]; rfl
-
-theorem instantiate_eq (env : Env) (n : Nat) (cols : List Nat) (row : Row) (hnd : cols.Nodup)
-    (hlt : ∀ v ∈ cols, v < n) (hni : NoInt row) (tp : TP) :
-    instantiate env cols row tp = instL env (toSol n cols row) tp := by
-  simp only [instantiate, instL, resolvePT_eq env n cols row hnd hlt hni]
-
-/-- `value_to_term` gives back the term a lexical form came from -/
-def BackStable (env : Env) (U : List Nat) : Prop := ∀ x ∈ U, env.back (env.lex x) = x
-
-def backStableB (env : Env) (U : List Nat) : Bool := U.all fun x => env.back (env.lex x) == x
-
-theorem backStable_of_B (env : Env) (U : List Nat) (h : backStableB env U = true) : BackStable env U := by
-  intro x hx
-  simp only [backStableB, List.all_eq_true, beq_iff_eq] at h
-  exact h x hx
-
-theorem specInst_eq (env : Env) (U : List Nat) (hB : BackStable env U) (μ : Sol)
-    (hμ : ∀ w y, μ.get w = some y → y ∈ U) (tp : TP) (hc : ∀ c ∈ tpConsts tp, env.litNorm c = c) :
-    specInst env μ tp = instL env (lexSol env μ) tp := by
-  have key : ∀ a : PT, (∀ c ∈ ptConsts a, env.litNorm c = c) → valOf μ a = resL env (lexSol env μ) a := by
-    intro a ha
-    cases a with
-    | const c => simp [valOf, resL, ha c (by simp [ptConsts])]
-    | var v =>
-      simp only [valOf, resL, lexSol_get]
-      cases hx : μ.get v with
-      | none => rfl
-      | some x => simp [hB x (hμ v x hx)]
-  simp only [specInst, instL]
-  rw [key tp.s (fun c h => hc c (by simp [tpConsts, h])), key tp.p (fun c h => hc c (by simp [tpConsts, h])),
-    key tp.o (fun c h => hc c (by simp [tpConsts, h]))]
-
-theorem foldl_specRemove_eq (G L : List Triple) :
-    L.foldl specRemove G = G.filter (fun t => !L.contains t) := by
-  induction L generalizing G with
-  | nil =>
-    simp only [List.foldl_nil, List.contains_nil, Bool.not_false]
-    exact (List.filter_eq_self.mpr (fun _ _ => rfl)).symm
-  | cons x rest ih =>
-    simp only [List.foldl_cons, ih, specRemove, List.filter_filter]
-    apply List.filter_congr
-    intro t _
-    simp only [List.contains_cons, Bool.not_or, bne, Bool.and_comm]
-
-theorem foldl_specRemove_perm (G L L' : List Triple) (h : L.Perm L') :
-    L.foldl specRemove G = L'.foldl specRemove G := by
-  rw [foldl_specRemove_eq, foldl_specRemove_eq]
-  apply List.filter_congr
-  intro t _
-  have : L.contains t = L'.contains t := by
-    cases hc : L'.contains t
-    · cases hc' : L.contains t
-      · rfl
-      · rw [List.contains_iff_mem] at hc'
-        have := List.contains_iff_mem.mpr (h.mem_iff.mp hc')
-        rw [hc] at this; cases this
-    · rw [List.contains_iff_mem] at hc ⊢
-      exact h.mem_iff.mpr hc
-  rw [this]
-
-theorem mem_foldl_specInsert (G L : List Triple) (x : Triple) :
-    x ∈ L.foldl specInsert G ↔ x ∈ G ∨ x ∈ L := by
-  induction L generalizing G with
-  | nil => simp
-  | cons t rest ih =>
-    simp only [List.foldl_cons, ih, List.mem_cons]
-    have : x ∈ specInsert G t ↔ x ∈ G ∨ x = t := by
-      unfold specInsert
-      split
-      · rename_i h
-        constructor
-        · exact Or.inl
-        · rintro (h' | rfl) <;> assumption
-      · simp
-    rw [this]
-    constructor
-    · rintro ((h | h) | h)
-      · exact Or.inl h
-      · exact Or.inr (Or.inl h)
-      · exact Or.inr (Or.inr h)
-    · rintro (h | h | h)
-      · exact Or.inl (Or.inl h)
-      · exact Or.inl (Or.inr h)
-      · exact Or.inr h
-
-theorem nodup_foldl_specInsert (G L : List Triple) (h : G.Nodup) : (L.foldl specInsert G).Nodup := by
-  induction L generalizing G with
-  | nil => exact h
-  | cons t rest ih =>
-    simp only [List.foldl_cons]
-    apply ih
-    unfold specInsert
-    split
-    · exact h
-    · rename_i hn
-      rw [List.nodup_append]
-      refine ⟨h, by simp, ?_⟩
-      intro a ha b hb hab
-      simp only [List.mem_singleton] at hb
-      subst hb
-      subst hab
-      exact hn ha
-
-theorem foldl_specInsert_perm (G L L' : List Triple) (hG : G.Nodup) (h : L.Perm L') :
-    (L.foldl specInsert G).Perm (L'.foldl specInsert G) := by
-  rw [List.perm_ext_iff_of_nodup (nodup_foldl_specInsert G L hG) (nodup_foldl_specInsert G L' hG)]
-  intro x
-  rw [mem_foldl_specInsert, mem_foldl_specInsert, h.mem_iff]
-
-theorem nodup_foldl_specRemove (G L : List Triple) (h : G.Nodup) : (L.foldl specRemove G).Nodup := by
-  rw [foldl_specRemove_eq]
-  exact h.filter _
-
-/-- the triples a template produces from the rows of a good table and from the algebra's solutions -/
-theorem inst_perm (env : Env) (n : Nat) (U : List Nat) (hB : BackStable env U) (t : Table) (cert : List Nat)
-    (g : Good n cert t) (hs : AllSel t) (sols : List Sol)
-    (hsol : ∀ μ ∈ sols, ∀ w y, μ.get w = some y → y ∈ U)
-    (hp : (t.rows.map (toSol n t.cols)).Perm (sols.map (lexSol env)))
-    (tp : TP) (hc : ∀ c ∈ tpConsts tp, env.litNorm c = c) :
-    (t.updRows.filterMap fun r => instantiate env t.cols r tp).Perm (sols.filterMap fun μ => specInst env μ tp) := by
-  rw [updRows_eq t hs]
-  have h1 : (t.rows.filterMap fun r => instantiate env t.cols r tp) =
-      (t.rows.map (toSol n t.cols)).filterMap (fun σ => instL env σ tp) := by
-    rw [List.filterMap_map]
-    apply filterMap_congr'
-    intro r hr
-    exact instantiate_eq env n t.cols r g.nodup g.lt (g.noInt r hr) tp
-  have h2 : (sols.filterMap fun μ => specInst env μ tp) = (sols.map (lexSol env)).filterMap (fun σ => instL env σ tp) := by
-    rw [List.filterMap_map]
-    apply filterMap_congr'
+/-- **SELECT [DISTINCT] without ORDER BY / OFFSET / LIMIT** (projection allowed, also of variables
+that are not in scope): the rows returned are a permutation of the specification's solutions. -/
+theorem c13_sparql_select_partial (env : Env) (b : Bool) (ops : List Op)
+    (full : List Triple) (n : Nat) (q : Select)
+    (hfull : full.Perm (run b ops).triples)
+    (ho : q.order = []) (hoff : q.offset = none) (hlim : q.limit = none)
+    (hs : scopeOk n (simpUnit (transStd q.where_)) = true)
+    (hwf : wfPat env n (transCode q.where_) = true)
+    (hproj : projOk n q.proj = true)
+    (hlex : lexClash env (termsOf (run b ops).triples (transCode q.where_)) = false)
+    (heq : eqExactB env (termsOf (run b ops).triples (transCode q.where_)) = true) :
+    selAgrees env (run b ops) full n q := by
+  have hU := lexInj_of_noClash env _ hlex
+  obtain ⟨_, g, hp⟩ := exec_perm_eval env b ops full n _ hfull hU (eqExact_of_B env _ heq)
+    (fun x hx => List.mem_append_left _ hx) (transCode q.where_) hwf (fun c h => List.mem_append_right _ h)
+  rw [eval_transCode env n _ q.where_ hs] at hp
+  have pf := projOpt_facts n _ q.proj _ g hproj
+  have hsol : ∀ μ ∈ eval env n (run b ops).triples (transStd q.where_), μ.length = n ∧ ∀ w y, μ.get w = some y →
+      y ∈ termsOf (run b ops).triples (transCode q.where_) := by
     intro μ hμ
-    exact specInst_eq env U hB μ (hsol μ hμ) tp hc
-  rw [h1, h2]
-  exact hp.filterMap _
+    exact ⟨(eval_wf env n _ _ μ hμ).1, fun w y hy => List.mem_append_left _ ((eval_wf env n _ _ μ hμ).2 w y hy)⟩
+  unfold selAgrees
+  simp only [execSelect, ho, orderT, List.isEmpty_nil, if_true, Option.map_some, hoff, hlim, skipT, limitT,
+    specSelect, sliceOpt]
+  rw [cols_distinctT, distinct_sols n q.distinct _ pf.nodup pf.lt pf.width pf.noInt, pf.sols]
+  have hspec := spec_distinct_lex env n _ hU q.proj q.distinct _ hsol
+  rw [hspec]
+  cases q.distinct
+  · exact hp.map _
+  · simp only [if_true]
+    exact dedupG_perm _ _ (hp.map _)
 
-/-- the constants of the templates survive `literal_to_value` -/
-def tplStable (env : Env) (tps : List TP) : Bool :=
-  tps.all fun tp => (tpConsts tp).all fun c => env.litNorm c == c
+/-! ### OFFSET / LIMIT on chunks are `drop` / `take` on rows -/
 
-theorem tplStable_spec (env : Env) (tps : List TP) (h : tplStable env tps = true) :
-    ∀ tp ∈ tps, ∀ c ∈ tpConsts tp, env.litNorm c = c := by
-  intro tp htp c hc
-  simp only [tplStable, List.all_eq_true, beq_iff_eq] at h
-  exact h tp htp c hc
+theorem rows_skipChunks (k : Nat) (cs : List Chunk) :
+    (skipChunks k cs).flatMap selRows = (cs.flatMap selRows).drop k := by
+  induction cs generalizing k with
+  | nil => cases k <;> simp [skipChunks]
+  | cons c rest ih =>
+    cases k with
+    | zero => simp [skipChunks]
+    | succ j =>
+      simp only [skipChunks, List.flatMap_cons]
+      split
+      · rename_i hge
+        rw [ih, List.drop_append]
+        have : (selRows c).drop (j + 1) = [] := List.drop_eq_nil_of_le hge
+        rw [this]
+        rfl
+      · rename_i hlt
+        simp only [List.flatMap_cons, selRows_rebuild]
+        rw [List.drop_append_of_le_length (by omega)]
 
-theorem flatMap_inst_perm (env : Env) (n : Nat) (U : List Nat) (hB : BackStable env U) (t : Table) (cert : List Nat)
-    (g : Good n cert t) (hs : AllSel t) (sols : List Sol)
-    (hsol : ∀ μ ∈ sols, ∀ w y, μ.get w = some y → y ∈ U)
-    (hp : (t.rows.map (toSol n t.cols)).Perm (sols.map (lexSol env)))
-    (tps : List TP) (hc : ∀ tp ∈ tps, ∀ c ∈ tpConsts tp, env.litNorm c = c) :
-    (tps.flatMap fun tp => t.updRows.filterMap fun r => instantiate env t.cols r tp).Perm
-      (tps.flatMap fun tp => sols.filterMap fun μ => specInst env μ tp) := by
-  apply flatMap_perm_pointwise
-  intro tp htp
-  exact inst_perm env n U hB t cert g hs sols hsol hp tp (hc tp htp)
+theorem rows_limitChunks (k : Nat) (cs : List Chunk) :
+    (limitChunks k cs).flatMap selRows = (cs.flatMap selRows).take k := by
+  induction cs generalizing k with
+  | nil => cases k <;> simp [limitChunks]
+  | cons c rest ih =>
+    cases k with
+    | zero => simp [limitChunks]
+    | succ j =>
+      simp only [limitChunks, List.flatMap_cons]
+      split
+      · rename_i h0
+        have : selRows c = [] := List.eq_nil_of_length_eq_zero h0
+        rw [ih, this]
+        rfl
+      · split
+        · rename_i hle
+          simp only [List.flatMap_cons]
+          rw [ih, List.take_append]
+          rw [List.take_of_length_le hle]
+        · rename_i hgt
+          simp only [List.flatMap_cons, List.flatMap_nil, List.append_nil, selRows_rebuild]
+          rw [List.take_append_of_le_length (by omega)]
 
-/-- **DELETE { … } INSERT { … } WHERE { … }** changes the set exactly as the specification says, for
-WHERE clauses in the fragment of `c13_sparql_select_partial` whose plan has no FILTER on top, data
-whose terms `value_to_term` recovers from their lexical forms, and templates whose constants
-survive `literal_to_value`. -/
-theorem c13_sparql_modify_partial (env : Env) (hv : env.vfix = true) (b : Bool) (ops : List Op)
-    (full : List Triple) (n : Nat) (del ins : List TP) (w : Grp)
-    (hfull : full.Perm (run b ops).triples)
-    (htr : transAgree w = true)
-    (hwf : wfPat env n (transCode w) = true)
-    (hsel : allSelected (transCode w) = true)
-    (htpl : tplStable env (del ++ ins) = true)
-    (hlex : lexClash env (termsOf (run b ops).triples (transCode w)) = false)
-    (heq : eqExactB env (termsOf (run b ops).triples (transCode w)) = true)
-    (hback : backStableB env (termsOf (run b ops).triples (transCode w)) = true) :
-    updAgrees env (run b ops) full n (.modify del ins w) := by
-  obtain ⟨t, he, _, g, hp⟩ := exec_perm_eval env hv b ops full n _ hfull
-    (lexInj_of_noClash env _ hlex) (eqExact_of_B env _ heq) (fun x hx => List.mem_append_left _ hx)
-    (transCode w) hwf (fun c h => List.mem_append_right _ h)
-  rw [← eval_transStd env n _ w htr] at hp
-  have hB := backStable_of_B env _ hback
-  have hs := exec_allSel env _ full _ t he hsel
-  have hsol : ∀ μ ∈ eval env n (run b ops).triples (transStd w), ∀ w' y, μ.get w' = some y →
-      y ∈ termsOf (run b ops).triples (transCode w) := by
-    intro μ hμ w' y hy
-    exact List.mem_append_left _ ((eval_wf env n _ _ μ hμ).2 w' y hy)
-  have htp := tplStable_spec env _ htpl
-  have pd := flatMap_inst_perm env n _ hB t _ g hs _ hsol hp del (fun tp h => htp tp (List.mem_append_left _ h))
-  have pi := flatMap_inst_perm env n _ hB t _ g hs _ hsol hp ins (fun tp h => htp tp (List.mem_append_right _ h))
-  unfold updAgrees
-  simp only [execUpdate, he, Option.map_some, specUpdate]
-  rw [foldl_insert_triples, foldl_remove_triples]
-  show (List.foldl specInsert (List.foldl specRemove (run b ops).triples _) _).Perm _
-  rw [foldl_specRemove_perm _ _ _ pd]
-  exact foldl_specInsert_perm _ _ _ (nodup_foldl_specRemove _ _ (inv_run b ops).nodup) pi
+/-- OFFSET then LIMIT on a table = `sliceOpt` on its rows -/
+theorem rows_slice (off lim : Option Nat) (t : Table) :
+    (limitT lim (skipT off t)).rows = sliceOpt off lim t.rows ∧ (limitT lim (skipT off t)).cols = t.cols := by
+  constructor
+  · cases off with
+    | none =>
+      cases lim with
+      | none => rfl
+      | some k => exact rows_limitChunks k t.chunks
+    | some j =>
+      cases lim with
+      | none => exact rows_skipChunks j t.chunks
+      | some k =>
+        show (limitChunks k (skipChunks j t.chunks)).flatMap selRows = _
+        rw [rows_limitChunks, rows_skipChunks]
+        rfl
+  · cases off <;> cases lim <;> rfl
 
-theorem bgp_single (tp : TP) : bgp [tp] = .scan tp := rfl
+theorem map_sliceOpt {α β : Type} (f : α → β) (off lim : Option Nat) (l : List α) :
+    (sliceOpt off lim l).map f = sliceOpt off lim (l.map f) := by
+  cases off <;> cases lim <;> simp [sliceOpt, List.map_take, List.map_drop]
 
-/-- **DELETE WHERE { one triple pattern }** likewise (with two or more patterns the delete operators
-run one after the other, each on what the previous one left: `w_delete_where_sequential`). -/
-theorem c13_sparql_delete_where_partial (env : Env) (hv : env.vfix = true) (b : Bool) (ops : List Op)
-    (full : List Triple) (n : Nat) (tp : TP)
-    (hfull : full.Perm (run b ops).triples)
-    (hvar : hasVar tp = true)
-    (hwf : wfPat env n (.scan tp) = true)
-    (hlex : lexClash env (termsOf (run b ops).triples (.scan tp)) = false)
-    (heq : eqExactB env (termsOf (run b ops).triples (.scan tp)) = true)
-    (hback : backStableB env (termsOf (run b ops).triples (.scan tp)) = true) :
-    updAgrees env (run b ops) full n (.deleteWhere [tp]) := by
-  obtain ⟨t, he, _, g, hp⟩ := exec_perm_eval env hv b ops full n _ hfull
-    (lexInj_of_noClash env _ hlex) (eqExact_of_B env _ heq) (fun x hx => List.mem_append_left _ hx)
-    (.scan tp) hwf (fun c h => List.mem_append_right _ h)
-  have hB := backStable_of_B env _ hback
-  have hs := exec_allSel env _ full _ t he rfl
-  have hsol : ∀ μ ∈ eval env n (run b ops).triples (.scan tp), ∀ w' y, μ.get w' = some y →
-      y ∈ termsOf (run b ops).triples (.scan tp) := by
-    intro μ hμ w' y hy
-    exact List.mem_append_left _ ((eval_wf env n _ _ μ hμ).2 w' y hy)
-  have hst : ∀ c ∈ tpConsts tp, env.litNorm c = c := by
-    simp only [wfPat, Bool.and_eq_true, List.all_eq_true, beq_iff_eq] at hwf
-    exact hwf.2
-  have pd := inst_perm env n _ hB t _ g hs _ hsol hp tp hst
-  unfold updAgrees
-  simp only [execUpdate, specUpdate, bgp_single, he, Option.isSome_some, allGroundOk, List.all_cons, hvar,
-    Bool.true_or, List.all_nil, Bool.and_self, if_true, List.foldl_cons, List.foldl_nil, deleteWhereStep,
-    Option.bind_some, Option.map_some, List.flatMap_cons, List.flatMap_nil, List.append_nil]
-  rw [foldl_remove_triples]
-  show (List.foldl specRemove (run b ops).triples _).Perm _
-  rw [foldl_specRemove_perm _ _ _ pd]
+theorem mem_sliceOpt {α : Type} (off lim : Option Nat) (l : List α) (x : α) (h : x ∈ sliceOpt off lim l) : x ∈ l := by
+  cases off with
+  | none =>
+    cases lim with
+    | none => exact h
+    | some k => exact List.mem_of_mem_take h
+  | some j =>
+    cases lim with
+    | none => exact List.mem_of_mem_drop h
+    | some k => exact List.mem_of_mem_drop (List.mem_of_mem_take h)
+
+theorem sliceOpt_rest {α : Type} (off lim : Option Nat) (l : List α) :
+    ∃ rest, (sliceOpt off lim l ++ rest).Perm l := by
+  cases off with
+  | none =>
+    cases lim with
+    | none => exact ⟨[], by simp [sliceOpt]⟩
+    | some k => exact ⟨l.drop k, by simp [sliceOpt, List.take_append_drop]⟩
+  | some j =>
+    cases lim with
+    | none =>
+      refine ⟨l.take j, ?_⟩
+      simp only [sliceOpt]
+      exact List.perm_append_comm.trans (by rw [List.take_append_drop])
+    | some k =>
+      refine ⟨(l.drop j).drop k ++ l.take j, ?_⟩
+      simp only [sliceOpt]
+      rw [← List.append_assoc, List.take_append_drop]
+      exact List.perm_append_comm.trans (by rw [List.take_append_drop])
+
+theorem sliceOpt_length {α β : Type} (off lim : Option Nat) (l : List α) (l' : List β) (h : l.length = l'.length) :
+    (sliceOpt off lim l).length = (sliceOpt off lim l').length := by
+  cases off <;> cases lim <;> simp [sliceOpt, h]
 
 /-! ## ORDER BY: stable insertion sort, generically -/
 
@@ -3219,104 +3053,6 @@ theorem sorted_perm_eq {α : Type} (le : α → α → Bool) (l1 l2 : List α) (
       exact ih ys hp.cons_inv h1.2 h2.2
         (fun a ha b hb => anti a (List.mem_cons_of_mem _ ha) b (List.mem_cons_of_mem _ hb))
 
-/-! ### OFFSET / LIMIT on chunks are `drop` / `take` on rows -/
-
-theorem selRows_rebuild_noInt (env : Env) (hv : env.vfix = true) (w : Nat) (rows : List Row)
-    (h : ∀ r ∈ rows, NoInt r) : selRows (rebuild env w rows) = rows := by
-  rw [selRows_rebuild env hv, strOfCell_rows_id env rows h]
-
-theorem rows_skipChunks (env : Env) (hv : env.vfix = true) (w k : Nat) (cs : List Chunk)
-    (h : ∀ r ∈ cs.flatMap selRows, NoInt r) :
-    (skipChunks env w k cs).flatMap selRows = (cs.flatMap selRows).drop k := by
-  induction cs generalizing k with
-  | nil => cases k <;> simp [skipChunks]
-  | cons c rest ih =>
-    have hrest : ∀ r ∈ rest.flatMap selRows, NoInt r := by
-      intro r hr
-      apply h r
-      simp only [List.flatMap_cons, List.mem_append]
-      exact Or.inr hr
-    have hc : ∀ r ∈ selRows c, NoInt r := by
-      intro r hr
-      apply h r
-      simp only [List.flatMap_cons, List.mem_append]
-      exact Or.inl hr
-    cases k with
-    | zero => simp [skipChunks]
-    | succ j =>
-      simp only [skipChunks, List.flatMap_cons]
-      split
-      · rename_i hge
-        rw [ih _ hrest, List.drop_append]
-        have : (selRows c).drop (j + 1) = [] := List.drop_eq_nil_of_le hge
-        rw [this]
-        rfl
-      · rename_i hlt
-        simp only [List.flatMap_cons]
-        rw [selRows_rebuild_noInt env hv _ _ (fun r hr => hc r (List.mem_of_mem_drop hr))]
-        rw [List.drop_append_of_le_length (by omega)]
-
-theorem rows_limitChunks (env : Env) (hv : env.vfix = true) (w k : Nat) (cs : List Chunk)
-    (h : ∀ r ∈ cs.flatMap selRows, NoInt r) :
-    (limitChunks env w k cs).flatMap selRows = (cs.flatMap selRows).take k := by
-  induction cs generalizing k with
-  | nil => cases k <;> simp [limitChunks]
-  | cons c rest ih =>
-    have hrest : ∀ r ∈ rest.flatMap selRows, NoInt r := by
-      intro r hr
-      apply h r
-      simp only [List.flatMap_cons, List.mem_append]
-      exact Or.inr hr
-    have hc : ∀ r ∈ selRows c, NoInt r := by
-      intro r hr
-      apply h r
-      simp only [List.flatMap_cons, List.mem_append]
-      exact Or.inl hr
-    cases k with
-    | zero => simp [limitChunks]
-    | succ j =>
-      simp only [limitChunks, List.flatMap_cons]
-      split
-      · rename_i h0
-        have : selRows c = [] := List.eq_nil_of_length_eq_zero h0
-        rw [ih _ hrest, this]
-        rfl
-      · split
-        · rename_i hle
-          simp only [List.flatMap_cons]
-          rw [ih _ hrest, List.take_append]
-          rw [List.take_of_length_le hle]
-        · rename_i hgt
-          simp only [List.flatMap_cons, List.flatMap_nil, List.append_nil]
-          rw [selRows_rebuild_noInt env hv _ _ (fun r hr => hc r (List.mem_of_mem_take hr))]
-          rw [List.take_append_of_le_length (by omega)]
-
-theorem rows_skipT (env : Env) (hv : env.vfix = true) (k : Option Nat) (t : Table) (h : ∀ r ∈ t.rows, NoInt r) :
-    (skipT env k t).rows = (match k with | none => t.rows | some k => t.rows.drop k) := by
-  cases k with
-  | none => rfl
-  | some k => exact rows_skipChunks env hv _ k t.chunks h
-
-theorem rows_limitT (env : Env) (hv : env.vfix = true) (k : Option Nat) (t : Table) (h : ∀ r ∈ t.rows, NoInt r) :
-    (limitT env k t).rows = (match k with | none => t.rows | some k => t.rows.take k) := by
-  cases k with
-  | none => rfl
-  | some k => exact rows_limitChunks env hv _ k t.chunks h
-
-/-- OFFSET then LIMIT on a table = `sliceOpt` on its rows -/
-theorem rows_slice (env : Env) (hv : env.vfix = true) (off lim : Option Nat) (t : Table) (h : ∀ r ∈ t.rows, NoInt r) :
-    (limitT env lim (skipT env off t)).rows = sliceOpt off lim t.rows ∧
-      (limitT env lim (skipT env off t)).cols = t.cols := by
-  constructor
-  · rw [rows_limitT env hv lim _ (by
-      rw [rows_skipT env hv off t h]
-      intro r hr
-      cases off with
-      | none => exact h r hr
-      | some k => exact h r (List.mem_of_mem_drop hr)), rows_skipT env hv off t h]
-    cases off <;> cases lim <;> rfl
-  · cases off <;> cases lim <;> rfl
-
 /-! ### the comparators -/
 
 /-- the engine's key comparison on lexical forms: byte order, nulls last, then the direction -/
@@ -3429,20 +3165,14 @@ theorem cmpSol_eq (env : Env) (U : List Nat) (hO : OrderAgree env U) (keys : Lis
           ih (fun kd h => hbμ kd (List.mem_cons_of_mem _ h)) (fun kd h => hbν kd (List.mem_cons_of_mem _ h))]
         rfl
 
-theorem rows_sortT (env : Env) (hv : env.vfix = true) (keys ks : List (Nat × Bool)) (t : Table)
-    (hk : resolveKeys t.cols keys = some ks) (h : ∀ r ∈ t.rows, NoInt r) :
+theorem rows_sortT (env : Env) (keys ks : List (Nat × Bool)) (t : Table)
+    (hk : resolveKeys t.cols keys = some ks) :
     ∃ t', sortT env keys t = some t' ∧ t'.cols = t.cols ∧
       t'.rows = sortStable (fun a b => cmpRows env ks a b != .gt) t.rows := by
   let sorted := sortStable (fun a b => cmpRows env ks a b != .gt) t.rows
-  refine ⟨{ t with chunks := (chunksOf joinChunk sorted).map (rebuild env t.cols.length) }, by simp [sortT, hk, sorted], rfl, ?_⟩
-  have hall : ∀ r ∈ sorted, NoInt r := by
-    intro r hr
-    have : r ∈ t.rows := by
-      simp only [sorted, sortStable_eq] at hr
-      exact (sortG_perm _ _).mem_iff.mp hr
-    exact h r this
-  show ((chunksOf joinChunk sorted).map (rebuild env t.cols.length)).flatMap selRows = sorted
-  rw [rows_rebuild_chunks env hv _ joinChunk (by decide), strOfCell_rows_id env sorted hall]
+  refine ⟨{ t with chunks := (chunksOf joinChunk sorted).map rebuild }, by simp [sortT, hk, sorted], rfl, ?_⟩
+  show ((chunksOf joinChunk sorted).map rebuild).flatMap selRows = sorted
+  exact rows_rebuild_chunks joinChunk (by decide) sorted
 
 theorem resolveKeys_some (cols : List Nat) (keys : List (Nat × Bool)) (h : ∀ kd ∈ keys, kd.1 ∈ cols) (hnd : cols.Nodup) :
     ∃ ks, resolveKeys cols keys = some ks := by
@@ -3453,10 +3183,6 @@ theorem resolveKeys_some (cols : List Nat) (keys : List (Nat × Bool)) (h : ∀ 
     obtain ⟨ks, hks⟩ := ih (fun kd' h' => h kd' (List.mem_cons_of_mem _ h'))
     obtain ⟨i, hi⟩ := List.getElem?_of_mem (h (v, d) List.mem_cons_self)
     exact ⟨(i, d) :: ks, by simp [resolveKeys, colIdx_of_index cols v i hnd hi, hks]⟩
-
-theorem map_sliceOpt {α β : Type} (f : α → β) (off lim : Option Nat) (l : List α) :
-    (sliceOpt off lim l).map f = sliceOpt off lim (l.map f) := by
-  cases off <;> cases lim <;> simp [sliceOpt, List.map_take, List.map_drop]
 
 /-- the comparator of ORDER BY as a `≤` on solutions in lexical form -/
 def leL (env : Env) (keys : List (Nat × Bool)) (σ τ : Sol) : Bool := cmpL env keys σ τ != .gt
@@ -3508,50 +3234,49 @@ theorem sorted_rows_eq_sorted_sols (env : Env) (n : Nat) (U : List Nat) (hO : Or
     have hb'' := hp.mem_iff.mp ((sortG_perm _ _).mem_iff.mp hb')
     exact anti a ha' b hb''
 
-theorem mem_sliceOpt {α : Type} (off lim : Option Nat) (l : List α) (x : α) (h : x ∈ sliceOpt off lim l) : x ∈ l := by
-  cases off with
-  | none =>
-    cases lim with
-    | none => exact h
-    | some k => exact List.mem_of_mem_take h
-  | some j =>
-    cases lim with
-    | none => exact List.mem_of_mem_drop h
-    | some k => exact List.mem_of_mem_drop (List.mem_of_mem_take h)
+/-- a table with the same columns whose rows are rows of a good table is good -/
+theorem good_of_rows (n : Nat) (cert : List Nat) (t t1 : Table) (g : Good n cert t) (hc : t1.cols = t.cols)
+    (hr : ∀ r ∈ t1.rows, r ∈ t.rows) : Good n cert t1 :=
+  ⟨hc ▸ g.nodup, hc ▸ g.lt, fun r h => hc ▸ g.width r (hr r h), fun r h => g.noInt r (hr r h),
+   fun r h v hv => hc ▸ g.cert r (hr r h) v hv⟩
 
-/-- projection of a table, read as solutions -/
-theorem project_toSol (env : Env) (hv : env.vfix = true) (n : Nat) (vars : List Nat) (t : Table)
-    (hnd : t.cols.Nodup) (hni : ∀ r ∈ t.rows, NoInt r)
-    (hvn : vars.Nodup) (hsub : ∀ v ∈ vars, v ∈ t.cols) :
-    ∃ t', projectT env vars t = some t' ∧ t'.cols = vars ∧
-      t'.rows.map (toSol n vars) = (t.rows.map (toSol n t.cols)).map (restrict vars) := by
-  obtain ⟨idx, hres, hlen, hidx⟩ := resolveCols_some t.cols vars hsub hnd
-  obtain ⟨t', hpt, hc', hr'⟩ := rows_projectT env hv vars idx t hres
-  refine ⟨t', hpt, hc', ?_⟩
-  rw [hr']
-  have hnoInt : ∀ r ∈ (t.rows.map fun r => idx.map fun i => r.getD i Cell.null), NoInt r := by
-    intro r hr c hc k
-    obtain ⟨r0, hr0, rfl⟩ := List.mem_map.mp hr
-    obtain ⟨i, _, rfl⟩ := List.mem_map.mp hc
-    exact noInt_getD r0 i (hni r0 hr0) k
-  rw [strOfCell_rows_id env _ hnoInt, List.map_map, List.map_map]
-  apply List.map_congr_left
-  intro r _
-  simp only [Function.comp]
-  exact toSol_project n t.cols vars idx r hnd hvn hidx hlen
+/-- projection, DISTINCT, OFFSET, LIMIT of a good table, read as solutions -/
+theorem modifiers_sols (n : Nat) (cert : List Nat) (q : Select) (t1 : Table) (g : Good n cert t1)
+    (hproj : projOk n q.proj = true) :
+    let T := limitT q.limit (skipT q.offset (distinctT q.distinct (projOpt q.proj t1)))
+    T.rows.map (toSol n T.cols) =
+      sliceOpt q.offset q.limit
+        (if q.distinct then dedupG ((t1.rows.map (toSol n t1.cols)).map (projSol q.proj))
+         else (t1.rows.map (toSol n t1.cols)).map (projSol q.proj)) := by
+  intro T
+  have pf := projOpt_facts n _ q.proj _ g hproj
+  obtain ⟨hr, hc⟩ := rows_slice q.offset q.limit (distinctT q.distinct (projOpt q.proj t1))
+  show (limitT q.limit (skipT q.offset (distinctT q.distinct (projOpt q.proj t1)))).rows.map
+      (toSol n (limitT q.limit (skipT q.offset (distinctT q.distinct (projOpt q.proj t1)))).cols) = _
+  rw [hr, hc, cols_distinctT, map_sliceOpt, distinct_sols n q.distinct _ pf.nodup pf.lt pf.width pf.noInt, pf.sols]
 
-/-- **SELECT … ORDER BY … [OFFSET] [LIMIT]** with total keys: the sequence returned is the
+/-- the specification's projection, DISTINCT, OFFSET, LIMIT, in lexical forms -/
+theorem spec_modifiers_lex (env : Env) (n : Nat) (U : List Nat) (hU : LexInj env U) (q : Select) (sols : List Sol)
+    (hs : ∀ μ ∈ sols, μ.length = n ∧ ∀ w y, μ.get w = some y → y ∈ U) :
+    (sliceOpt q.offset q.limit
+        (if q.distinct then dedupSols (sols.map (projSol q.proj)) else sols.map (projSol q.proj))).map (lexSol env) =
+      sliceOpt q.offset q.limit
+        (if q.distinct then dedupG ((sols.map (lexSol env)).map (projSol q.proj))
+         else (sols.map (lexSol env)).map (projSol q.proj)) := by
+  rw [map_sliceOpt, spec_distinct_lex env n U hU q.proj q.distinct sols hs]
+
+/-- **SELECT … ORDER BY … [DISTINCT] [OFFSET] [LIMIT]** with total keys: the sequence returned is the
 specification's sequence. Hypotheses beyond those of `c13_sparql_select_partial`: every key is a
 column and bound in every solution; §15.1 and byte order agree on the terms involved
 (`orderAgreeB`); the comparator is a total preorder on the solutions (`OrdOn`: true when `strLt`
 is an order) that separates different solutions (total keys). -/
-theorem c13_sparql_order_partial (env : Env) (hv : env.vfix = true) (b : Bool) (ops : List Op)
+theorem c13_sparql_order_partial (env : Env) (b : Bool) (ops : List Op)
     (full : List Triple) (n : Nat) (q : Select)
     (hfull : full.Perm (run b ops).triples)
-    (hd : q.distinct = false) (hord : q.order.isEmpty = false)
-    (htr : transAgree q.where_ = true)
+    (hord : q.order.isEmpty = false)
+    (hs : scopeOk n (simpUnit (transStd q.where_)) = true)
     (hwf : wfPat env n (transCode q.where_) = true)
-    (hproj : projOk (patCols (transCode q.where_)) q.proj = true)
+    (hproj : projOk n q.proj = true)
     (hkc : ∀ kd ∈ q.order, kd.1 ∈ certain (transCode q.where_))
     (hkcols : ∀ kd ∈ q.order, kd.1 ∈ patCols (transCode q.where_))
     (hlex : lexClash env (termsOf (run b ops).triples (transCode q.where_)) = false)
@@ -3562,141 +3287,90 @@ theorem c13_sparql_order_partial (env : Env) (hv : env.vfix = true) (b : Bool) (
       ∀ τ ∈ (eval env n (run b ops).triples (transStd q.where_)).map (lexSol env),
       leL env q.order σ τ = true → leL env q.order τ σ = true → σ = τ) :
     selAgreesOrdered env (run b ops) full n q := by
-  obtain ⟨t, he, hcols, g, hp⟩ := exec_perm_eval env hv b ops full n _ hfull
-    (lexInj_of_noClash env _ hlex) (eqExact_of_B env _ heq) (fun x hx => List.mem_append_left _ hx)
-    (transCode q.where_) hwf (fun c h => List.mem_append_right _ h)
-  rw [← eval_transStd env n _ q.where_ htr] at hp
-  have hsol : ∀ μ ∈ eval env n (run b ops).triples (transStd q.where_), ∀ w' y, μ.get w' = some y →
+  have hU := lexInj_of_noClash env _ hlex
+  obtain ⟨hcols, g, hp⟩ := exec_perm_eval env b ops full n _ hfull hU (eqExact_of_B env _ heq)
+    (fun x hx => List.mem_append_left _ hx) (transCode q.where_) hwf (fun c h => List.mem_append_right _ h)
+  rw [eval_transCode env n _ q.where_ hs] at hp
+  have hsol : ∀ μ ∈ eval env n (run b ops).triples (transStd q.where_), μ.length = n ∧ ∀ w y, μ.get w = some y →
       y ∈ termsOf (run b ops).triples (transCode q.where_) := by
-    intro μ hμ w' y hy
-    exact List.mem_append_left _ ((eval_wf env n _ _ μ hμ).2 w' y hy)
-  obtain ⟨ks, hks⟩ := resolveKeys_some t.cols q.order (fun kd h => hcols ▸ hkcols kd h) g.nodup
-  obtain ⟨t1, hs1, hc1, hr1⟩ := rows_sortT env hv q.order ks t hks g.noInt
-  have hseq := sorted_rows_eq_sorted_sols env n _ (orderAgree_of_B env _ hoa) q.order ks t _ g _ hks hkc
-    (fun kd h => hcols ▸ hkcols kd h) hsol hp ordOk total
-  have hni1 : ∀ r ∈ t1.rows, NoInt r := by
+    intro μ hμ
+    exact ⟨(eval_wf env n _ _ μ hμ).1, fun w y hy => List.mem_append_left _ ((eval_wf env n _ _ μ hμ).2 w y hy)⟩
+  obtain ⟨ks, hks⟩ := resolveKeys_some (exec env (run b ops) full (transCode q.where_)).cols q.order
+    (fun kd h => hcols ▸ hkcols kd h) g.nodup
+  obtain ⟨t1, hs1, hc1, hr1⟩ := rows_sortT env q.order ks _ hks
+  have hseq := sorted_rows_eq_sorted_sols env n _ (orderAgree_of_B env _ hoa) q.order ks _ _ g _ hks hkc
+    (fun kd h => hcols ▸ hkcols kd h) (fun μ hμ => (hsol μ hμ).2) hp ordOk total
+  have g1 : Good n (certain (transCode q.where_)) t1 := by
+    apply good_of_rows n _ _ t1 g hc1
     intro r hr
     rw [hr1, sortStable_eq] at hr
-    exact g.noInt r ((sortG_perm _ _).mem_iff.mp hr)
-  obtain ⟨hr2, hc2⟩ := rows_slice env hv q.offset q.limit t1 hni1
-  have hni2 : ∀ r ∈ (limitT env q.limit (skipT env q.offset t1)).rows, NoInt r := by
-    intro r hr
-    rw [hr2] at hr
-    exact hni1 r (mem_sliceOpt _ _ _ r hr)
+    exact (sortG_perm _ _).mem_iff.mp hr
+  have hmod := modifiers_sols n _ q t1 g1 hproj
+  have hsorted : ∀ μ ∈ sortSols (fun a b => cmpSol env q.order a b != .gt)
+      (eval env n (run b ops).triples (transStd q.where_)), μ.length = n ∧ ∀ w y, μ.get w = some y →
+      y ∈ termsOf (run b ops).triples (transCode q.where_) := by
+    intro μ hμ
+    rw [sortSols_eq] at hμ
+    exact hsol μ ((sortG_perm _ _).mem_iff.mp hμ)
+  have hspec := spec_modifiers_lex env n _ hU q _ hsorted
   unfold selAgreesOrdered
-  simp only [execSelect, he, Option.bind_some, orderT, hord, Bool.false_eq_true, if_false, hs1, specSelect, hd]
-  cases hq : q.proj with
-  | none =>
-    simp only [hr2, hc2, hc1]
-    rw [map_sliceOpt, hr1, hseq, map_sliceOpt]
-  | some vars =>
-    rw [hq] at hproj
-    simp only [projOk, Bool.and_eq_true, Bool.not_eq_true', decide_eq_true_eq, List.all_eq_true,
-      List.contains_iff_mem] at hproj
-    obtain ⟨⟨hne, hvn⟩, hsub⟩ := hproj
-    obtain ⟨t', hpt, hc', hr'⟩ := project_toSol env hv n vars (limitT env q.limit (skipT env q.offset t1))
-      (by rw [hc2, hc1]; exact g.nodup) hni2 hvn (by rw [hc2, hc1, hcols]; exact hsub)
-    cases vars with
-    | nil => simp at hne
-    | cons x xs =>
-      simp only [hpt]
-      rw [hc', hr', hr2, hc2, hc1, map_sliceOpt, hr1, hseq, map_sliceOpt, map_sliceOpt]
-      congr 1
-      rw [List.map_map, List.map_map]
-      apply List.map_congr_left
-      intro μ _
-      simp only [Function.comp]
-      exact restrict_lexSol env (x :: xs) μ
+  simp only [execSelect, orderT, hord, Bool.false_eq_true, if_false, hs1, Option.map_some, specSelect]
+  rw [hmod, hspec, hc1, hr1, hseq]
 
-/-! ## OFFSET / LIMIT without ORDER BY: any sub-multiset of the right size is a right answer -/
-
-theorem sliceOpt_rest {α : Type} (off lim : Option Nat) (l : List α) :
-    ∃ rest, (sliceOpt off lim l ++ rest).Perm l := by
-  cases off with
-  | none =>
-    cases lim with
-    | none => exact ⟨[], by simp [sliceOpt]⟩
-    | some k => exact ⟨l.drop k, by simp [sliceOpt, List.take_append_drop]⟩
-  | some j =>
-    cases lim with
-    | none =>
-      refine ⟨l.take j, ?_⟩
-      simp only [sliceOpt]
-      exact List.perm_append_comm.trans (by rw [List.take_append_drop])
-    | some k =>
-      refine ⟨(l.drop j).drop k ++ l.take j, ?_⟩
-      simp only [sliceOpt]
-      rw [← List.append_assoc, List.take_append_drop]
-      exact List.perm_append_comm.trans (by rw [List.take_append_drop])
-
-theorem sliceOpt_length {α β : Type} (off lim : Option Nat) (l : List α) (l' : List β) (h : l.length = l'.length) :
-    (sliceOpt off lim l).length = (sliceOpt off lim l').length := by
-  cases off <;> cases lim <;> simp [sliceOpt, h]
-
-/-- **SELECT … [OFFSET] [LIMIT] without ORDER BY**: the engine returns as many rows as the
+/-- **SELECT [DISTINCT] … [OFFSET] [LIMIT] without ORDER BY**: the engine returns as many rows as the
 specification, and they are a sub-multiset of the unsliced answer. -/
-theorem c13_sparql_slice_partial (env : Env) (hv : env.vfix = true) (b : Bool) (ops : List Op)
+theorem c13_sparql_slice_partial (env : Env) (b : Bool) (ops : List Op)
     (full : List Triple) (n : Nat) (q : Select)
     (hfull : full.Perm (run b ops).triples)
-    (hd : q.distinct = false) (ho : q.order = [])
-    (htr : transAgree q.where_ = true)
+    (ho : q.order = [])
+    (hs : scopeOk n (simpUnit (transStd q.where_)) = true)
     (hwf : wfPat env n (transCode q.where_) = true)
-    (hproj : projOk (patCols (transCode q.where_)) q.proj = true)
+    (hproj : projOk n q.proj = true)
     (hlex : lexClash env (termsOf (run b ops).triples (transCode q.where_)) = false)
     (heq : eqExactB env (termsOf (run b ops).triples (transCode q.where_)) = true) :
     ∃ t, execSelect env (run b ops) full q = some t ∧
       t.rows.length = (specSelect env n (run b ops).triples q).length ∧
       ∃ rest, (t.rows.map (toSol n t.cols) ++ rest).Perm
         ((specSelect env n (run b ops).triples { q with offset := none, limit := none }).map (lexSol env)) := by
-  obtain ⟨t, he, hcols, g, hp⟩ := exec_perm_eval env hv b ops full n _ hfull
-    (lexInj_of_noClash env _ hlex) (eqExact_of_B env _ heq) (fun x hx => List.mem_append_left _ hx)
-    (transCode q.where_) hwf (fun c h => List.mem_append_right _ h)
-  rw [← eval_transStd env n _ q.where_ htr] at hp
-  obtain ⟨hr2, hc2⟩ := rows_slice env hv q.offset q.limit t g.noInt
-  have hni2 : ∀ r ∈ (limitT env q.limit (skipT env q.offset t)).rows, NoInt r := by
-    intro r hr
-    rw [hr2] at hr
-    exact g.noInt r (mem_sliceOpt _ _ _ r hr)
-  obtain ⟨rest, hrest⟩ := sliceOpt_rest q.offset q.limit t.rows
-  have hlen : t.rows.length = (eval env n (run b ops).triples (transStd q.where_)).length := by
-    have := hp.length_eq
-    simpa using this
-  simp only [execSelect, he, Option.bind_some, ho, orderT, List.isEmpty_nil, if_true, specSelect, hd,
-    Bool.false_eq_true, if_false, sliceOpt]
-  cases hq : q.proj with
-  | none =>
-    refine ⟨_, rfl, ?_, rest.map (toSol n t.cols), ?_⟩
-    · rw [hr2]
-      exact sliceOpt_length _ _ _ _ hlen
-    · rw [hr2, hc2, ← List.map_append]
-      exact (hrest.map _).trans hp
-  | some vars =>
-    rw [hq] at hproj
-    simp only [projOk, Bool.and_eq_true, Bool.not_eq_true', decide_eq_true_eq, List.all_eq_true,
-      List.contains_iff_mem] at hproj
-    obtain ⟨⟨hne, hvn⟩, hsub⟩ := hproj
-    obtain ⟨t', hpt, hc', hr'⟩ := project_toSol env hv n vars (limitT env q.limit (skipT env q.offset t))
-      (by rw [hc2]; exact g.nodup) hni2 hvn (by rw [hc2, hcols]; exact hsub)
-    cases vars with
-    | nil => simp at hne
-    | cons x xs =>
-      refine ⟨t', hpt, ?_, (rest.map (toSol n t.cols)).map (restrict (x :: xs)), ?_⟩
-      · have h1 : t'.rows.length = (limitT env q.limit (skipT env q.offset t)).rows.length := by
-          have := congrArg List.length hr'
-          simpa using this
-        rw [h1, hr2]
-        have := sliceOpt_length q.offset q.limit t.rows
-          ((eval env n (run b ops).triples (transStd q.where_)).map (restrict (x :: xs))) (by simpa using hlen)
-        exact this
-      · rw [hc', hr', hr2, hc2, ← List.map_append, ← List.map_append]
-        have h2 : ((eval env n (run b ops).triples (transStd q.where_)).map (restrict (x :: xs))).map (lexSol env) =
-            ((eval env n (run b ops).triples (transStd q.where_)).map (lexSol env)).map (restrict (x :: xs)) := by
-          rw [List.map_map, List.map_map]
-          apply List.map_congr_left
-          intro μ _
-          exact (restrict_lexSol env (x :: xs) μ).symm
-        rw [h2]
-        exact ((hrest.map _).trans hp).map _
+  have hU := lexInj_of_noClash env _ hlex
+  obtain ⟨_, g, hp⟩ := exec_perm_eval env b ops full n _ hfull hU (eqExact_of_B env _ heq)
+    (fun x hx => List.mem_append_left _ hx) (transCode q.where_) hwf (fun c h => List.mem_append_right _ h)
+  rw [eval_transCode env n _ q.where_ hs] at hp
+  have hsol : ∀ μ ∈ eval env n (run b ops).triples (transStd q.where_), μ.length = n ∧ ∀ w y, μ.get w = some y →
+      y ∈ termsOf (run b ops).triples (transCode q.where_) := by
+    intro μ hμ
+    exact ⟨(eval_wf env n _ _ μ hμ).1, fun w y hy => List.mem_append_left _ ((eval_wf env n _ _ μ hμ).2 w y hy)⟩
+  have hmod := modifiers_sols n _ q _ g hproj
+  have hspec := spec_modifiers_lex env n _ hU q _ hsol
+  have hspec0 := spec_modifiers_lex env n _ hU { q with offset := none, limit := none } _ hsol
+  -- the two unsliced answers are permutations of one another
+  have hperm : (if q.distinct then dedupG (((exec env (run b ops) full (transCode q.where_)).rows.map
+        (toSol n (exec env (run b ops) full (transCode q.where_)).cols)).map (projSol q.proj))
+      else ((exec env (run b ops) full (transCode q.where_)).rows.map
+        (toSol n (exec env (run b ops) full (transCode q.where_)).cols)).map (projSol q.proj)).Perm
+      (if q.distinct then dedupG (((eval env n (run b ops).triples (transStd q.where_)).map (lexSol env)).map (projSol q.proj))
+      else ((eval env n (run b ops).triples (transStd q.where_)).map (lexSol env)).map (projSol q.proj)) := by
+    cases q.distinct
+    · exact hp.map _
+    · simp only [if_true]
+      exact dedupG_perm _ _ (hp.map _)
+  refine ⟨_, by simp only [execSelect, ho, orderT, List.isEmpty_nil, if_true, Option.map_some]; rfl, ?_, ?_⟩
+  · have h1 := congrArg List.length hmod
+    have h2 := congrArg List.length hspec
+    simp only [List.length_map] at h1 h2
+    simp only [specSelect, ho, List.isEmpty_nil, if_true] at h2 ⊢
+    rw [h1, h2]
+    exact sliceOpt_length _ _ _ _ hperm.length_eq
+  · obtain ⟨rest, hrest⟩ := sliceOpt_rest q.offset q.limit (if q.distinct then dedupG
+        (((exec env (run b ops) full (transCode q.where_)).rows.map
+          (toSol n (exec env (run b ops) full (transCode q.where_)).cols)).map (projSol q.proj))
+      else ((exec env (run b ops) full (transCode q.where_)).rows.map
+        (toSol n (exec env (run b ops) full (transCode q.where_)).cols)).map (projSol q.proj))
+    refine ⟨rest, ?_⟩
+    rw [hmod]
+    simp only [specSelect, ho, List.isEmpty_nil, if_true, sliceOpt] at hspec0 ⊢
+    rw [hspec0]
+    exact hrest.trans hperm
 
 /-! ## COUNT without GROUP BY -/
 
@@ -3723,82 +3397,787 @@ theorem certain_subset_cols (p : Pat) : ∀ v ∈ certain p, v ∈ patCols p := 
   | union a b iha _ =>
     intro v h
     simp only [certain, List.mem_filter] at h
-    exact iha v h.1
+    simp only [patCols, unionCols, List.mem_append]
+    exact Or.inl (iha v h.1)
   | filter e a iha => exact iha
 
-theorem filterMap_get_length (sols : List Sol) (v : Nat) (h : ∀ μ ∈ sols, (μ.get v).isSome = true) :
-    (sols.filterMap fun μ => μ.get v).length = sols.length := by
+theorem count_nonnull_eq (n : Nat) (cols : List Nat) (rows : List Row) (v i : Nat) (hnd : cols.Nodup)
+    (hi : cols[i]? = some v) (hvn : v < n) (hni : ∀ r ∈ rows, NoInt r) :
+    ((rows.map fun r => r.getD i Cell.null).filter (· != Cell.null)).length =
+      ((rows.map (toSol n cols)).filterMap fun σ => σ.get v).length := by
+  induction rows with
+  | nil => rfl
+  | cons r rest ih =>
+    have ih' := ih (fun r' h => hni r' (List.mem_cons_of_mem _ h))
+    have hc := cellVal_getD cols r v i n hnd hi hvn
+    have hn := noInt_getD r i (hni r List.mem_cons_self)
+    rw [List.map_cons, List.map_cons, List.filter_cons, List.filterMap_cons, ← hc]
+    cases hx : r.getD i Cell.null with
+    | null =>
+      simp only [cellVal, bne_self_eq_false, Bool.false_eq_true, if_false]
+      exact ih'
+    | str l =>
+      have : (Cell.str l != Cell.null) = true := bne_iff_ne.mpr (by intro h; cases h)
+      simp only [cellVal, this, if_true, List.length_cons]
+      rw [ih']
+    | int k => exact absurd hx (hn k)
+
+theorem filterMap_get_lex (env : Env) (sols : List Sol) (v : Nat) :
+    ((sols.map (lexSol env)).filterMap fun σ => σ.get v).length = (sols.filterMap fun μ => μ.get v).length := by
   induction sols with
   | nil => rfl
   | cons μ rest ih =>
-    have hμ := h μ List.mem_cons_self
-    simp only [List.filterMap_cons]
-    cases hx : μ.get v with
-    | none => rw [hx] at hμ; cases hμ
+    rw [List.map_cons, List.filterMap_cons, List.filterMap_cons, lexSol_get]
+    cases μ.get v with
+    | none => exact ih
     | some x =>
-      simp only [List.length_cons]
-      rw [ih (fun μ' h' => h μ' (List.mem_cons_of_mem _ h'))]
+      simp only [Option.map_some, List.length_cons]
+      rw [ih]
 
-/-- **SELECT (COUNT(\*) AS ?c)** and **COUNT(?x)** for an `?x` that is bound in every solution, without
-GROUP BY / ORDER BY / slicing: the number is the specification's. -/
-theorem c13_sparql_count_partial (env : Env) (hv : env.vfix = true) (b : Bool) (ops : List Op)
+/-- **SELECT (COUNT(\*) AS ?c)** and **SELECT (COUNT(?x) AS ?c)** without GROUP BY / ORDER BY / slicing:
+the number is the specification's. -/
+theorem c13_sparql_count_partial (env : Env) (b : Bool) (ops : List Op)
     (full : List Triple) (n : Nat) (q : Count)
     (hfull : full.Perm (run b ops).triples)
     (hd : q.distinct = false) (hg : q.groupBy = []) (ho : q.order = []) (hoff : q.offset = none) (hlim : q.limit = none)
-    (harg : ∀ x, q.arg = some x → x ∈ certain (transCode q.where_))
-    (htr : transAgree q.where_ = true)
+    (harg : ∀ x, q.arg = some x → x ∈ patCols (transCode q.where_))
+    (hs : scopeOk n (simpUnit (transStd q.where_)) = true)
     (hwf : wfPat env n (transCode q.where_) = true)
     (hlex : lexClash env (termsOf (run b ops).triples (transCode q.where_)) = false)
     (heq : eqExactB env (termsOf (run b ops).triples (transCode q.where_)) = true) :
     cntAgrees env (run b ops) full n q := by
-  obtain ⟨t, he, hcols, g, hp⟩ := exec_perm_eval env hv b ops full n _ hfull
+  obtain ⟨hcols, g, hp⟩ := exec_perm_eval env b ops full n _ hfull
     (lexInj_of_noClash env _ hlex) (eqExact_of_B env _ heq) (fun x hx => List.mem_append_left _ hx)
     (transCode q.where_) hwf (fun c h => List.mem_append_right _ h)
-  rw [← eval_transStd env n _ q.where_ htr] at hp
-  have hlen : t.rows.length = (eval env n (run b ops).triples (transStd q.where_)).length := by
-    have := hp.length_eq
-    simpa using this
-  -- the specification counts every solution
-  have hspec : specCountOf q (eval env n (run b ops).triples (transStd q.where_)) = t.rows.length := by
-    unfold specCountOf
-    cases ha : q.arg with
-    | none => exact hlen.symm
-    | some x =>
-      simp only [hd, Bool.false_eq_true, if_false]
-      rw [filterMap_get_length _ x, hlen]
-      intro μ hμ
-      have hxc := harg x ha
-      have hxcol : x ∈ t.cols := hcols ▸ certain_subset_cols _ x hxc
-      have hm : lexSol env μ ∈ t.rows.map (toSol n t.cols) := hp.mem_iff.mpr (List.mem_map_of_mem hμ)
-      obtain ⟨r, hr, hrμ⟩ := List.mem_map.mp hm
-      have h1 := g.cert r hr x hxc
-      have h2 : (lexSol env μ).get x = lookupCol t.cols r x := by
-        rw [← hrμ, toSol_get _ _ _ _ (g.lt _ hxcol)]
-      rw [lexSol_get] at h2
-      rw [← h2] at h1
-      cases hx : μ.get x with
-      | none => rw [hx] at h1; cases h1
-      | some y => rfl
-  -- the engine counts every row
-  have hagg : ∃ ai, aggregateT env q t = some { cols := [q.alias], chunks := [allSel [[Cell.int (countOf false ai t.rows)]]] } := by
-    cases ha : q.arg with
-    | none => exact ⟨none, by simp [aggregateT, hg, resolveCols, ha, hd]⟩
-    | some x =>
-      have hxcol : x ∈ t.cols := hcols ▸ certain_subset_cols _ x (harg x ha)
-      obtain ⟨i, hi⟩ := List.getElem?_of_mem hxcol
-      exact ⟨some i, by simp [aggregateT, hg, resolveCols, ha, hd, colIdx_of_index t.cols x i g.nodup hi]⟩
-  obtain ⟨ai, hagg⟩ := hagg
+  rw [eval_transCode env n _ q.where_ hs] at hp
   unfold cntAgrees
-  simp only [execCount, he, Option.bind_some, hagg, ho, orderT, List.isEmpty_nil, if_true, Option.map_some, hoff, hlim,
-    skipT, limitT, specCount, specCountRows, hg, sliceOpt, List.nil_append, true_and]
-  simp only [Table.rows, List.flatMap_cons, List.flatMap_nil, List.append_nil, selRows_allSel, List.map_cons,
-    List.map_nil, countRowCells, hspec, countOf, Bool.false_eq_true, if_false, List.nil_append]
-  exact List.Perm.refl _
+  cases ha : q.arg with
+  | none =>
+    have hlen : (exec env (run b ops) full (transCode q.where_)).rows.length =
+        (eval env n (run b ops).triples (transStd q.where_)).length := by
+      simpa using hp.length_eq
+    simp only [execCount, aggregateT, hg, resolveCols, ha, argIndex, Option.bind_some, Option.map_some,
+      List.isEmpty_nil, if_true, ho, orderT, hoff, hlim, skipT, limitT, specCount, specCountRows, sliceOpt,
+      List.nil_append, true_and, specCountOf, countOf, hd, Bool.false_eq_true, if_false]
+    simp only [Table.rows, List.flatMap_cons, List.flatMap_nil, List.append_nil, selRows_allSel, List.map_cons,
+      List.map_nil, countRowCells, List.nil_append]
+    rw [show (List.flatMap selRows (exec env (run b ops) full (transCode q.where_)).chunks) =
+      (exec env (run b ops) full (transCode q.where_)).rows from rfl, hlen]
+  | some x =>
+    have hxcol : x ∈ (exec env (run b ops) full (transCode q.where_)).cols := hcols ▸ harg x ha
+    obtain ⟨i, hi⟩ := List.getElem?_of_mem hxcol
+    have hcount := count_nonnull_eq n _ (exec env (run b ops) full (transCode q.where_)).rows x i g.nodup hi
+      (g.lt x hxcol) g.noInt
+    have hperm := (hp.filterMap fun σ => σ.get x).length_eq
+    rw [filterMap_get_lex] at hperm
+    simp only [execCount, aggregateT, hg, resolveCols, ha, argIndex, colIdx_of_index _ x i g.nodup hi,
+      Option.bind_some, Option.map_some, List.isEmpty_nil, if_true, ho, orderT, hoff, hlim, skipT, limitT,
+      specCount, specCountRows, sliceOpt, List.nil_append, true_and, specCountOf, countOf, hd, Bool.false_eq_true,
+      if_false]
+    simp only [Table.rows, List.flatMap_cons, List.flatMap_nil, List.append_nil, selRows_allSel, List.map_cons,
+      List.map_nil, countRowCells, List.nil_append]
+    rw [show (List.flatMap selRows (exec env (run b ops) full (transCode q.where_)).chunks) =
+      (exec env (run b ops) full (transCode q.where_)).rows from rfl, hcount, hperm]
 
-/-! ## the partial theorems are not vacuous
+/-! ## updates -/
 
-A store reached by inserts and a removal, scanned in an order that is not the insertion order,
-IRIs only: `a p b, b p n13, a p n13, n13 p a, b n14 a`. -/
+theorem filter_ne_of_not_mem (l : List Triple) (t : Triple) (h : t ∉ l) : l.filter (· != t) = l := by
+  rw [List.filter_eq_self]
+  intro a ha
+  simp only [bne_iff_ne, ne_eq]
+  exact fun hat => h (hat ▸ ha)
+
+theorem ustate_insert_triples (u : UState) (t : Triple) :
+    (u.insert t).st.triples = specInsert u.st.triples t := by
+  unfold UState.insert specInsert
+  split
+  · rfl
+  · rename_i h
+    simp [Store.insert, h]
+
+theorem ustate_remove_triples (u : UState) (t : Triple) :
+    (u.remove t).st.triples = specRemove u.st.triples t := by
+  unfold UState.remove specRemove Store.remove
+  simp only
+  split
+  · rename_i h
+    exact (filter_ne_of_not_mem _ t h).symm
+  · rfl
+
+theorem foldl_insert_triples (u : UState) (ts : List Triple) :
+    (ts.foldl UState.insert u).st.triples = ts.foldl specInsert u.st.triples := by
+  induction ts generalizing u with
+  | nil => rfl
+  | cons t rest ih => simp only [List.foldl_cons, ih, ustate_insert_triples]
+
+theorem foldl_remove_triples (u : UState) (ts : List Triple) :
+    (ts.foldl UState.remove u).st.triples = ts.foldl specRemove u.st.triples := by
+  induction ts generalizing u with
+  | nil => rfl
+  | cons t rest ih => simp only [List.foldl_cons, ih, ustate_remove_triples]
+
+/-- the constants of ground data survive `literal_to_value` -/
+def dataStable (env : Env) (ts : List Triple) : Bool :=
+  ts.all fun t => env.litNorm t.s == t.s && env.litNorm t.p == t.p && env.litNorm t.o == t.o
+
+theorem norm_id (env : Env) (ts : List Triple) (h : dataStable env ts = true) :
+    ∀ t ∈ ts, (⟨env.litNorm t.s, env.litNorm t.p, env.litNorm t.o⟩ : Triple) = t := by
+  intro t ht
+  simp only [dataStable, List.all_eq_true, Bool.and_eq_true, beq_iff_eq] at h
+  obtain ⟨⟨h1, h2⟩, h3⟩ := h t ht
+  rw [h1, h2, h3]
+
+theorem foldl_congr_mem {α β : Type} (l : List α) (f g : β → α → β) (b : β)
+    (h : ∀ a ∈ l, ∀ x, f x a = g x a) : l.foldl f b = l.foldl g b := by
+  induction l generalizing b with
+  | nil => rfl
+  | cons a rest ih =>
+    simp only [List.foldl_cons]
+    rw [h a List.mem_cons_self b]
+    exact ih _ (fun a' ha' => h a' (List.mem_cons_of_mem _ ha'))
+
+theorem all_congr_mem {α : Type} (l : List α) (f g : α → Bool) (h : ∀ a ∈ l, f a = g a) : l.all f = l.all g := by
+  induction l with
+  | nil => rfl
+  | cons a rest ih =>
+    simp only [List.all_cons]
+    rw [h a List.mem_cons_self, ih (fun a' ha' => h a' (List.mem_cons_of_mem _ ha'))]
+
+/-- **INSERT DATA** changes the set exactly as the specification says (constants that survive
+`literal_to_value`). -/
+theorem c13_sparql_insert_data_partial (env : Env) (st : Store) (full : List Triple) (n : Nat) (ts : List Triple)
+    (hst : dataStable env ts = true) : updAgrees env st full n (.insertData ts) := by
+  have hn := norm_id env ts hst
+  have hw : (ts.all fun t => wellFormed env (env.litNorm t.s) (env.litNorm t.p)) = ts.all fun t => wellFormed env t.s t.p := by
+    apply all_congr_mem
+    intro t ht
+    have h1 := congrArg Triple.s (hn t ht)
+    have h2 := congrArg Triple.p (hn t ht)
+    simp only at h1 h2
+    rw [h1, h2]
+  unfold updAgrees
+  simp only [execUpdate, specUpdate, hw]
+  by_cases hwf : (ts.all fun t => wellFormed env t.s t.p) = true
+  · simp only [hwf, if_true]
+    rw [foldl_congr_mem ts _ UState.insert _ (fun t ht x => by rw [hn t ht]), foldl_insert_triples]
+  · rw [if_neg hwf, if_neg hwf]
+    trivial
+
+/-- **DELETE DATA** likewise. -/
+theorem c13_sparql_delete_data_partial (env : Env) (st : Store) (full : List Triple) (n : Nat) (ts : List Triple)
+    (hst : dataStable env ts = true) : updAgrees env st full n (.deleteData ts) := by
+  have hn := norm_id env ts hst
+  have hw : (ts.all fun t => wellFormed env (env.litNorm t.s) (env.litNorm t.p)) = ts.all fun t => wellFormed env t.s t.p := by
+    apply all_congr_mem
+    intro t ht
+    have h1 := congrArg Triple.s (hn t ht)
+    have h2 := congrArg Triple.p (hn t ht)
+    simp only at h1 h2
+    rw [h1, h2]
+  unfold updAgrees
+  simp only [execUpdate, specUpdate, hw]
+  by_cases hwf : (ts.all fun t => wellFormed env t.s t.p) = true
+  · simp only [hwf, if_true]
+    rw [foldl_congr_mem ts _ UState.remove _ (fun t ht x => by rw [hn t ht]), foldl_remove_triples]
+  · rw [if_neg hwf, if_neg hwf]
+    trivial
+
+/-! ### DELETE / INSERT … WHERE -/
+
+def resL (env : Env) (σ : Sol) : PT → Option Nat
+  | .const c => some (env.litNorm c)
+  | .var v => (σ.get v).map env.back
+
+/-- instantiation of a template from a solution given in lexical forms (what the update operators do) -/
+def instL (env : Env) (σ : Sol) (tp : TP) : Option Triple :=
+  (resL env σ tp.s).bind fun s => (resL env σ tp.p).bind fun p => (resL env σ tp.o).bind fun o =>
+    if wellFormed env s p then some ⟨s, p, o⟩ else none
+
+theorem resolvePT_eq (env : Env) (n : Nat) (cols : List Nat) (row : Row) (hnd : cols.Nodup)
+    (hlt : ∀ v ∈ cols, v < n) (hni : NoInt row) (a : PT) :
+    resolvePT env cols row a = resL env (toSol n cols row) a := by
+  cases a with
+  | const c => rfl
+  | var v =>
+    simp only [resolvePT, resL]
+    by_cases hv : v ∈ cols
+    · obtain ⟨i, hi⟩ := List.getElem?_of_mem hv
+      rw [colIdx_of_index cols v i hnd hi, toSol_get _ _ _ _ (hlt v hv), lookupCol_eq,
+        lookupCell_of_index cols row v i hnd hi]
+      simp only [Option.bind_some]
+      cases hc : row[i]? with
+      | none => rfl
+      | some x =>
+        cases x with
+        | null => rfl
+        | str l => rfl
+        | int k => exact absurd rfl (hni (Cell.int k) (List.mem_of_getElem? hc) k)
+    · rw [colIdx_none cols v hv]
+      by_cases hvn : v < n
+      · rw [toSol_get _ _ _ _ hvn, lookupCol_none_of_not_mem cols row v hv]; rfl
+      · have : (toSol n cols row).get v = none := by simp [Sol.get, toSol, hvn]
+        rw [this]; rfl
+
+theorem instantiate_eq (env : Env) (n : Nat) (cols : List Nat) (row : Row) (hnd : cols.Nodup)
+    (hlt : ∀ v ∈ cols, v < n) (hni : NoInt row) (tp : TP) :
+    instantiate env cols row tp = instL env (toSol n cols row) tp := by
+  simp only [instantiate, instL, resolvePT_eq env n cols row hnd hlt hni]
+
+/-- `value_to_term` gives back the term a lexical form came from -/
+def BackStable (env : Env) (U : List Nat) : Prop := ∀ x ∈ U, env.back (env.lex x) = x
+
+def backStableB (env : Env) (U : List Nat) : Bool := U.all fun x => env.back (env.lex x) == x
+
+theorem backStable_of_B (env : Env) (U : List Nat) (h : backStableB env U = true) : BackStable env U := by
+  intro x hx
+  simp only [backStableB, List.all_eq_true, beq_iff_eq] at h
+  exact h x hx
+
+theorem specInst_eq (env : Env) (U : List Nat) (hB : BackStable env U) (μ : Sol)
+    (hμ : ∀ w y, μ.get w = some y → y ∈ U) (tp : TP) (hc : ∀ c ∈ tpConsts tp, env.litNorm c = c) :
+    specInst env μ tp = instL env (lexSol env μ) tp := by
+  have key : ∀ a : PT, (∀ c ∈ ptConsts a, env.litNorm c = c) → valOf μ a = resL env (lexSol env μ) a := by
+    intro a ha
+    cases a with
+    | const c => simp [valOf, resL, ha c (by simp [ptConsts])]
+    | var v =>
+      simp only [valOf, resL, lexSol_get]
+      cases hx : μ.get v with
+      | none => rfl
+      | some x => simp [hB x (hμ v x hx)]
+  simp only [specInst, instL]
+  rw [key tp.s (fun c h => hc c (by simp [tpConsts, h])), key tp.p (fun c h => hc c (by simp [tpConsts, h])),
+    key tp.o (fun c h => hc c (by simp [tpConsts, h]))]
+
+theorem foldl_specRemove_eq (G L : List Triple) :
+    L.foldl specRemove G = G.filter (fun t => !L.contains t) := by
+  induction L generalizing G with
+  | nil =>
+    simp only [List.foldl_nil, List.contains_nil, Bool.not_false]
+    exact (List.filter_eq_self.mpr (fun _ _ => rfl)).symm
+  | cons x rest ih =>
+    simp only [List.foldl_cons, ih, specRemove, List.filter_filter]
+    apply List.filter_congr
+    intro t _
+    simp only [List.contains_cons, Bool.not_or, bne, Bool.and_comm]
+
+theorem foldl_specRemove_perm (G L L' : List Triple) (h : L.Perm L') :
+    L.foldl specRemove G = L'.foldl specRemove G := by
+  rw [foldl_specRemove_eq, foldl_specRemove_eq]
+  apply List.filter_congr
+  intro t _
+  have : L.contains t = L'.contains t := by
+    cases hc : L'.contains t
+    · cases hc' : L.contains t
+      · rfl
+      · rw [List.contains_iff_mem] at hc'
+        have := List.contains_iff_mem.mpr (h.mem_iff.mp hc')
+        rw [hc] at this; cases this
+    · rw [List.contains_iff_mem] at hc ⊢
+      exact h.mem_iff.mpr hc
+  rw [this]
+
+theorem mem_foldl_specInsert (G L : List Triple) (x : Triple) :
+    x ∈ L.foldl specInsert G ↔ x ∈ G ∨ x ∈ L := by
+  induction L generalizing G with
+  | nil => simp
+  | cons t rest ih =>
+    simp only [List.foldl_cons, ih, List.mem_cons]
+    have : x ∈ specInsert G t ↔ x ∈ G ∨ x = t := by
+      unfold specInsert
+      split
+      · rename_i h
+        constructor
+        · exact Or.inl
+        · rintro (h' | rfl) <;> assumption
+      · simp
+    rw [this]
+    constructor
+    · rintro ((h | h) | h)
+      · exact Or.inl h
+      · exact Or.inr (Or.inl h)
+      · exact Or.inr (Or.inr h)
+    · rintro (h | h | h)
+      · exact Or.inl (Or.inl h)
+      · exact Or.inl (Or.inr h)
+      · exact Or.inr h
+
+theorem nodup_foldl_specInsert (G L : List Triple) (h : G.Nodup) : (L.foldl specInsert G).Nodup := by
+  induction L generalizing G with
+  | nil => exact h
+  | cons t rest ih =>
+    simp only [List.foldl_cons]
+    apply ih
+    unfold specInsert
+    split
+    · exact h
+    · rename_i hn
+      rw [List.nodup_append]
+      refine ⟨h, by simp, ?_⟩
+      intro a ha b hb hab
+      simp only [List.mem_singleton] at hb
+      subst hb
+      subst hab
+      exact hn ha
+
+theorem foldl_specInsert_perm (G L L' : List Triple) (hG : G.Nodup) (h : L.Perm L') :
+    (L.foldl specInsert G).Perm (L'.foldl specInsert G) := by
+  rw [List.perm_ext_iff_of_nodup (nodup_foldl_specInsert G L hG) (nodup_foldl_specInsert G L' hG)]
+  intro x
+  rw [mem_foldl_specInsert, mem_foldl_specInsert, h.mem_iff]
+
+theorem nodup_foldl_specRemove (G L : List Triple) (h : G.Nodup) : (L.foldl specRemove G).Nodup := by
+  rw [foldl_specRemove_eq]
+  exact h.filter _
+
+/-- the triples a template produces from the rows of a good table and from the algebra's solutions -/
+theorem inst_perm (env : Env) (n : Nat) (U : List Nat) (hB : BackStable env U) (t : Table) (cert : List Nat)
+    (g : Good n cert t) (sols : List Sol)
+    (hsol : ∀ μ ∈ sols, ∀ w y, μ.get w = some y → y ∈ U)
+    (hp : (t.rows.map (toSol n t.cols)).Perm (sols.map (lexSol env)))
+    (tp : TP) (hc : ∀ c ∈ tpConsts tp, env.litNorm c = c) :
+    (t.rows.filterMap fun r => instantiate env t.cols r tp).Perm (sols.filterMap fun μ => specInst env μ tp) := by
+  have h1 : (t.rows.filterMap fun r => instantiate env t.cols r tp) =
+      (t.rows.map (toSol n t.cols)).filterMap (fun σ => instL env σ tp) := by
+    rw [List.filterMap_map]
+    apply filterMap_congr'
+    intro r hr
+    exact instantiate_eq env n t.cols r g.nodup g.lt (g.noInt r hr) tp
+  have h2 : (sols.filterMap fun μ => specInst env μ tp) = (sols.map (lexSol env)).filterMap (fun σ => instL env σ tp) := by
+    rw [List.filterMap_map]
+    apply filterMap_congr'
+    intro μ hμ
+    exact specInst_eq env U hB μ (hsol μ hμ) tp hc
+  rw [h1, h2]
+  exact hp.filterMap _
+
+/-- the constants of the templates survive `literal_to_value` -/
+def tplStable (env : Env) (tps : List TP) : Bool :=
+  tps.all fun tp => (tpConsts tp).all fun c => env.litNorm c == c
+
+theorem tplStable_spec (env : Env) (tps : List TP) (h : tplStable env tps = true) :
+    ∀ tp ∈ tps, ∀ c ∈ tpConsts tp, env.litNorm c = c := by
+  intro tp htp c hc
+  simp only [tplStable, List.all_eq_true, beq_iff_eq] at h
+  exact h tp htp c hc
+
+theorem flatMap_inst_perm (env : Env) (n : Nat) (U : List Nat) (hB : BackStable env U) (t : Table) (cert : List Nat)
+    (g : Good n cert t) (sols : List Sol)
+    (hsol : ∀ μ ∈ sols, ∀ w y, μ.get w = some y → y ∈ U)
+    (hp : (t.rows.map (toSol n t.cols)).Perm (sols.map (lexSol env)))
+    (tps : List TP) (hc : ∀ tp ∈ tps, ∀ c ∈ tpConsts tp, env.litNorm c = c) :
+    (tps.flatMap fun tp => t.rows.filterMap fun r => instantiate env t.cols r tp).Perm
+      (tps.flatMap fun tp => sols.filterMap fun μ => specInst env μ tp) := by
+  apply flatMap_perm_pointwise
+  intro tp htp
+  exact inst_perm env n U hB t cert g sols hsol hp tp (hc tp htp)
+
+/-- what `RdfModifyOperator` leaves in the store is what the specification says, given that the
+WHERE table stands for the specification's solutions -/
+theorem applyModify_perm (env : Env) (n : Nat) (U : List Nat) (hB : BackStable env U) (b : Bool) (ops : List Op)
+    (full : List Triple) (del ins : List TP) (t : Table) (cert : List Nat) (g : Good n cert t) (sols : List Sol)
+    (hsol : ∀ μ ∈ sols, ∀ w y, μ.get w = some y → y ∈ U)
+    (hp : (t.rows.map (toSol n t.cols)).Perm (sols.map (lexSol env)))
+    (htpl : ∀ tp ∈ del ++ ins, ∀ c ∈ tpConsts tp, env.litNorm c = c) :
+    (applyModify env ⟨run b ops, full⟩ del ins t).st.triples.Perm
+      ((ins.flatMap fun tp => sols.filterMap fun μ => specInst env μ tp).foldl specInsert
+        ((del.flatMap fun tp => sols.filterMap fun μ => specInst env μ tp).foldl specRemove (run b ops).triples)) := by
+  have pd := flatMap_inst_perm env n U hB t cert g sols hsol hp del (fun tp h => htpl tp (List.mem_append_left _ h))
+  have pi := flatMap_inst_perm env n U hB t cert g sols hsol hp ins (fun tp h => htpl tp (List.mem_append_right _ h))
+  simp only [applyModify]
+  rw [foldl_insert_triples, foldl_remove_triples]
+  show (List.foldl specInsert (List.foldl specRemove (run b ops).triples _) _).Perm _
+  rw [foldl_specRemove_perm _ _ _ pd]
+  exact foldl_specInsert_perm _ _ _ (nodup_foldl_specRemove _ _ (inv_run b ops).nodup) pi
+
+/-- **DELETE { … } INSERT { … } WHERE { … }** changes the set exactly as the specification says, for
+WHERE clauses in the fragment of `c13_sparql_select_partial`, data whose terms `value_to_term`
+recovers from their lexical forms, and templates whose constants survive `literal_to_value`. -/
+theorem c13_sparql_modify_partial (env : Env) (b : Bool) (ops : List Op)
+    (full : List Triple) (n : Nat) (del ins : List TP) (w : Grp)
+    (hfull : full.Perm (run b ops).triples)
+    (hs : scopeOk n (simpUnit (transStd w)) = true)
+    (hwf : wfPat env n (transCode w) = true)
+    (htpl : tplStable env (del ++ ins) = true)
+    (hlex : lexClash env (termsOf (run b ops).triples (transCode w)) = false)
+    (heq : eqExactB env (termsOf (run b ops).triples (transCode w)) = true)
+    (hback : backStableB env (termsOf (run b ops).triples (transCode w)) = true) :
+    updAgrees env (run b ops) full n (.modify del ins w) := by
+  obtain ⟨_, g, hp⟩ := exec_perm_eval env b ops full n _ hfull
+    (lexInj_of_noClash env _ hlex) (eqExact_of_B env _ heq) (fun x hx => List.mem_append_left _ hx)
+    (transCode w) hwf (fun c h => List.mem_append_right _ h)
+  rw [eval_transCode env n _ w hs] at hp
+  have hsol : ∀ μ ∈ eval env n (run b ops).triples (transStd w), ∀ w' y, μ.get w' = some y →
+      y ∈ termsOf (run b ops).triples (transCode w) := by
+    intro μ hμ w' y hy
+    exact List.mem_append_left _ ((eval_wf env n _ _ μ hμ).2 w' y hy)
+  have hres := applyModify_perm env n _ (backStable_of_B env _ hback) b ops full del ins _ _ g _ hsol hp
+    (tplStable_spec env _ htpl)
+  unfold updAgrees
+  simp only [execUpdate, specUpdate]
+  by_cases hpr : ((del ++ ins).all (predOk env)) = true
+  · rw [if_pos hpr, if_pos hpr]
+    exact hres
+  · rw [if_neg hpr, if_neg hpr]
+    trivial
+
+/-- **DELETE WHERE { … }** with any number of triple patterns likewise. -/
+theorem c13_sparql_delete_where_partial (env : Env) (b : Bool) (ops : List Op)
+    (full : List Triple) (n : Nat) (tps : List TP)
+    (hfull : full.Perm (run b ops).triples)
+    (hwf : wfPat env n (bgp tps) = true)
+    (htpl : tplStable env tps = true)
+    (hlex : lexClash env (termsOf (run b ops).triples (bgp tps)) = false)
+    (heq : eqExactB env (termsOf (run b ops).triples (bgp tps)) = true)
+    (hback : backStableB env (termsOf (run b ops).triples (bgp tps)) = true) :
+    updAgrees env (run b ops) full n (.deleteWhere tps) := by
+  obtain ⟨_, g, hp⟩ := exec_perm_eval env b ops full n _ hfull
+    (lexInj_of_noClash env _ hlex) (eqExact_of_B env _ heq) (fun x hx => List.mem_append_left _ hx)
+    (bgp tps) hwf (fun c h => List.mem_append_right _ h)
+  have hsol : ∀ μ ∈ eval env n (run b ops).triples (bgp tps), ∀ w' y, μ.get w' = some y →
+      y ∈ termsOf (run b ops).triples (bgp tps) := by
+    intro μ hμ w' y hy
+    exact List.mem_append_left _ ((eval_wf env n _ _ μ hμ).2 w' y hy)
+  have hres := applyModify_perm env n _ (backStable_of_B env _ hback) b ops full tps [] _ _ g _ hsol hp
+    (by simpa using tplStable_spec env _ htpl)
+  unfold updAgrees
+  simp only [execUpdate, specUpdate]
+  by_cases hpr : (tps.all (predOk env)) = true
+  · rw [if_pos hpr, if_pos hpr]
+    simpa using hres
+  · rw [if_neg hpr, if_neg hpr]
+    trivial
+
+/-! ## a concrete environment: the term pool of stream `sparql`
+
+0 `<http://ex.org/a>` 1 `<http://ex.org/b>` 2 `<http://ex.org/p>` 3 `<x>` 4 `_:x` 5 `_:b1` 6 `"x"`
+7 `"x"@en` 8 `"x"@de` 9 `"x"^^xsd:token` 10 `"1"^^xsd:integer` 11 `"1"` 12 `""` 13… `<http://ex.org/n13>`…
+16 `"_:x"` 17 `"_:b1"` 18 `"http://ex.org/a"` 19 `"10"` 20 `"9"` 21 `"10"^^xsd:integer` 22 `"9"^^xsd:integer` -/
+
+def wLex (c : Nat) : Nat :=
+  match c with
+  | 6 => 3 | 7 => 3 | 8 => 3 | 9 => 3 | 11 => 10 | 16 => 4 | 17 => 5 | 18 => 0 | 21 => 19 | 22 => 20
+  | c => c
+
+/-- position of a lexical form in byte order -/
+def wRank (l : Nat) : Nat :=
+  match l with
+  | 12 => 0 | 10 => 1 | 19 => 2 | 20 => 3 | 5 => 4 | 4 => 5 | 0 => 6 | 1 => 7 | 13 => 8 | 14 => 9 | 15 => 10
+  | 2 => 11 | 3 => 12
+  | l => 100 + l
+
+def wKind (c : Nat) : Kind :=
+  match c with
+  | 4 => .blank | 5 => .blank
+  | 6 => .plain | 7 => .lang | 8 => .lang | 9 => .other | 10 => .int 1 | 11 => .plain | 12 => .plain
+  | 16 => .plain | 17 => .plain | 18 => .plain | 19 => .plain | 20 => .plain | 21 => .int 10 | 22 => .int 9
+  | _ => .iri
+
+def wNum (l : Nat) : Option Int :=
+  match l with
+  | 10 => some 1 | 19 => some 10 | 20 => some 9
+  | _ => none
+
+def wLitNorm (c : Nat) : Nat :=
+  match c with
+  | 7 => 6 | 8 => 6 | 9 => 6
+  | c => c
+
+def wConstVal (c : Nat) : FVal :=
+  match wKind c with
+  | .int n => .int n
+  | _ => .str (wLex c)
+
+def wBack (l : Nat) : Nat :=
+  match l with
+  | 3 => 6 | 4 => 16 | 5 => 17 | 19 => 21 | 20 => 22
+  | l => l
+
+/-- the pool, code as it is -/
+def wEnv : Env :=
+  { lex := wLex, emptyLex := 12, strLt := fun a b => decide (wRank a < wRank b), num := wNum,
+    litNorm := wLitNorm, constVal := wConstVal, back := wBack, kind := wKind, vfix := true }
+
+/-- the pool with the `ValueVector` of before /repo commit ea119b4 (read by `Old` only) -/
+def wEnvOld : Env := { wEnv with vfix := false }
+
+def mkStore (io : Bool) (ts : List Triple) : Store := run io (ts.map Op.insert)
+
+def tp (s p o : PT) : TP := ⟨s, p, o⟩
+def v (n : Nat) : PT := .var n
+def c (n : Nat) : PT := .const n
+
+def sel (proj : Option (List Nat)) (g : Grp) : Select :=
+  { distinct := false, proj := proj, order := [], offset := none, limit := none, where_ := g }
+
+def cnt (arg : Option Nat) (alias : Nat) (groupBy : List Nat) (g : Grp) : Count :=
+  { distinct := false, arg := arg, alias := alias, groupBy := groupBy, order := [], offset := none, limit := none,
+    where_ := g }
+
+namespace Old
+
+/-- the agreement predicates for the model of the code before the repairs -/
+def selAgrees (env : Env) (st : Store) (full : List Triple) (n : Nat) (q : Select) : Prop :=
+  match Old.execSelect env st full q with
+  | none => False
+  | some t => (t.rows.map (toSol n t.cols)).Perm ((specSelect env n st.triples q).map (lexSol env))
+
+instance (env : Env) (st : Store) (full : List Triple) (n : Nat) (q : Select) : Decidable (Old.selAgrees env st full n q) := by
+  unfold Old.selAgrees
+  split <;> infer_instance
+
+def cntAgrees (env : Env) (st : Store) (full : List Triple) (n : Nat) (q : Count) : Prop :=
+  match Old.execCount env st full q with
+  | none => False
+  | some t => t.cols = q.groupBy ++ [q.alias] ∧ t.rows.Perm ((specCount env n st.triples q).map (countRowCells env))
+
+instance (env : Env) (st : Store) (full : List Triple) (n : Nat) (q : Count) : Decidable (Old.cntAgrees env st full n q) := by
+  unfold Old.cntAgrees
+  split <;> infer_instance
+
+def updAgrees (env : Env) (st : Store) (full : List Triple) (n : Nat) (u : Update) : Prop :=
+  match Old.execUpdate env ⟨st, full⟩ u, specUpdate env n st.triples u with
+  | some u', some G' => u'.st.triples.Perm G'
+  | none, none => True
+  | _, _ => False
+
+instance (env : Env) (st : Store) (full : List Triple) (n : Nat) (u : Update) : Decidable (Old.updAgrees env st full n u) := by
+  unfold Old.updAgrees
+  split <;> infer_instance
+
+end Old
+
+/-! ## regression witnesses: defects repaired in /repo in this round
+
+`Old.w_*`: the model of the code before the repair disagrees with the specification on a smallest
+instance; `r_*`: the model of the code as it is agrees on the same instance. Each instance is a line
+of `corpus/C13/sparql.ops`. -/
+
+/-- `SELECT DISTINCT ?v0 WHERE { ?v0 <p> ?v1 }` over `{a p a, a p b}` returned `a` twice -/
+theorem Old.w_distinct_ignored :
+    ¬ Old.selAgrees wEnv (mkStore true [⟨0, 2, 0⟩, ⟨0, 2, 1⟩]) [⟨0, 2, 0⟩, ⟨0, 2, 1⟩] 2
+      { sel (some [0]) (.triples [tp (v 0) (c 2) (v 1)] .nil) with distinct := true } := by
+  decide
+
+theorem r_distinct :
+    selAgrees wEnv (mkStore true [⟨0, 2, 0⟩, ⟨0, 2, 1⟩]) [⟨0, 2, 0⟩, ⟨0, 2, 1⟩] 2
+      { sel (some [0]) (.triples [tp (v 0) (c 2) (v 1)] .nil) with distinct := true } := by
+  decide
+
+/-- `{ ?v0 <p> ?v1 OPTIONAL { ?v0 <x> ?v2 } }` over `{a p a, b p a}`: the second unmatched row got `""`
+for `?v2` (`ValueVector::set_null` beyond the bitmap; /repo commit ea119b4) -/
+theorem Old.w_null_lost_after_first :
+    ¬ Old.selAgrees wEnvOld (mkStore true [⟨0, 2, 0⟩, ⟨1, 2, 0⟩]) [⟨0, 2, 0⟩, ⟨1, 2, 0⟩] 3
+      (sel none (.triples [tp (v 0) (c 2) (v 1)] (.optional (.triples [tp (v 0) (c 3) (v 2)] .nil) .nil))) := by
+  decide
+
+theorem r_null_kept :
+    selAgrees wEnv (mkStore true [⟨0, 2, 0⟩, ⟨1, 2, 0⟩]) [⟨0, 2, 0⟩, ⟨1, 2, 0⟩] 3
+      (sel none (.triples [tp (v 0) (c 2) (v 1)] (.optional (.triples [tp (v 0) (c 3) (v 2)] .nil) .nil))) := by
+  decide
+
+/-- `{ ?v0 <p> ?v0 }` over `{a p a, a p b}` returned both triples under two columns named `v0` -/
+theorem Old.w_repeated_variable :
+    ¬ Old.selAgrees wEnv (mkStore true [⟨0, 2, 0⟩, ⟨0, 2, 1⟩]) [⟨0, 2, 0⟩, ⟨0, 2, 1⟩] 1
+      (sel none (.triples [tp (v 0) (c 2) (v 0)] .nil)) := by
+  decide
+
+theorem r_repeated_variable :
+    selAgrees wEnv (mkStore true [⟨0, 2, 0⟩, ⟨0, 2, 1⟩]) [⟨0, 2, 0⟩, ⟨0, 2, 1⟩] 1
+      (sel none (.triples [tp (v 0) (c 2) (v 0)] .nil)) := by
+  decide
+
+/-- `{ ?v0 <p> ?v1 } UNION { ?v1 <x> ?v0 }` over `{a p b, b x a}`: the second branch's rows came out
+under the first branch's column names -/
+theorem Old.w_union_columns_of_first_branch :
+    ¬ Old.selAgrees wEnv (mkStore true [⟨0, 2, 1⟩, ⟨1, 3, 0⟩]) [⟨0, 2, 1⟩, ⟨1, 3, 0⟩] 2
+      (sel none (.union (.triples [tp (v 0) (c 2) (v 1)] .nil) (.triples [tp (v 1) (c 3) (v 0)] .nil) .nil)) := by
+  decide
+
+theorem r_union_columns :
+    selAgrees wEnv (mkStore true [⟨0, 2, 1⟩, ⟨1, 3, 0⟩]) [⟨0, 2, 1⟩, ⟨1, 3, 0⟩] 2
+      (sel none (.union (.triples [tp (v 0) (c 2) (v 1)] .nil) (.triples [tp (v 1) (c 3) (v 0)] .nil) .nil)) := by
+  decide
+
+/-- … and with different variable sets: `{ ?v0 <p> ?v1 } UNION { ?v2 <x> ?v0 }`, projected on `?v2` -/
+theorem r_union_other_variables :
+    selAgrees wEnv (mkStore true [⟨0, 2, 1⟩, ⟨1, 3, 0⟩]) [⟨0, 2, 1⟩, ⟨1, 3, 0⟩] 3
+      (sel (some [2, 0]) (.union (.triples [tp (v 0) (c 2) (v 1)] .nil) (.triples [tp (v 2) (c 3) (v 0)] .nil) .nil)) := by
+  decide
+
+/-- `{ OPTIONAL { ?v0 <p> ?v1 } ?v0 <x> ?v2 }` over `{a p b, b x b}` was evaluated as
+`{ ?v0 <x> ?v2 OPTIONAL { ?v0 <p> ?v1 } }` -/
+theorem Old.w_optional_placement :
+    ¬ Old.selAgrees wEnv (mkStore true [⟨0, 2, 1⟩, ⟨1, 3, 1⟩]) [⟨0, 2, 1⟩, ⟨1, 3, 1⟩] 3
+      (sel none (.optional (.triples [tp (v 0) (c 2) (v 1)] .nil) (.triples [tp (v 0) (c 3) (v 2)] .nil))) := by
+  decide
+
+theorem r_optional_placement :
+    selAgrees wEnv (mkStore true [⟨0, 2, 1⟩, ⟨1, 3, 1⟩]) [⟨0, 2, 1⟩, ⟨1, 3, 1⟩] 3
+      (sel none (.optional (.triples [tp (v 0) (c 2) (v 1)] .nil) (.triples [tp (v 0) (c 3) (v 2)] .nil))) := by
+  decide
+
+/-- `{ ?v0 <p> ?v1 OPTIONAL { ?v0 <x> ?v2 } FILTER(!BOUND(?v2)) }` over `{a p b}` was empty -/
+theorem Old.w_bound_of_null :
+    ¬ Old.selAgrees wEnv (mkStore true [⟨0, 2, 1⟩]) [⟨0, 2, 1⟩] 3
+      (sel none (.triples [tp (v 0) (c 2) (v 1)] (.optional (.triples [tp (v 0) (c 3) (v 2)] .nil)
+        (.filter (.not (.bound 2)) .nil)))) := by
+  decide
+
+theorem r_bound_of_null :
+    selAgrees wEnv (mkStore true [⟨0, 2, 1⟩]) [⟨0, 2, 1⟩] 3
+      (sel none (.triples [tp (v 0) (c 2) (v 1)] (.optional (.triples [tp (v 0) (c 3) (v 2)] .nil)
+        (.filter (.not (.bound 2)) .nil)))) := by
+  decide
+
+/-- `FILTER(?v1 = <b> || ?v2 = <b>)` with `?v2` not in scope, over `{a p b}`, dropped the row -/
+theorem Old.w_filter_or_error :
+    ¬ Old.selAgrees wEnv (mkStore true [⟨0, 2, 1⟩]) [⟨0, 2, 1⟩] 3
+      (sel none (.triples [tp (v 0) (c 2) (v 1)] (.filter (.or (.eq (v 1) (c 1)) (.eq (v 2) (c 1))) .nil))) := by
+  decide
+
+theorem r_filter_or_error :
+    selAgrees wEnv (mkStore true [⟨0, 2, 1⟩]) [⟨0, 2, 1⟩] 3
+      (sel none (.triples [tp (v 0) (c 2) (v 1)] (.filter (.or (.eq (v 1) (c 1)) (.eq (v 2) (c 1))) .nil))) := by
+  decide
+
+/-- `SELECT * { }` was an error ("Empty plan") -/
+theorem Old.w_empty_group_error :
+    ¬ Old.selAgrees wEnv (mkStore true [⟨0, 2, 1⟩]) [⟨0, 2, 1⟩] 1 (sel none .nil) := by
+  decide
+
+theorem r_empty_group : selAgrees wEnv (mkStore true [⟨0, 2, 1⟩]) [⟨0, 2, 1⟩] 1 (sel none .nil) := by
+  decide
+
+/-- `SELECT ?v2 { ?v0 <p> ?v1 }` was an error -/
+theorem Old.w_projection_not_a_column :
+    ¬ Old.selAgrees wEnv (mkStore true [⟨0, 2, 1⟩]) [⟨0, 2, 1⟩] 3
+      (sel (some [2]) (.triples [tp (v 0) (c 2) (v 1)] .nil)) := by
+  decide
+
+theorem r_projection_not_a_column :
+    selAgrees wEnv (mkStore true [⟨0, 2, 1⟩]) [⟨0, 2, 1⟩] 3
+      (sel (some [2]) (.triples [tp (v 0) (c 2) (v 1)] .nil)) := by
+  decide
+
+/-- `SELECT (COUNT(?v2) AS ?v3) { ?v0 <p> ?v1 OPTIONAL { ?v0 <x> ?v2 } }` over `{a p b}` was 1 -/
+theorem Old.w_count_counts_unbound :
+    ¬ Old.cntAgrees wEnv (mkStore true [⟨0, 2, 1⟩]) [⟨0, 2, 1⟩] 4
+      (cnt (some 2) 3 [] (.triples [tp (v 0) (c 2) (v 1)] (.optional (.triples [tp (v 0) (c 3) (v 2)] .nil) .nil))) := by
+  decide
+
+theorem r_count_bound_only :
+    cntAgrees wEnv (mkStore true [⟨0, 2, 1⟩]) [⟨0, 2, 1⟩] 4
+      (cnt (some 2) 3 [] (.triples [tp (v 0) (c 2) (v 1)] (.optional (.triples [tp (v 0) (c 3) (v 2)] .nil) .nil))) := by
+  decide
+
+/-- `SELECT (COUNT(*) AS ?v2) { ?v0 <p> ?v1 } ORDER BY ?v2` returned `""` -/
+theorem Old.w_count_column_type_lost :
+    ¬ Old.cntAgrees wEnv (mkStore true [⟨0, 2, 1⟩]) [⟨0, 2, 1⟩] 3
+      { cnt none 2 [] (.triples [tp (v 0) (c 2) (v 1)] .nil) with order := [(2, false)] } := by
+  decide
+
+theorem r_count_column_type :
+    cntAgrees wEnv (mkStore true [⟨0, 2, 1⟩]) [⟨0, 2, 1⟩] 3
+      { cnt none 2 [] (.triples [tp (v 0) (c 2) (v 1)] .nil) with order := [(2, false)] } := by
+  decide
+
+/-- `DELETE WHERE { ?v0 <x> ?v1 . ?v0 <p> ?v2 }` over `{a x b, a p b}` left `a p b` -/
+theorem Old.w_delete_where_sequential :
+    ¬ Old.updAgrees wEnv (mkStore true [⟨0, 3, 1⟩, ⟨0, 2, 1⟩]) [⟨0, 3, 1⟩, ⟨0, 2, 1⟩] 3
+      (.deleteWhere [tp (v 0) (c 3) (v 1), tp (v 0) (c 2) (v 2)]) := by
+  decide
+
+theorem r_delete_where_once :
+    updAgrees wEnv (mkStore true [⟨0, 3, 1⟩, ⟨0, 2, 1⟩]) [⟨0, 3, 1⟩, ⟨0, 2, 1⟩] 3
+      (.deleteWhere [tp (v 0) (c 3) (v 1), tp (v 0) (c 2) (v 2)]) := by
+  decide
+
+/-- `DELETE { ?v0 <p> ?v1 } WHERE { ?v0 <p> ?v1 FILTER(?v1 = <b>) }` over `{a p a, a p b}` deleted `a p a` -/
+theorem Old.w_update_ignores_selection :
+    ¬ Old.updAgrees wEnv (mkStore true [⟨0, 2, 0⟩, ⟨0, 2, 1⟩]) [⟨0, 2, 0⟩, ⟨0, 2, 1⟩] 2
+      (.modify [tp (v 0) (c 2) (v 1)] [] (.triples [tp (v 0) (c 2) (v 1)] (.filter (.eq (v 1) (c 1)) .nil))) := by
+  decide
+
+theorem r_update_selected_rows :
+    updAgrees wEnv (mkStore true [⟨0, 2, 0⟩, ⟨0, 2, 1⟩]) [⟨0, 2, 0⟩, ⟨0, 2, 1⟩] 2
+      (.modify [tp (v 0) (c 2) (v 1)] [] (.triples [tp (v 0) (c 2) (v 1)] (.filter (.eq (v 1) (c 1)) .nil))) := by
+  decide
+
+/-! ## witnesses: where the code's strategy is still not the algebra
+
+The engine's columns hold the lexical forms of terms, not terms; what follows from that is open. -/
+
+/-- `{ ?v0 <p> "x"@en }` over `{a p "x", b p "x"@en}` returns `a`: `literal_to_value` drops the
+language tag (and any datatype it does not know) -/
+theorem w_literal_constant_loses_tag :
+    ¬ selAgrees wEnv (mkStore true [⟨0, 2, 6⟩, ⟨1, 2, 7⟩]) [⟨0, 2, 6⟩, ⟨1, 2, 7⟩] 1
+      (sel none (.triples [tp (v 0) (c 2) (c 7)] .nil)) := by
+  decide
+
+/-- `{ ?v0 <p> ?v1 . ?v1 <p> ?v2 }` over `{a p "x", <x> p b}`: the literal `"x"` joins with the
+IRI `<x>` -/
+theorem w_terms_compared_as_strings :
+    ¬ selAgrees wEnv (mkStore true [⟨0, 2, 6⟩, ⟨3, 2, 1⟩]) [⟨0, 2, 6⟩, ⟨3, 2, 1⟩] 3
+      (sel none (.triples [tp (v 0) (c 2) (v 1), tp (v 1) (c 2) (v 2)] .nil)) := by
+  decide
+
+/-- `{ ?v0 <p> ?v1 OPTIONAL { ?v0 <x> ?v2 } OPTIONAL { ?v1 <x> ?v2 } }` over `{a p b, b x a}`: an
+unbound `?v2` is a null that is not equal to any value, so the second OPTIONAL cannot bind it -/
+theorem w_join_on_unbound :
+    ¬ selAgrees wEnv (mkStore true [⟨0, 2, 1⟩, ⟨1, 3, 0⟩]) [⟨0, 2, 1⟩, ⟨1, 3, 0⟩] 3
+      (sel none (.triples [tp (v 0) (c 2) (v 1)] (.optional (.triples [tp (v 0) (c 3) (v 2)] .nil)
+        (.optional (.triples [tp (v 1) (c 3) (v 2)] .nil) .nil)))) := by
+  decide
+
+/-- `{ ?v0 <p> ?v1 OPTIONAL { ?v1 <x> ?v2 FILTER(?v0 = <a>) } }` over `{a p b, b x a}`: the FILTER of
+an OPTIONAL is evaluated inside the optional part, where `?v0` is not in scope -/
+theorem w_optional_filter_scope :
+    ¬ selAgrees wEnv (mkStore true [⟨0, 2, 1⟩, ⟨1, 3, 0⟩]) [⟨0, 2, 1⟩, ⟨1, 3, 0⟩] 3
+      (sel none (.triples [tp (v 0) (c 2) (v 1)]
+        (.optional (.triples [tp (v 1) (c 3) (v 2)] (.filter (.eq (v 0) (c 0)) .nil)) .nil))) := by
+  decide
+
+/-- `FILTER(?v1 < <b>)` over `{a p a}`: `<` between IRIs is a type error in SPARQL, a string
+comparison in the engine -/
+theorem w_filter_lt_on_iris :
+    ¬ selAgrees wEnv (mkStore true [⟨0, 2, 0⟩]) [⟨0, 2, 0⟩] 2
+      (sel none (.triples [tp (v 0) (c 2) (v 1)] (.filter (.lt (v 1) (c 1)) .nil))) := by
+  decide
+
+/-- `FILTER(?v1 = 1)` over `{a p "1"^^xsd:integer}` is empty: the constant is `Int64(1)`, the
+column holds the string `"1"` -/
+theorem w_filter_numeric_constant :
+    ¬ selAgrees wEnv (mkStore true [⟨0, 2, 10⟩]) [⟨0, 2, 10⟩] 2
+      (sel none (.triples [tp (v 0) (c 2) (v 1)] (.filter (.eq (v 1) (c 10)) .nil))) := by
+  decide
+
+/-- `SELECT ?v1 { <a> <p> ?v1 } ORDER BY ?v1` over `{a p "1", a p b}`: byte order of the lexical
+forms (`"1"` before `http://…`) instead of §15.1 (IRIs before literals) -/
+theorem w_order_by_lexical :
+    ¬ selAgreesOrdered wEnv (mkStore true [⟨0, 2, 11⟩, ⟨0, 2, 1⟩]) [⟨0, 2, 11⟩, ⟨0, 2, 1⟩] 2
+      { sel (some [1]) (.triples [tp (c 0) (c 2) (v 1)] .nil) with order := [(1, false)] } := by
+  decide
+
+/-- `SELECT * { ?v0 <p> ?v1 } ORDER BY ?v2` is an error; sorting by a variable that is not in scope
+leaves the solutions as they are -/
+theorem w_order_by_unknown_variable :
+    ¬ selAgrees wEnv (mkStore true [⟨0, 2, 1⟩]) [⟨0, 2, 1⟩] 3
+      { sel none (.triples [tp (v 0) (c 2) (v 1)] .nil) with order := [(2, false)] } := by
+  decide
+
+/-- `INSERT DATA { <a> <p> "x"@en }` stores `"x"` -/
+theorem w_insert_data_loses_tag :
+    ¬ updAgrees wEnv (mkStore true []) [] 0 (.insertData [⟨0, 2, 7⟩]) := by
+  decide
+
+/-- `DELETE WHERE { ?v0 <p> ?v1 }` over `{<x> p a}` deletes nothing: the binding `"x"` is turned
+back into a term by looking at it (`value_to_term`: not `http…`, so a literal — an illegal subject) -/
+theorem w_update_term_from_string :
+    ¬ updAgrees wEnv (mkStore true [⟨3, 2, 0⟩]) [⟨3, 2, 0⟩] 2 (.deleteWhere [tp (v 0) (c 2) (v 1)]) := by
+  decide
+
+/-! ## non-vacuity: every partial theorem, applied -/
 
 def nvOps : List Op :=
   [.insert ⟨0, 2, 1⟩, .insert ⟨1, 2, 13⟩, .insert ⟨3, 2, 0⟩, .insert ⟨0, 2, 13⟩, .remove ⟨3, 2, 0⟩,
@@ -3816,9 +4195,10 @@ def nvPat : Pat :=
     (.scan (tp (v 0) (c 14) (v 3))) none
 
 theorem nv_pattern :
-    ∃ t, exec wEnv (run false nvOps) nvFull nvPat = some t ∧ t.cols = patCols nvPat ∧
-      (t.rows.map (toSol 4 t.cols)).Perm ((eval wEnv 4 (run false nvOps).triples nvPat).map (lexSol wEnv)) :=
-  c13_sparql_pattern_partial wEnv rfl false nvOps nvFull 4 nvPat (by decide) (by decide) (by decide) (by decide)
+    (exec wEnv (run false nvOps) nvFull nvPat).cols = patCols nvPat ∧
+      ((exec wEnv (run false nvOps) nvFull nvPat).rows.map (toSol 4 (patCols nvPat))).Perm
+        ((eval wEnv 4 (run false nvOps).triples nvPat).map (lexSol wEnv)) :=
+  c13_sparql_pattern_partial wEnv false nvOps nvFull 4 nvPat (by decide) (by decide) (by decide) (by decide)
 
 /-- … and the answer it speaks about has four solutions, one of them with `?v3` unbound … -/
 theorem nv_pattern_answer :
@@ -3826,20 +4206,63 @@ theorem nv_pattern_answer :
       [some 0, some 13, some 0, none] ∈ eval wEnv 4 (run false nvOps).triples nvPat := by
   decide
 
+/-- `{ ?v0 <p> ?v0 } UNION { ?v2 <n14> ?v0 }` under `FILTER(BOUND(?v2) || ?v0 = <a>)`, joined with the
+empty group: a repeated variable, branches with different variables, the three-valued `||`, the unit -/
+def nvPat2 : Pat :=
+  .join .unit
+    (.filter (.or (.bound 2) (.eq (v 0) (c 0)))
+      (.union (.scan (tp (v 0) (c 2) (v 0))) (.scan (tp (v 2) (c 14) (v 0)))))
+
+theorem nv_pattern_union :
+    (exec wEnv (run false (nvOps ++ [.insert ⟨0, 2, 0⟩])) (⟨0, 2, 0⟩ :: nvFull) nvPat2).cols = patCols nvPat2 ∧
+      ((exec wEnv (run false (nvOps ++ [.insert ⟨0, 2, 0⟩])) (⟨0, 2, 0⟩ :: nvFull) nvPat2).rows.map
+          (toSol 3 (patCols nvPat2))).Perm
+        ((eval wEnv 3 (run false (nvOps ++ [.insert ⟨0, 2, 0⟩])).triples nvPat2).map (lexSol wEnv)) :=
+  c13_sparql_pattern_partial wEnv false _ _ 3 nvPat2 (by decide) (by decide) (by decide) (by decide)
+
+theorem nv_pattern_union_answer :
+    eval wEnv 3 (run false (nvOps ++ [.insert ⟨0, 2, 0⟩])).triples nvPat2 =
+      [[some 0, none, none], [some 0, none, some 1]] := by
+  decide
+
 def nvSelect : Select :=
   { distinct := false, proj := some [2, 0], order := [(0, true), (2, false)], offset := some 1, limit := some 2,
     where_ := .triples [tp (v 0) (c 2) (v 1), tp (v 1) (c 2) (v 2)] (.filter (.ne (v 0) (c 1)) .nil) }
 
 theorem nv_select : selAgrees wEnv (run true nvOps) nvFull 3 { nvSelect with order := [], offset := none, limit := none } :=
-  c13_sparql_select_partial wEnv rfl true nvOps nvFull 3 _ (by decide) rfl rfl rfl rfl (by decide) (by decide)
-    (by decide) (by decide) (by decide)
+  c13_sparql_select_partial wEnv true nvOps nvFull 3 _ (by decide) rfl rfl rfl (by decide) (by decide) (by decide)
+    (by decide) (by decide)
+
+/-- `SELECT DISTINCT ?v0 …`: four solutions of the pattern, two after DISTINCT -/
+def nvDistinct : Select :=
+  { nvSelect with distinct := true, proj := some [0], order := [], offset := none, limit := none }
+
+theorem nv_distinct : selAgrees wEnv (run true nvOps) nvFull 3 nvDistinct :=
+  c13_sparql_select_partial wEnv true nvOps nvFull 3 _ (by decide) rfl rfl rfl (by decide) (by decide) (by decide)
+    (by decide) (by decide)
+
+theorem nv_distinct_answer :
+    specSelect wEnv 3 (run true nvOps).triples nvDistinct = [[some 0, none, none], [some 13, none, none]] ∧
+      (specSelect wEnv 3 (run true nvOps).triples { nvDistinct with distinct := false }).length = 4 := by
+  decide
 
 theorem nv_order : selAgreesOrdered wEnv (run true nvOps) nvFull 3 nvSelect :=
-  c13_sparql_order_partial wEnv rfl true nvOps nvFull 3 nvSelect (by decide) rfl (by decide) (by decide) (by decide)
-    (by decide) (by decide) (by decide) (by decide) (by decide) (by decide) ⟨by decide, by decide⟩ (by decide)
+  c13_sparql_order_partial wEnv true nvOps nvFull 3 nvSelect (by decide) rfl (by decide) (by decide) (by decide)
+    (by decide) (by decide) (by decide) (by decide) (by decide) ⟨by decide, by decide⟩ (by decide)
 
 theorem nv_order_answer :
     (specSelect wEnv 3 (run true nvOps).triples nvSelect) = [[some 13, none, some 13], [some 0, none, some 0]] := by
+  decide
+
+theorem nv_order_distinct :
+    selAgreesOrdered wEnv (run true nvOps) nvFull 3 { nvSelect with distinct := true, proj := some [2] } :=
+  c13_sparql_order_partial wEnv true nvOps nvFull 3 _ (by decide) rfl (by decide) (by decide) (by decide)
+    (by decide) (by decide) (by decide) (by decide) (by decide) ⟨by decide, by decide⟩ (by decide)
+
+/-- … sorted `1, 13, 0, 13` after the projection; DISTINCT keeps the first of each -/
+theorem nv_order_distinct_answer :
+    specSelect wEnv 3 (run true nvOps).triples { nvSelect with distinct := true, proj := some [2] } =
+      [[none, none, some 13], [none, none, some 0]] := by
   decide
 
 theorem nv_slice :
@@ -3847,14 +4270,21 @@ theorem nv_slice :
       t.rows.length = (specSelect wEnv 3 (run true nvOps).triples { nvSelect with order := [] }).length ∧
       ∃ rest, (t.rows.map (toSol 3 t.cols) ++ rest).Perm
         ((specSelect wEnv 3 (run true nvOps).triples { nvSelect with order := [], offset := none, limit := none }).map (lexSol wEnv)) :=
-  c13_sparql_slice_partial wEnv rfl true nvOps nvFull 3 { nvSelect with order := [] } (by decide) rfl rfl (by decide)
+  c13_sparql_slice_partial wEnv true nvOps nvFull 3 { nvSelect with order := [] } (by decide) rfl (by decide)
     (by decide) (by decide) (by decide) (by decide)
 
-theorem nv_count :
-    cntAgrees wEnv (run true nvOps) nvFull 3
-      (cnt (some 1) 2 [] (.triples [tp (v 0) (c 2) (v 1)] .nil)) :=
-  c13_sparql_count_partial wEnv rfl true nvOps nvFull 3 _ (by decide) rfl rfl rfl rfl rfl (by decide) (by decide)
+/-- `COUNT(?v2)` of a variable that only an OPTIONAL binds: two of the five solutions count -/
+def nvCount : Count :=
+  cnt (some 2) 3 [] (.triples [tp (v 0) (c 2) (v 1)] (.optional (.triples [tp (v 1) (c 14) (v 2)] .nil) .nil))
+
+theorem nv_count : cntAgrees wEnv (run true nvOps) nvFull 4 nvCount :=
+  c13_sparql_count_partial wEnv true nvOps nvFull 4 _ (by decide) rfl rfl rfl rfl rfl (by decide) (by decide)
     (by decide) (by decide) (by decide)
+
+theorem nv_count_answer :
+    specCount wEnv 4 (run true nvOps).triples nvCount = [⟨[], 1⟩] ∧
+      (eval wEnv 4 (run true nvOps).triples (transStd nvCount.where_)).length = 4 := by
+  decide
 
 theorem nv_insert_data : updAgrees wEnv (run true nvOps) nvFull 0 (.insertData [⟨13, 2, 1⟩, ⟨0, 2, 1⟩, ⟨0, 2, 6⟩]) :=
   c13_sparql_insert_data_partial wEnv _ _ 0 _ (by decide)
@@ -3862,23 +4292,44 @@ theorem nv_insert_data : updAgrees wEnv (run true nvOps) nvFull 0 (.insertData [
 theorem nv_delete_data : updAgrees wEnv (run true nvOps) nvFull 0 (.deleteData [⟨0, 2, 1⟩, ⟨0, 2, 6⟩]) :=
   c13_sparql_delete_data_partial wEnv _ _ 0 _ (by decide)
 
-theorem nv_delete_where : updAgrees wEnv (run false nvOps) nvFull 2 (.deleteWhere [tp (v 0) (c 2) (v 1)]) :=
-  c13_sparql_delete_where_partial wEnv rfl false nvOps nvFull 2 _ (by decide) rfl (by decide) (by decide) (by decide)
-    (by decide)
+/-- `DELETE WHERE { ?v0 <p> ?v1 . ?v1 <n14> ?v2 }`: two patterns, matched once -/
+theorem nv_delete_where :
+    updAgrees wEnv (run false nvOps) nvFull 3 (.deleteWhere [tp (v 0) (c 2) (v 1), tp (v 1) (c 14) (v 2)]) :=
+  c13_sparql_delete_where_partial wEnv false nvOps nvFull 3 _ (by decide) (by decide) (by decide) (by decide)
+    (by decide) (by decide)
 
-theorem nv_modify :
-    updAgrees wEnv (run true nvOps) nvFull 3
-      (.modify [tp (v 0) (c 2) (v 1)] [tp (v 1) (c 14) (v 0), tp (v 0) (c 2) (c 1)]
-        (.triples [tp (v 0) (c 2) (v 1)] (.optional (.triples [tp (v 1) (c 14) (v 2)] .nil) .nil))) :=
-  c13_sparql_modify_partial wEnv rfl true nvOps nvFull 3 _ _ _ (by decide) (by decide) (by decide) (by decide)
-    (by decide) (by decide) (by decide) (by decide)
+theorem nv_delete_where_answer :
+    specUpdate wEnv 3 (run false nvOps).triples (.deleteWhere [tp (v 0) (c 2) (v 1), tp (v 1) (c 14) (v 2)]) =
+      some [⟨1, 2, 13⟩, ⟨0, 2, 13⟩, ⟨13, 2, 0⟩] := by
+  decide
 
-/-- … which deletes four triples and inserts six -/
+/-- a WHERE clause with an OPTIONAL and a FILTER that drops rows -/
+def nvModify : Update :=
+  .modify [tp (v 0) (c 2) (v 1)] [tp (v 1) (c 14) (v 0), tp (v 0) (c 2) (c 1)]
+    (.triples [tp (v 0) (c 2) (v 1)] (.optional (.triples [tp (v 1) (c 14) (v 2)] .nil)
+      (.filter (.or (.bound 2) (.ne (v 0) (c 0))) .nil)))
+
+theorem nv_modify : updAgrees wEnv (run true nvOps) nvFull 3 nvModify :=
+  c13_sparql_modify_partial wEnv true nvOps nvFull 3 _ _ _ (by decide) (by decide) (by decide) (by decide)
+    (by decide) (by decide) (by decide)
+
 theorem nv_modify_answer :
-    (specUpdate wEnv 3 (run true nvOps).triples
-      (.modify [tp (v 0) (c 2) (v 1)] [tp (v 1) (c 14) (v 0), tp (v 0) (c 2) (c 1)]
-        (.triples [tp (v 0) (c 2) (v 1)] (.optional (.triples [tp (v 1) (c 14) (v 2)] .nil) .nil)))) =
-      some [⟨1, 14, 0⟩, ⟨13, 14, 1⟩, ⟨13, 14, 0⟩, ⟨0, 14, 13⟩, ⟨0, 2, 1⟩, ⟨1, 2, 1⟩, ⟨13, 2, 1⟩] := by
+    specUpdate wEnv 3 (run true nvOps).triples nvModify =
+      some [⟨0, 2, 13⟩, ⟨1, 14, 0⟩, ⟨13, 14, 1⟩, ⟨0, 14, 13⟩, ⟨0, 2, 1⟩, ⟨1, 2, 1⟩, ⟨13, 2, 1⟩] := by
+  decide
+
+/-- the translation theorems, applied: a group with an OPTIONAL in front, a UNION, a nested group and a FILTER -/
+def nvGrp : Grp :=
+  .optional (.triples [tp (v 0) (c 2) (v 1)] .nil)
+    (.union (.triples [tp (v 0) (c 2) (v 2)] .nil) (.group (.triples [tp (v 2) (c 14) (v 0)] .nil) .nil)
+      (.filter (.bound 1) .nil))
+
+theorem nv_translation :
+    eval wEnv 3 (run true nvOps).triples (transCode nvGrp) = eval wEnv 3 (run true nvOps).triples (transStd nvGrp) :=
+  eval_transCode wEnv 3 _ nvGrp (by decide)
+
+theorem nv_translation_answer :
+    transCode nvGrp ≠ transStd nvGrp ∧ (eval wEnv 3 (run true nvOps).triples (transStd nvGrp)).length = 8 := by
   decide
 
 end Grafeo.Sparql
